@@ -1,9 +1,13 @@
 (* Proofs/FragmentProofs.v — the grammar model on a fragment of well-formed Delphi (Model/Fragment.v):
    for EVERY program of the fragment (any nesting depth, any number of statements) the model ends without
    error and produces exactly the expected logical lines.  Proof: symbolic execution of `run` on states of
-   the shape `ST` (finished lines, one current line, one entry on the current_line stack), with effect
-   lemmas for the primitives and an induction over the syntax tree for the statement-list loop (generic in
-   the kind of the enclosing block: begin/end, repeat/until, try/finally, finally/end). *)
+   the shape `ST` (finished lines, one current line that is the last line, on top of a fixed rest `stk` of
+   the current_line stack: the "frame") and, where the current line is not the last line (after a child
+   line context has returned to its header line), of the shape `GS`; effect lemmas for the primitives; an
+   induction over the syntax tree for the statement-list loop, generic in the kind of the enclosing block
+   (begin/end, repeat/until, try/finally, try/except, the arms and the else part of a case statement), in the frame and in the parent of the enclosing
+   child line context.  The bodies of `if`/`while` are child lines: `child_run` crosses from the frame of
+   the header line to the frame of its child lines and back. *)
 From PasfmtVerif Require Import Model.Fragment Model.DirectiveTree Proofs.DirectiveTreeProofs Proofs.ParserKernelProofs Proofs.ParserGrammarProofs
   Proofs.ParserGrammarTypesProofs Proofs.ParserGrammarCoverProofs Proofs.ParserGrammarEofProofs.
 Local Open Scope nat_scope.
@@ -11,7 +15,9 @@ Local Open Scope nat_scope.
 Definition plain (t : RawTokenType) : Prop :=
   match t with
   | RTT_Identifier | RTT_Op OK_Semicolon | RTT_Op OK_Assign | RTT_Op OK_Dot | RTT_Keyword KK_Begin | RTT_Keyword KK_End
-  | RTT_Keyword KK_Repeat | RTT_Keyword KK_Until | RTT_Keyword KK_Try | RTT_Keyword KK_Finally | RTT_Eof => True
+  | RTT_Keyword KK_Repeat | RTT_Keyword KK_Until | RTT_Keyword KK_Try | RTT_Keyword KK_Finally | RTT_Keyword KK_Except
+  | RTT_Keyword KK_If | RTT_Keyword KK_Then | RTT_Keyword KK_Else | RTT_Keyword KK_While | RTT_Keyword KK_Do
+  | RTT_Keyword KK_Case | RTT_Keyword KK_Of | RTT_Op OK_Colon | RTT_Eof => True
   | _ => False
   end.
 
@@ -30,6 +36,49 @@ Proof.
   destruct n as [|n]; [reflexivity|]. cbn [seq skipn]. rewrite IH. replace (S z + m) with (z + S m) by lia. reflexivity.
 Qed.
 
+Ltac len_tac := repeat (first [rewrite app_length | rewrite map_length | progress cbn [length]]); lia.
+Scheme stmts_mut := Induction for stmts Sort Prop with tbody_mut := Induction for tbody Sort Prop
+  with arms_mut := Induction for arms Sort Prop.
+
+(* the lines of the arms of a case statement (Fragment.arms_lines) split at the `end`/`else` line: the lines
+   before it, the index of that line, and the child lines owed by the last arm *)
+Fixpoint arms_pre (par : option (nat * nat)) (d : Z) (k li : nat) (a : arms) (pend : nat -> list lline) : list lline :=
+  match a with
+  | ANil => []
+  | ACons c a' =>
+      let e := k + 2 + length (render_body c) in
+      mkLine LLT_CaseArm (lvl (d + 1)) par [k; k + 1] :: pend (li + 1)
+      ++ arms_pre par d (e + 1) (li + 1 + length (pend (li + 1))) a' (fun i => pexpected_body (Some (li, k + 1)) (k + 2) i (Some e) c)
+  end.
+Fixpoint arms_li (k li : nat) (a : arms) (pend : nat -> list lline) : nat :=
+  match a with
+  | ANil => li
+  | ACons c a' =>
+      let e := k + 2 + length (render_body c) in
+      arms_li (e + 1) (li + 1 + length (pend (li + 1))) a' (fun i => pexpected_body (Some (li, k + 1)) (k + 2) i (Some e) c)
+  end.
+Fixpoint arms_pend (k li : nat) (a : arms) (pend : nat -> list lline) : nat -> list lline :=
+  match a with
+  | ANil => pend
+  | ACons c a' =>
+      let e := k + 2 + length (render_body c) in
+      arms_pend (e + 1) (li + 1 + length (pend (li + 1))) a' (fun i => pexpected_body (Some (li, k + 1)) (k + 2) i (Some e) c)
+  end.
+Lemma arms_lines_eq : forall a par d k li pend tail,
+  arms_lines par d k li a pend tail
+  = arms_pre par d k li a pend ++ tail (k + length (render_arms a)) (arms_li k li a pend) (arms_pend k li a pend (arms_li k li a pend + 1)).
+Proof.
+  induction a as [|c a IH]; intros par d k li pend tail; cbn [arms_lines arms_pre arms_li arms_pend render_arms length app]; cbv zeta.
+  - rewrite Nat.add_0_r. reflexivity.
+  - rewrite IH. rewrite <- app_assoc. cbn [app]. do 3 f_equal.
+    rewrite app_length. cbn [length]. f_equal. lia.
+Qed.
+Lemma arms_li_eq : forall a par d k li pend, arms_li k li a pend = li + length (arms_pre par d k li a pend).
+Proof.
+  induction a as [|c a IH]; intros par d k li pend; cbn [arms_pre arms_li length]; cbv zeta; [lia|].
+  rewrite (IH par d). rewrite app_length. lia.
+Qed.
+
 Section Frag.
 Variable T : list RawTokenType.
 Hypothesis Tplain : Forall plain T.
@@ -43,11 +92,17 @@ Definition restv (s : pstate) :=
    (ps_paren pass s, ps_brack pass s, ps_generic pass s), ps_attr pass s, ps_err pass s).
 Definition levels := (N * N * N)%type.
 
+(* the frame: the rest of the current_line stack below the current line, and the parent of the child line
+   context we are in (None outside child lines); both are constant along a statement list *)
+Section Frame.
+Variable stk : list nat.
+Variable par : option (nat * nat).
+
 (* the shape of the states met on the fragment: finished lines L (metas M), one current line c (meta mc)
    that is the last line and the only entry of the current_line stack, pass_index k *)
 Definition ST (s : pstate) (k : nat) (L : list (list nat)) (c : list nat) (M : list lmeta) (mc : lmeta) (last : nat)
            (cx : list (pctx * bool)) (lv : levels) (at_ : list nat) : Prop :=
-  kst pass s = mkK (L ++ [c]) [length L] k last /\ metas pass s = M ++ [mc] /\ length M = length L
+  kst pass s = mkK (L ++ [c]) (length L :: stk) k last /\ metas pass s = M ++ [mc] /\ length M = length L
   /\ restv s = (T, cx, [], false, lv, at_, None).
 
 Lemma ST_err s k L c M mc last cx lv a : ST s k L c M mc last cx lv a -> has_err pass s = false.
@@ -167,18 +222,26 @@ Proof.
   apply set_line_type_ST, H.
 Qed.
 
-Lemma plain_not_eq_colon t : plain t -> match t with RTT_Op (OK_Equal _ | OK_Colon) => true | _ => false end = false.
-Proof. destruct t as [o| | | | | | | | | |]; try reflexivity. destruct o; try reflexivity; contradiction. Qed.
+(* no token of the fragment is a portability keyword candidate: consolidate_portability_directives changes nothing *)
+Lemma portability_go_noop : forall li (s : pstate), ps_toks pass s = T -> portability_go pass li s = s.
+Proof.
+  induction li as [|p IH]; intros s Tk; cbn [portability_go]; (destruct (nth_error (cur_toks pass s) _) as [ti|]; [|reflexivity]); cbv zeta.
+  all: repeat match goal with |- (if ?c then _ else _) = _ => destruct c; [reflexivity|] end.
+  all: unfold tt_at; rewrite Tk; destruct (nth_error T ti) as [t|] eqn:E; try reflexivity; try (apply IH, Tk).
+  all: pose proof (plain_nth _ _ E) as P; destruct t; try contradiction; try reflexivity; try (apply IH, Tk).
+Qed.
+Lemma portability_noop_G (s : pstate) : ps_toks pass s = T -> consolidate_portability_directives pass s = s.
+Proof.
+  intros Tk. unfold consolidate_portability_directives.
+  destruct (cur_toks pass s) as [|t0 r] eqn:Ec; [unfold cur_line_tts; rewrite Ec; reflexivity|].
+  match goal with |- (if ?c then _ else _) = _ => destruct c; [reflexivity|] end.
+  cbn [length]. match goal with |- (if ?c then _ else _) = _ => destruct c end.
+  - destruct (skip_trailing_comments pass s (length r)); [reflexivity|apply portability_go_noop, Tk].
+  - apply portability_go_noop, Tk.
+Qed.
 Lemma portability_noop s k L c M mc last cx lv a :
   ST s k L c M mc last cx lv a -> consolidate_portability_directives pass s = s.
-Proof.
-  intros H. unfold consolidate_portability_directives.
-  assert (X : existsb (fun t => match t with RTT_Op (OK_Equal _ | OK_Colon) => true | _ => false end) (cur_line_tts pass s) = false).
-  { unfold cur_line_tts. induction (cur_toks pass s) as [|i r IH]; [reflexivity|]. cbn [flat_map]. rewrite existsb_app, IH, orb_false_r.
-    unfold tt_at. rewrite (ST_toks _ _ _ _ _ _ _ _ _ _ H). destruct (nth_error T i) as [t|] eqn:E; [|reflexivity].
-    cbn [existsb]. rewrite (plain_not_eq_colon _ (plain_nth _ _ E)). reflexivity. }
-  rewrite X. reflexivity.
-Qed.
+Proof. intros H. apply portability_noop_G, (ST_toks _ _ _ _ _ _ _ _ _ _ H). Qed.
 Lemma inline_noop s f : is_inline_comment (cur_tt pass s) = false -> inline_comments_go pass (S f) s = s.
 Proof.
   intros H. cbn [inline_comments_go]. destruct (has_err pass s); [reflexivity|].
@@ -277,7 +340,7 @@ Proof.
   unfold take_separators_on_last_line, guard. rewrite E, (ST_cur_tt _ _ _ _ _ _ _ _ _ _ _ H Hk). cbn [tSemi o_semicolon negb].
   destruct H as (K & Mt & Ml & R).
   set (s1 := p_emit pass KR lm0 s).
-  assert (K1 : kst pass s1 = mkK (L ++ [[]]) [last; length L] k last) by (subst s1; rewrite (kst_p_emit pass KR lm0 s E), K; reflexivity).
+  assert (K1 : kst pass s1 = mkK (L ++ [[]]) (last :: length L :: stk) k last) by (subst s1; rewrite (kst_p_emit pass KR lm0 s E), K; reflexivity).
   assert (M1 : metas pass s1 = M ++ [mc]) by (subst s1; rewrite (metas_p_emit _ _ _ E); exact Mt).
   assert (R1 : restv s1 = (T, cx, [], false, lv, a, None)) by (subst s1; rewrite restv_p_emit; exact R).
   assert (A1 : at_start pass s1 = false).
@@ -338,24 +401,31 @@ Proof.
   destruct t as [o| | | | | | | | | |]; try reflexivity. destruct o; try reflexivity. exfalso. apply Hne. reflexivity.
 Qed.
 
-(* the context-ending test, on the two context shapes of the fragment *)
-Definition cSt : pctx := ctx (CT_Statement SK_Normal) false P_semicolon (L 0).
-(* the four kinds of statement blocks of the fragment: they differ only in the terminating keyword *)
-Inductive blk := KBegin | KRepeat | KTry | KFinally.
+(* the kinds of statement blocks of the fragment: they differ in the terminating keyword and in the kind of
+   the statement contexts inside (`except` blocks: SK_Except) *)
+Inductive blk := KBegin | KRepeat | KTry | KFinally | KTryE | KExcept | KCase | KCaseE | KElse.
 Definition cBlk (b : blk) : pctx :=
   match b with
   | KBegin => ctx (CT_StatementBlock BK_Begin) true P_end (L 1)
   | KRepeat => ctx (CT_StatementBlock BK_Repeat) true P_until (L 1)
-  | KTry => ctx (CT_StatementBlock BK_Try) true P_except_finally (L 1)
+  | KTry | KTryE => ctx (CT_StatementBlock BK_Try) true P_except_finally (L 1)
   | KFinally => ctx (CT_StatementBlock BK_Finally) true P_else_end (L 1)
+  | KExcept => ctx (CT_StatementBlock BK_Except) true P_else_end (L 1)
+  | KCase | KCaseE => ctx (CT_Statement SK_Case) true P_else_end (L 1)
+  | KElse => ctx (CT_StatementBlock BK_Else) true P_end (L 1)
   end.
+Definition sk_of (b : blk) : skind := match b with KExcept => SK_Except | KCase | KCaseE => SK_Case | _ => SK_Normal end.
+(* the statement context of the statements of a block *)
+Definition cStk (b : blk) : pctx := ctx (CT_Statement (sk_of b)) false P_semicolon (L 0).
+Definition slc (b : blk) : call := C_stmt_list (CT_Statement (sk_of b)) false P_semicolon.
 Definition tTerm (b : blk) : RawTokenType :=
-  match b with KBegin | KFinally => tEnd | KRepeat => tUntil | KTry => tFinally end.
+  match b with KBegin | KFinally | KExcept | KCase | KElse => tEnd | KRepeat => tUntil | KTry => tFinally | KTryE => tExcept | KCaseE => tElse end.
 Definition is_term (b : blk) (t : RawTokenType) : bool :=
   match t with
-  | RTT_Keyword KK_End => match b with KBegin | KFinally => true | _ => false end
+  | RTT_Keyword KK_End => match b with KBegin | KFinally | KExcept | KCase | KCaseE | KElse => true | _ => false end
   | RTT_Keyword KK_Until => match b with KRepeat => true | _ => false end
-  | RTT_Keyword KK_Finally => match b with KTry => true | _ => false end
+  | RTT_Keyword (KK_Finally | KK_Except) => match b with KTry | KTryE => true | _ => false end
+  | RTT_Keyword KK_Else => match b with KFinally | KExcept | KCase | KCaseE => true | _ => false end
   | _ => false
   end.
 Lemma is_term_term b : is_term b (tTerm b) = true. Proof. destruct b; reflexivity. Qed.
@@ -392,16 +462,22 @@ Lemma run_S f c s : has_err pass s = false ->
   | C_stmt_list t op p => arm_stmt_list pass (RUN f) t op p s
   | C_stmt_block cx k => arm_stmt_block pass (RUN f) cx k s
   | C_top => arm_top pass (RUN f) s
+  | C_block cx => arm_block pass (RUN f) cx s
+  | C_line_section cx => arm_line_section pass (RUN f) cx s
+  | C_if_then => arm_if_then pass (RUN f) s
+  | C_do b => arm_do pass (RUN f) b s
+  | C_case_statement => arm_case_statement pass (RUN f) s
+  | C_case_arm p => arm_case_arm pass (RUN f) p s
   | _ => RUN (S f) c s
   end.
 Proof. intros E. cbn [run]. rewrite E. destruct c; reflexivity. Qed.
 
 (* ending contexts on the shapes of the fragment *)
 Lemma ending_St_SB s k L c M mc last C lv a t :
-  ST s k L c M mc last ((cSt, false) :: (cSB, false) :: C) lv a -> nth_error T k = Some t ->
+  ST s k L c M mc last (((cStk bk), false) :: (cSB, false) :: C) lv a -> nth_error T k = Some t ->
   ending_ctx pass s = match t with RTT_Op OK_Semicolon => Some 1 | _ => if is_term bk t then Some 2 else None end.
 Proof.
-  intros H Ht. unfold ending_ctx. rewrite (ST_ctx _ _ _ _ _ _ _ _ _ _ H). cbn [ending_go cSt ctx c_pred c_opaque eval_pred].
+  intros H Ht. unfold ending_ctx. rewrite (ST_ctx _ _ _ _ _ _ _ _ _ _ H). cbn [ending_go cStk ctx c_pred c_opaque eval_pred].
   rewrite (blk_pred_eval bk _ _ _ _ _ _ _ _ _ _ _ H Ht), cBlk_opaque.
   rewrite (ST_cur_tt _ _ _ _ _ _ _ _ _ _ _ H Ht). pose proof (plain_nth _ _ Ht) as P.
   destruct t as [o| |k0|k0| | | | | | |]; try contradiction; try reflexivity.
@@ -409,7 +485,7 @@ Proof.
   all: try (destruct k0; try contradiction; cbn [o_semicolon]; destruct (is_term bk _); reflexivity).
 Qed.
 Lemma ending_St_ended s k L c M mc last r lv a :
-  ST s k L c M mc last ((cSt, true) :: r) lv a -> ending_ctx pass s = Some 1.
+  ST s k L c M mc last (((cStk bk), true) :: r) lv a -> ending_ctx pass s = Some 1.
 Proof. intros H. unfold ending_ctx. rewrite (ST_ctx _ _ _ _ _ _ _ _ _ _ H). reflexivity. Qed.
 Lemma is_ending_SB s k L c M mc last C lv a t :
   ST s k L c M mc last ((cSB, false) :: C) lv a -> nth_error T k = Some t -> is_ending pass s = is_term bk t.
@@ -437,16 +513,19 @@ Qed.
 Lemma last_ctx_ST s k L c M mc last x fl r lv a : ST s k L c M mc last ((x, fl) :: r) lv a -> last_ctx pass s = Some x.
 Proof. intros H. unfold last_ctx. rewrite (ST_ctx _ _ _ _ _ _ _ _ _ _ H). reflexivity. Qed.
 Lemma prelude_continue s k L c M mc last C lv a t :
-  ST s k L c M mc last ((cSt, false) :: (cSB, false) :: C) lv a -> nth_error T k = Some t ->
+  sk_of bk <> SK_Case ->
+  ST s k L c M mc last (((cStk bk), false) :: (cSB, false) :: C) lv a -> nth_error T k = Some t ->
   t <> tSemi -> is_term bk t = false -> statement_prelude pass s = (s, true).
 Proof.
-  intros H Ht N1 N2. unfold statement_prelude. rewrite (last_ctx_ST _ _ _ _ _ _ _ _ _ _ _ _ H), (ending_St_SB _ _ _ _ _ _ _ _ _ _ _ H Ht), N2.
+  intros Hsk H Ht N1 N2. unfold statement_prelude. rewrite (last_ctx_ST _ _ _ _ _ _ _ _ _ _ _ _ H), (ending_St_SB _ _ _ _ _ _ _ _ _ _ _ H Ht), N2.
   pose proof (plain_nth _ _ Ht) as P.
-  destruct t as [o| |k0|k0| | | | | | |]; try contradiction; try (destruct (at_start pass s); reflexivity).
-  destruct o; try contradiction; try (destruct (at_start pass s); reflexivity).
+  assert (Hb : c_type (cStk bk) = CT_Statement SK_Normal \/ c_type (cStk bk) = CT_Statement SK_Except)
+    by (clear -Hsk; destruct bk; try (left; reflexivity); try (right; reflexivity); exfalso; apply Hsk; reflexivity).
+  destruct t as [o| |k0|k0| | | | | | |]; try contradiction; try (destruct (at_start pass s); [destruct Hb as [-> | ->]|]; reflexivity).
+  destruct o; try contradiction; try (destruct (at_start pass s); [destruct Hb as [-> | ->]|]; reflexivity).
 Qed.
 Lemma prelude_semicolon s k L c M mc last C lv a :
-  ST s k L c M mc last ((cSt, false) :: (cSB, false) :: C) lv a -> nth_error T k = Some tSemi ->
+  ST s k L c M mc last (((cStk bk), false) :: (cSB, false) :: C) lv a -> nth_error T k = Some tSemi ->
   statement_prelude pass s = (update_statuses pass 1 s, false).
 Proof.
   intros H Ht. unfold statement_prelude. rewrite (last_ctx_ST _ _ _ _ _ _ _ _ _ _ _ _ H), (ending_St_SB _ _ _ _ _ _ _ _ _ _ _ H Ht). reflexivity.
@@ -455,11 +534,12 @@ Qed.
 (* parse_structures on `Identifier ;` inside a statement context: the identifier is consumed, the
    statement context is marked as ended in front of the `;` *)
 Lemma structures_simple f s k L M mc last C lv a :
-  ST s k L [] M mc last ((cSt, false) :: (cSB, false) :: C) lv a ->
+  sk_of bk <> SK_Case ->
+  ST s k L [] M mc last (((cStk bk), false) :: (cSB, false) :: C) lv a ->
   nth_error T k = Some tI -> nth_error T (S k) = Some tSemi -> 3 <= f ->
-  ST (RUN f C_structures s) (S k) L [k] M mc last ((cSt, true) :: (cSB, false) :: C) lv a.
+  ST (RUN f C_structures s) (S k) L [k] M mc last (((cStk bk), true) :: (cSB, false) :: C) lv a.
 Proof.
-  intros H Hk Hk1 Hf. destruct f as [|[|[|f]]]; try lia.
+  intros Hsk H Hk Hk1 Hf. destruct f as [|[|[|f]]]; try lia.
   assert (Hkn : k < n) by (apply nth_error_Some; congruence).
   rewrite (run_S _ _ _ (ST_err _ _ _ _ _ _ _ _ _ _ H)).
   unfold arm_structures. rewrite (ST_cur_tt _ _ _ _ _ _ _ _ _ _ _ H Hk). cbn [tI].
@@ -468,7 +548,7 @@ Proof.
   (* parse_statement, first round: the identifier *)
   rewrite (run_S (S f) C_statement _ (ST_err _ _ _ _ _ _ _ _ _ _ H)).
   unfold arm_statement. rewrite (ST_cur_tt _ _ _ _ _ _ _ _ _ _ _ H Hk). cbn [tI].
-  rewrite (prelude_continue _ _ _ _ _ _ _ _ _ _ _ H Hk) by (discriminate || reflexivity). cbn [negb starm_of tI].
+  rewrite (prelude_continue _ _ _ _ _ _ _ _ _ _ _ Hsk H Hk) by (discriminate || reflexivity). cbn [negb starm_of tI].
   unfold st_label_cand, label_or_other. rewrite (ST_at_start _ _ _ _ _ _ _ _ _ _ H).
   rewrite (next_tt_ST _ _ _ _ _ _ _ _ _ _ _ H Hk1) by discriminate. cbn [tSemi o_colon andb].
   unfold t_other, t_loop.
@@ -502,18 +582,19 @@ Proof. intros E. rewrite (run_S _ _ _ E). reflexivity. Qed.
 
 (* one iteration of the statement-list loop on `Identifier ;` *)
 Lemma iter_simple f s k L M mc last C lv a t' :
-  ST s k L [] M mc last ((cSB, false) :: C) lv a -> first_parent C = None ->
+  sk_of bk <> SK_Case ->
+  ST s k L [] M mc last ((cSB, false) :: C) lv a -> first_parent C = par ->
   nth_error T k = Some tI -> nth_error T (S k) = Some tSemi -> nth_error T (S (S k)) = Some t' -> t' <> tSemi ->
   4 <= f ->
-  ST (take_separators_on_last_line pass (CL_Level 0%Z) (finish_logical_line pass (RUN f (C_with_ctx cSt A_structures) s)))
-     (S (S k)) (L ++ [[k; S k]]) [] (M ++ [mkLM None (lvl (1 + plain_sum C)) LLT_Unknown])
+  ST (take_separators_on_last_line pass (CL_Level 0%Z) (finish_logical_line pass (RUN f (C_with_ctx (cStk bk) A_structures) s)))
+     (S (S k)) (L ++ [[k; S k]]) [] (M ++ [mkLM par (lvl (1 + plain_sum C)) LLT_Unknown])
      (mkLM None (lvl (1 + plain_sum C)) LLT_Unknown) (length L) ((cSB, false) :: C) lv a.
 Proof.
-  intros H HC Hk Hk1 Hk2 Hne Hf. destruct f as [|f]; [lia|].
-  rewrite (with_ctx_structures f cSt s (ST_err _ _ _ _ _ _ _ _ _ _ H) eq_refl).
+  intros Hsk H HC Hk Hk1 Hk2 Hne Hf. destruct f as [|f]; [lia|].
+  rewrite (with_ctx_structures f (cStk bk) s (ST_err _ _ _ _ _ _ _ _ _ _ H) eq_refl).
   pose proof (finish_empty_ST _ _ _ _ _ _ _ _ _ H) as H0.
-  pose proof (push_ctx_ST cSt _ _ _ _ _ _ _ _ _ _ H0) as H1.
-  pose proof (structures_simple f _ _ _ _ _ _ _ _ _ H1 Hk Hk1 ltac:(lia)) as H2.
+  pose proof (push_ctx_ST (cStk bk) _ _ _ _ _ _ _ _ _ _ H0) as H1.
+  pose proof (structures_simple f _ _ _ _ _ _ _ _ _ Hsk H1 Hk Hk1 ltac:(lia)) as H2.
   pose proof (pop_ctx_ST _ _ _ _ _ _ _ _ _ _ _ H2) as H3.
   pose proof (finish_ST _ _ _ _ _ _ _ _ _ _ H3 ltac:(discriminate)) as H4.
   rewrite first_parent_blk, plain_sum_blk, HC in H4. cbn [lm_type] in H4.
@@ -526,13 +607,14 @@ Qed.
 
 (* ---------------- `Identifier := Identifier ;` *)
 Lemma structures_assign f s k Ls M mc last C lv a :
-  ST s k Ls [] M mc last ((cSt, false) :: (cSB, false) :: C) lv a -> lm_type mc = LLT_Unknown ->
+  sk_of bk <> SK_Case ->
+  ST s k Ls [] M mc last (((cStk bk), false) :: (cSB, false) :: C) lv a -> lm_type mc = LLT_Unknown ->
   nth_error T k = Some tI -> nth_error T (S k) = Some tAssign -> nth_error T (S (S k)) = Some tI ->
   nth_error T (S (S (S k))) = Some tSemi -> 5 <= f ->
   ST (RUN f C_structures s) (S (S (S k))) Ls [k; S k; S (S k)] M (mkLM (lm_parent mc) (lm_level mc) LLT_Assignment) last
-     ((cSt, true) :: (cSB, false) :: C) lv a.
+     (((cStk bk), true) :: (cSB, false) :: C) lv a.
 Proof.
-  intros H Hty Hk Hk1 Hk2 Hk3 Hf. destruct f as [|[|[|[|[|f]]]]]; try lia.
+  intros Hsk H Hty Hk Hk1 Hk2 Hk3 Hf. destruct f as [|[|[|[|[|f]]]]]; try lia.
   assert (Hkn : k < n) by (apply nth_error_Some; congruence).
   assert (Hkn1 : S k < n) by (apply nth_error_Some; congruence).
   assert (Hkn2 : S (S k) < n) by (apply nth_error_Some; congruence).
@@ -543,7 +625,7 @@ Proof.
   (* round 1: identifier *)
   rewrite (run_S _ C_statement _ (ST_err _ _ _ _ _ _ _ _ _ _ H)).
   unfold arm_statement. rewrite (ST_cur_tt _ _ _ _ _ _ _ _ _ _ _ H Hk). cbn [tI].
-  rewrite (prelude_continue _ _ _ _ _ _ _ _ _ _ _ H Hk) by (discriminate || reflexivity). cbn [negb starm_of tI].
+  rewrite (prelude_continue _ _ _ _ _ _ _ _ _ _ _ Hsk H Hk) by (discriminate || reflexivity). cbn [negb starm_of tI].
   unfold st_label_cand, label_or_other. rewrite (ST_at_start _ _ _ _ _ _ _ _ _ _ H).
   rewrite (next_tt_ST _ _ _ _ _ _ _ _ _ _ _ H Hk1) by discriminate. cbn [tAssign o_colon andb].
   unfold t_other, t_loop.
@@ -551,7 +633,7 @@ Proof.
   (* round 2: `:=` sets the line type *)
   rewrite (run_S _ C_statement _ (ST_err _ _ _ _ _ _ _ _ _ _ H1)).
   unfold arm_statement. rewrite (ST_cur_tt _ _ _ _ _ _ _ _ _ _ _ H1 Hk1). cbn [tAssign].
-  rewrite (prelude_continue _ _ _ _ _ _ _ _ _ _ _ H1 Hk1) by (discriminate || reflexivity). cbn [negb starm_of tAssign].
+  rewrite (prelude_continue _ _ _ _ _ _ _ _ _ _ _ Hsk H1 Hk1) by (discriminate || reflexivity). cbn [negb starm_of tAssign].
   cbv delta [st_assign t_loop] beta zeta.
   pose proof (next_token_ST _ _ _ _ _ _ _ _ _ _ H1 Hkn1) as H2. cbn [app] in H2.
   rewrite (ST_cur_type _ _ _ _ _ _ _ _ _ _ H2), Hty. cbn [llt_is LogicalLineType_eqb LogicalLineType_idx Nat.eqb].
@@ -559,7 +641,7 @@ Proof.
   (* round 3: identifier, not at the start of the line *)
   rewrite (run_S _ C_statement _ (ST_err _ _ _ _ _ _ _ _ _ _ H3)).
   unfold arm_statement. rewrite (ST_cur_tt _ _ _ _ _ _ _ _ _ _ _ H3 Hk2). cbn [tI].
-  rewrite (prelude_continue _ _ _ _ _ _ _ _ _ _ _ H3 Hk2) by (discriminate || reflexivity). cbn [negb starm_of tI].
+  rewrite (prelude_continue _ _ _ _ _ _ _ _ _ _ _ Hsk H3 Hk2) by (discriminate || reflexivity). cbn [negb starm_of tI].
   unfold st_label_cand, label_or_other. rewrite (ST_at_start _ _ _ _ _ _ _ _ _ _ H3). cbn [andb].
   unfold t_other, t_loop.
   pose proof (next_token_ST _ _ _ _ _ _ _ _ _ _ H3 Hkn2) as H4. cbn [app] in H4.
@@ -574,19 +656,20 @@ Proof.
   pose proof (update_statuses_ST 1 _ _ _ _ _ _ _ _ _ _ H5) as H6. cbn [mark_ended] in H6. exact H6.
 Qed.
 Lemma iter_assign f s k Ls M mc last C lv a t' :
-  ST s k Ls [] M mc last ((cSB, false) :: C) lv a -> first_parent C = None ->
+  sk_of bk <> SK_Case ->
+  ST s k Ls [] M mc last ((cSB, false) :: C) lv a -> first_parent C = par ->
   nth_error T k = Some tI -> nth_error T (S k) = Some tAssign -> nth_error T (S (S k)) = Some tI ->
   nth_error T (S (S (S k))) = Some tSemi -> nth_error T (S (S (S (S k)))) = Some t' -> t' <> tSemi ->
   6 <= f ->
-  ST (take_separators_on_last_line pass (CL_Level 0%Z) (finish_logical_line pass (RUN f (C_with_ctx cSt A_structures) s)))
-     (S (S (S (S k)))) (Ls ++ [[k; S k; S (S k); S (S (S k))]]) [] (M ++ [mkLM None (lvl (1 + plain_sum C)) LLT_Assignment])
+  ST (take_separators_on_last_line pass (CL_Level 0%Z) (finish_logical_line pass (RUN f (C_with_ctx (cStk bk) A_structures) s)))
+     (S (S (S (S k)))) (Ls ++ [[k; S k; S (S k); S (S (S k))]]) [] (M ++ [mkLM par (lvl (1 + plain_sum C)) LLT_Assignment])
      (mkLM None (lvl (1 + plain_sum C)) LLT_Unknown) (length Ls) ((cSB, false) :: C) lv a.
 Proof.
-  intros H HC Hk Hk1 Hk2 Hk3 Hk4 Hne Hf. destruct f as [|f]; [lia|].
-  rewrite (with_ctx_structures f cSt s (ST_err _ _ _ _ _ _ _ _ _ _ H) eq_refl).
+  intros Hsk H HC Hk Hk1 Hk2 Hk3 Hk4 Hne Hf. destruct f as [|f]; [lia|].
+  rewrite (with_ctx_structures f (cStk bk) s (ST_err _ _ _ _ _ _ _ _ _ _ H) eq_refl).
   pose proof (finish_empty_ST _ _ _ _ _ _ _ _ _ H) as H0.
-  pose proof (push_ctx_ST cSt _ _ _ _ _ _ _ _ _ _ H0) as H1.
-  pose proof (structures_assign f _ _ _ _ _ _ _ _ _ H1 eq_refl Hk Hk1 Hk2 Hk3 ltac:(lia)) as H2.
+  pose proof (push_ctx_ST (cStk bk) _ _ _ _ _ _ _ _ _ _ H0) as H1.
+  pose proof (structures_assign f _ _ _ _ _ _ _ _ _ Hsk H1 eq_refl Hk Hk1 Hk2 Hk3 ltac:(lia)) as H2.
   pose proof (pop_ctx_ST _ _ _ _ _ _ _ _ _ _ _ H2) as H3.
   pose proof (finish_ST _ _ _ _ _ _ _ _ _ _ H3 ltac:(discriminate)) as H4.
   rewrite first_parent_blk, plain_sum_blk, HC in H4. cbn [lm_type] in H4.
@@ -599,19 +682,18 @@ Qed.
 (* ---------------- nested blocks *)
 Definition meta_of (l : lline) : lmeta := mkLM (ll_parent l) (ll_level l) (ll_type l).
 Definition need (ss : stmts) : nat := 10 + 10 * length (render ss).
-Definition stmt_list_call : call := C_stmt_list (CT_Statement SK_Normal) false P_semicolon.
 (* the tokens of `l` sit in T from position k on *)
 Definition toks_at (k : nat) (l : list RawTokenType) : Prop := forall j t, nth_error l j = Some t -> nth_error T (k + j) = Some t.
 (* what the statement-list loop does on ss inside the contexts (block bk :: C), from a line start at k *)
 Definition Post (ss : stmts) (C : list (pctx * bool)) (f : nat) (s : pstate) (k : nat) (Ls : list (list nat)) (M : list lmeta)
-           (lv : levels) (a : list nat) : Prop :=
+           (lv : levels) (a : list nat) (li : nat) : Prop :=
   exists mc' last' fl, lm_type mc' = LLT_Unknown /\
-    ST (RUN f stmt_list_call s) (k + length (render ss))
-       (Ls ++ map ll_toks (expected (1 + plain_sum C) k ss)) []
-       (M ++ map meta_of (expected (1 + plain_sum C) k ss)) mc' last' ((cSB, fl) :: C) lv a.
+    ST (RUN f (slc bk) s) (k + length (render ss))
+       (Ls ++ map ll_toks (pexpected par (1 + plain_sum C) k li ss)) []
+       (M ++ map meta_of (pexpected par (1 + plain_sum C) k li ss)) mc' last' ((cSB, fl) :: C) lv a.
 Definition IHfor (ss : stmts) (C : list (pctx * bool)) : Prop :=
-  forall f s k Ls M mc last lv a, need ss <= f -> ST s k Ls [] M mc last ((cSB, false) :: C) lv a ->
-  toks_at k (render ss ++ [tTerm bk]) -> Post ss C f s k Ls M lv a.
+  forall f s k Ls M mc last lv a li, need ss <= f -> li = length Ls -> ST s k Ls [] M mc last ((cSB, false) :: C) lv a ->
+  toks_at k (render ss ++ [tTerm bk]) -> Post ss C f s k Ls M lv a li.
 
 Lemma take_until_ending pred s : has_err pass s = false -> cur_tt pass s <> None -> pred s = false ->
   is_ending pass s = true -> take_until pass pred s = s.
@@ -641,48 +723,66 @@ Lemma toks_at_prefix k l1 l2 : toks_at k (l1 ++ l2) -> toks_at k l1.
 Proof. intros H j t Hj. apply H. rewrite nth_error_app1; [exact Hj|]. apply nth_error_Some. congruence. Qed.
 
 Lemma loop_tail r C : IHfor r C ->
-  forall f s3 k2 L2 M2 mc2 last2 lv a, need r <= f -> lm_type mc2 = LLT_Unknown ->
+  forall f s3 k2 L2 M2 mc2 last2 lv a li, need r <= f -> li = length L2 -> lm_type mc2 = LLT_Unknown ->
   ST s3 k2 L2 [] M2 mc2 last2 ((cSB, false) :: C) lv a -> toks_at k2 (render r ++ [tTerm bk]) ->
   exists mc' last' fl, lm_type mc' = LLT_Unknown /\
-    ST (if is_ending pass s3 || match cur_tt pass s3 with None => true | Some _ => false end then s3 else RUN f stmt_list_call s3)
-       (k2 + length (render r)) (L2 ++ map ll_toks (expected (1 + plain_sum C) k2 r)) []
-       (M2 ++ map meta_of (expected (1 + plain_sum C) k2 r)) mc' last' ((cSB, fl) :: C) lv a.
+    ST (if is_ending pass s3 || match cur_tt pass s3 with None => true | Some _ => false end then s3 else RUN f (slc bk) s3)
+       (k2 + length (render r)) (L2 ++ map ll_toks (pexpected par (1 + plain_sum C) k2 li r)) []
+       (M2 ++ map meta_of (pexpected par (1 + plain_sum C) k2 li r)) mc' last' ((cSB, fl) :: C) lv a.
 Proof.
-  intros IHr f s3 k2 L2 M2 mc2 last2 lv a Hf Hty H Ht.
+  intros IHr f s3 k2 L2 M2 mc2 last2 lv a li Hf Hli Hty H Ht.
   destruct (head_tok r) as (t' & H0 & N1 & E1 & E2).
   pose proof (toks_at_0 _ _ _ Ht H0) as Hk. rewrite (is_ending_SB _ _ _ _ _ _ _ _ _ _ _ H Hk).
-  destruct r as [|r'|r'|b' r'|b' r'|b' c' r'] eqn:Er.
-  - rewrite (E1 eq_refl), is_term_term. cbn [orb render length expected map]. rewrite !app_nil_r, Nat.add_0_r. eauto.
+  destruct r as [|r'|r'|b' r'|b' r'|b' c' r'|b' c' r'|c' r'|c1' c2' r'|c' r'|a' r'|a' e' r'] eqn:Er.
+  - rewrite (E1 eq_refl), is_term_term. cbn [orb render length pexpected map]. rewrite !app_nil_r, Nat.add_0_r. eauto.
   - destruct (E2 ltac:(discriminate)) as [F1 F2]. rewrite F1.
     assert (X : t' = tI) by (cbn in H0; congruence). subst t'.
-    rewrite (ST_cur_tt _ _ _ _ _ _ _ _ _ _ _ H Hk). cbn [tI orb]. exact (IHr _ _ _ _ _ _ _ _ _ Hf H Ht).
+    rewrite (ST_cur_tt _ _ _ _ _ _ _ _ _ _ _ H Hk). cbn [tI orb]. exact (IHr _ _ _ _ _ _ _ _ _ _ Hf Hli H Ht).
   - destruct (E2 ltac:(discriminate)) as [F1 F2]. rewrite F1.
     assert (X : t' = tI) by (cbn in H0; congruence). subst t'.
-    rewrite (ST_cur_tt _ _ _ _ _ _ _ _ _ _ _ H Hk). cbn [tI orb]. exact (IHr _ _ _ _ _ _ _ _ _ Hf H Ht).
+    rewrite (ST_cur_tt _ _ _ _ _ _ _ _ _ _ _ H Hk). cbn [tI orb]. exact (IHr _ _ _ _ _ _ _ _ _ _ Hf Hli H Ht).
   - destruct (E2 ltac:(discriminate)) as [F1 F2]. rewrite F1.
     assert (X : t' = tBegin) by (cbn in H0; congruence). subst t'.
-    rewrite (ST_cur_tt _ _ _ _ _ _ _ _ _ _ _ H Hk). cbn [tBegin orb]. exact (IHr _ _ _ _ _ _ _ _ _ Hf H Ht).
+    rewrite (ST_cur_tt _ _ _ _ _ _ _ _ _ _ _ H Hk). cbn [tBegin orb]. exact (IHr _ _ _ _ _ _ _ _ _ _ Hf Hli H Ht).
   - destruct (E2 ltac:(discriminate)) as [F1 F2]. rewrite F1.
     assert (X : t' = tRepeat) by (cbn in H0; congruence). subst t'.
-    rewrite (ST_cur_tt _ _ _ _ _ _ _ _ _ _ _ H Hk). cbn [tRepeat orb]. exact (IHr _ _ _ _ _ _ _ _ _ Hf H Ht).
+    rewrite (ST_cur_tt _ _ _ _ _ _ _ _ _ _ _ H Hk). cbn [tRepeat orb]. exact (IHr _ _ _ _ _ _ _ _ _ _ Hf Hli H Ht).
   - destruct (E2 ltac:(discriminate)) as [F1 F2]. rewrite F1.
     assert (X : t' = tTry) by (cbn in H0; congruence). subst t'.
-    rewrite (ST_cur_tt _ _ _ _ _ _ _ _ _ _ _ H Hk). cbn [tTry orb]. exact (IHr _ _ _ _ _ _ _ _ _ Hf H Ht).
+    rewrite (ST_cur_tt _ _ _ _ _ _ _ _ _ _ _ H Hk). cbn [tTry orb]. exact (IHr _ _ _ _ _ _ _ _ _ _ Hf Hli H Ht).
+  - destruct (E2 ltac:(discriminate)) as [F1 F2]. rewrite F1.
+    assert (X : t' = tTry) by (cbn in H0; congruence). subst t'.
+    rewrite (ST_cur_tt _ _ _ _ _ _ _ _ _ _ _ H Hk). cbn [tTry orb]. exact (IHr _ _ _ _ _ _ _ _ _ _ Hf Hli H Ht).
+  - destruct (E2 ltac:(discriminate)) as [F1 F2]. rewrite F1.
+    assert (X : t' = tIf) by (cbn in H0; congruence). subst t'.
+    rewrite (ST_cur_tt _ _ _ _ _ _ _ _ _ _ _ H Hk). cbn [tIf orb]. exact (IHr _ _ _ _ _ _ _ _ _ _ Hf Hli H Ht).
+  - destruct (E2 ltac:(discriminate)) as [F1 F2]. rewrite F1.
+    assert (X : t' = tIf) by (cbn in H0; congruence). subst t'.
+    rewrite (ST_cur_tt _ _ _ _ _ _ _ _ _ _ _ H Hk). cbn [tIf orb]. exact (IHr _ _ _ _ _ _ _ _ _ _ Hf Hli H Ht).
+  - destruct (E2 ltac:(discriminate)) as [F1 F2]. rewrite F1.
+    assert (X : t' = tWhile) by (cbn in H0; congruence). subst t'.
+    rewrite (ST_cur_tt _ _ _ _ _ _ _ _ _ _ _ H Hk). cbn [tWhile orb]. exact (IHr _ _ _ _ _ _ _ _ _ _ Hf Hli H Ht).
+  - destruct (E2 ltac:(discriminate)) as [F1 F2]. rewrite F1.
+    assert (X : t' = tCase) by (cbn in H0; congruence). subst t'.
+    rewrite (ST_cur_tt _ _ _ _ _ _ _ _ _ _ _ H Hk). cbn [tCase orb]. exact (IHr _ _ _ _ _ _ _ _ _ _ Hf Hli H Ht).
+  - destruct (E2 ltac:(discriminate)) as [F1 F2]. rewrite F1.
+    assert (X : t' = tCase) by (cbn in H0; congruence). subst t'.
+    rewrite (ST_cur_tt _ _ _ _ _ _ _ _ _ _ _ H Hk). cbn [tCase orb]. exact (IHr _ _ _ _ _ _ _ _ _ _ Hf Hli H Ht).
 Qed.
 
 (* level bookkeeping under a statement context on top of a block *)
-Lemma first_parent_St_blk f1 f2 C : first_parent ((cSt, f1) :: (cSB, f2) :: C) = first_parent C.
+Lemma first_parent_St_blk f1 f2 C : first_parent (((cStk bk), f1) :: (cSB, f2) :: C) = first_parent C.
 Proof. destruct bk; reflexivity. Qed.
-Lemma plain_sum_St_blk f1 f2 C : plain_sum ((cSt, f1) :: (cSB, f2) :: C) = (0 + (1 + plain_sum C))%Z.
+Lemma plain_sum_St_blk f1 f2 C : plain_sum (((cStk bk), f1) :: (cSB, f2) :: C) = (0 + (1 + plain_sum C))%Z.
 Proof. destruct bk; reflexivity. Qed.
 
 (* `until Identifier` : parse_statement inside the BlockClause context *)
 Definition cBC : pctx := ctx CT_BlockClause false P_never (ParserGrammar.L 0).
 Lemma ending_BC s k Ls c M mc last C lv a t :
-  ST s k Ls c M mc last ((cBC, false) :: (cSt, false) :: (cSB, false) :: C) lv a -> nth_error T k = Some t ->
+  ST s k Ls c M mc last ((cBC, false) :: ((cStk bk), false) :: (cSB, false) :: C) lv a -> nth_error T k = Some t ->
   ending_ctx pass s = match t with RTT_Op OK_Semicolon => Some 2 | _ => if is_term bk t then Some 3 else None end.
 Proof.
-  intros H Ht. unfold ending_ctx. rewrite (ST_ctx _ _ _ _ _ _ _ _ _ _ H). cbn [ending_go cBC cSt ctx c_pred c_opaque eval_pred].
+  intros H Ht. unfold ending_ctx. rewrite (ST_ctx _ _ _ _ _ _ _ _ _ _ H). cbn [ending_go cBC cStk ctx c_pred c_opaque eval_pred].
   rewrite (blk_pred_eval bk _ _ _ _ _ _ _ _ _ _ _ H Ht), cBlk_opaque.
   rewrite (ST_cur_tt _ _ _ _ _ _ _ _ _ _ _ H Ht). pose proof (plain_nth _ _ Ht) as P.
   destruct t as [o| |k0|k0| | | | | | |]; try contradiction; try reflexivity.
@@ -690,9 +790,9 @@ Proof.
   all: try (destruct k0; try contradiction; cbn [o_semicolon]; destruct (is_term bk _); reflexivity).
 Qed.
 Lemma statement_in_clause f s k Ls c M mc last C lv a :
-  ST s k Ls c M mc last ((cBC, false) :: (cSt, false) :: (cSB, false) :: C) lv a -> c <> [] ->
+  ST s k Ls c M mc last ((cBC, false) :: ((cStk bk), false) :: (cSB, false) :: C) lv a -> c <> [] ->
   nth_error T k = Some tI -> nth_error T (S k) = Some tSemi -> 2 <= f ->
-  ST (RUN f C_statement s) (S k) Ls (c ++ [k]) M mc last ((cBC, true) :: (cSt, true) :: (cSB, false) :: C) lv a.
+  ST (RUN f C_statement s) (S k) Ls (c ++ [k]) M mc last ((cBC, true) :: ((cStk bk), true) :: (cSB, false) :: C) lv a.
 Proof.
   intros H Hc Hk Hk1 Hf. destruct f as [|[|f]]; try lia.
   assert (Hkn : k < n) by (apply nth_error_Some; congruence).
@@ -715,7 +815,7 @@ Qed.
 (* the end of an iteration of the statement-list loop: the statement context has just ended in front of
    the `;` that follows the last finished line `ln`; the `;` is appended to that line *)
 Lemma iter_close sX e' Ly ln Mx mcX C lv a t' :
-  ST sX (S e') (Ly ++ [ln]) [] Mx mcX (length Ly) ((cSt, true) :: (cSB, false) :: C) lv a -> ln <> [] ->
+  ST sX (S e') (Ly ++ [ln]) [] Mx mcX (length Ly) (((cStk bk), true) :: (cSB, false) :: C) lv a -> ln <> [] ->
   nth_error T (S e') = Some tSemi -> nth_error T (S (S e')) = Some t' -> t' <> tSemi ->
   ST (take_separators_on_last_line pass (CL_Level 0%Z) (finish_logical_line pass (pop_ctx pass sX)))
      (S (S e')) (Ly ++ [ln ++ [S e']]) [] Mx (mkLM (lm_parent mcX) (lm_level mcX) LLT_Unknown) (length Ly) ((cSB, false) :: C) lv a.
@@ -730,11 +830,11 @@ Qed.
 (* a closing keyword (`end`) followed by `;` inside a statement context: the keyword makes a line of its
    own, parse_structures returns in front of the `;` with the statement context marked as ended *)
 Lemma close_keyword f s e Lx Mx mcb lastb C lv a tk :
-  ST s e Lx [] Mx mcb lastb ((cSt, false) :: (cSB, false) :: C) lv a -> lm_type mcb = LLT_Unknown ->
-  first_parent C = None -> nth_error T e = Some tk -> nth_error T (S e) = Some tSemi -> 1 <= f ->
+  ST s e Lx [] Mx mcb lastb (((cStk bk), false) :: (cSB, false) :: C) lv a -> lm_type mcb = LLT_Unknown ->
+  first_parent C = par -> nth_error T e = Some tk -> nth_error T (S e) = Some tSemi -> 1 <= f ->
   ST (RUN f C_structures (finish_logical_line pass (take_until pass (no_more_separators pass) (next_token pass s))))
-     (S e) (Lx ++ [[e]]) [] (Mx ++ [mkLM None (lvl (1 + plain_sum C)) LLT_Unknown])
-     (mkLM None (lvl (1 + plain_sum C)) LLT_Unknown) (length Lx) ((cSt, true) :: (cSB, false) :: C) lv a.
+     (S e) (Lx ++ [[e]]) [] (Mx ++ [mkLM par (lvl (1 + plain_sum C)) LLT_Unknown])
+     (mkLM None (lvl (1 + plain_sum C)) LLT_Unknown) (length Lx) (((cStk bk), true) :: (cSB, false) :: C) lv a.
 Proof.
   intros H Ty HC He Hs Hf. destruct f as [|f]; [lia|].
   assert (Hen : e < n) by (apply nth_error_Some; congruence).
@@ -754,18 +854,18 @@ Qed.
 (* entering a nested block after its opening keyword: the keyword makes a line at the statement level,
    the block context is pushed *)
 Lemma open_block f s k Ls M mc last C lv a bk' :
-  ST s k Ls [] M mc last ((cSt, false) :: (cSB, false) :: C) lv a -> lm_type mc = LLT_Unknown ->
-  first_parent C = None -> k < n ->
+  ST s k Ls [] M mc last (((cStk bk), false) :: (cSB, false) :: C) lv a -> lm_type mc = LLT_Unknown ->
+  first_parent C = par -> k < n ->
   let s1 := push_ctx pass (cBlk bk') (finish_logical_line pass (next_token pass s)) in
-  RUN (S (S f)) (C_stmt_block (cBlk bk') SK_Normal) (next_token pass s) = pop_ctx pass (RUN f stmt_list_call s1)
-  /\ ST s1 (S k) (Ls ++ [[k]]) [] (M ++ [mkLM None (lvl (1 + plain_sum C)) LLT_Unknown])
+  RUN (S (S f)) (C_stmt_block (cBlk bk') (sk_of bk')) (next_token pass s) = pop_ctx pass (RUN f (slc bk') s1)
+  /\ ST s1 (S k) (Ls ++ [[k]]) [] (M ++ [mkLM par (lvl (1 + plain_sum C)) LLT_Unknown])
         (mkLM None (lvl (1 + plain_sum C)) LLT_Unknown) (length Ls)
-        ((cBlk bk', false) :: (cSt, false) :: (cSB, false) :: C) lv a.
+        ((cBlk bk', false) :: ((cStk bk), false) :: (cSB, false) :: C) lv a.
 Proof.
   intros H Ty HC Hkn s1.
   pose proof (next_token_ST _ _ _ _ _ _ _ _ _ _ H Hkn) as H2. cbn [app] in H2.
   split.
-  - rewrite (run_S _ (C_stmt_block (cBlk bk') SK_Normal) _ (ST_err _ _ _ _ _ _ _ _ _ _ H2)). unfold arm_stmt_block.
+  - rewrite (run_S _ (C_stmt_block (cBlk bk') (sk_of bk')) _ (ST_err _ _ _ _ _ _ _ _ _ _ H2)). unfold arm_stmt_block.
     rewrite (with_ctx_stmt_list _ (cBlk bk') _ _ (ST_err _ _ _ _ _ _ _ _ _ _ H2) (cBlk_level bk')). reflexivity.
   - pose proof (finish_ST _ _ _ _ _ _ _ _ _ _ H2 ltac:(discriminate)) as H3.
     rewrite first_parent_St_blk, plain_sum_St_blk, HC, Ty in H3.
@@ -777,37 +877,36 @@ End Blk.
 (* ================================================================== *)
 (* the nested constructs; the outer block kind bk is arbitrary *)
 Notation RUN := (run pass []).
-Ltac outer_open H Hk :=
-  rewrite (with_ctx_structures _ cSt _ (ST_err _ _ _ _ _ _ _ _ _ _ H) eq_refl).
 
 Lemma iter_block bk b f s k Ls M mc last C lv a t' :
-  IHfor KBegin b ((cSt, false) :: (cBlk bk, false) :: C) ->
-  ST s k Ls [] M mc last ((cBlk bk, false) :: C) lv a -> first_parent C = None ->
+  IHfor KBegin b (((cStk bk), false) :: (cBlk bk, false) :: C) ->
+  ST s k Ls [] M mc last ((cBlk bk, false) :: C) lv a -> first_parent C = par ->
   nth_error T k = Some tBegin -> toks_at (S k) (render b ++ [tEnd]) ->
   nth_error T (S (S k + length (render b))) = Some tSemi ->
   nth_error T (S (S (S k + length (render b)))) = Some t' -> t' <> tSemi ->
   8 + need b <= f ->
   let e := S k + length (render b) in
   exists mc3, lm_type mc3 = LLT_Unknown /\
-  ST (take_separators_on_last_line pass (CL_Level 0%Z) (finish_logical_line pass (RUN f (C_with_ctx cSt A_structures) s)))
-     (S (S e)) (Ls ++ [k] :: map ll_toks (expected (1 + plain_sum C + 1) (S k) b) ++ [[e; S e]]) []
-     (M ++ mkLM None (lvl (1 + plain_sum C)) LLT_Unknown :: map meta_of (expected (1 + plain_sum C + 1) (S k) b)
-        ++ [mkLM None (lvl (1 + plain_sum C)) LLT_Unknown])
-     mc3 (length Ls + S (length (expected (1 + plain_sum C + 1) (S k) b))) ((cBlk bk, false) :: C) lv a.
+  ST (take_separators_on_last_line pass (CL_Level 0%Z) (finish_logical_line pass (RUN f (C_with_ctx (cStk bk) A_structures) s)))
+     (S (S e)) (Ls ++ [k] :: map ll_toks (pexpected par (1 + plain_sum C + 1) (S k) (S (length Ls)) b) ++ [[e; S e]]) []
+     (M ++ mkLM par (lvl (1 + plain_sum C)) LLT_Unknown :: map meta_of (pexpected par (1 + plain_sum C + 1) (S k) (S (length Ls)) b)
+        ++ [mkLM par (lvl (1 + plain_sum C)) LLT_Unknown])
+     mc3 (length Ls + S (length (pexpected par (1 + plain_sum C + 1) (S k) (S (length Ls)) b))) ((cBlk bk, false) :: C) lv a.
 Proof.
   intros IHb H HC Hk Hb Hse Hse1 Hne Hf e.
   assert (Hkn : k < n) by (apply nth_error_Some; congruence).
   destruct f as [|[|[|[|f]]]]; try lia.
-  rewrite (with_ctx_structures _ cSt s (ST_err _ _ _ _ _ _ _ _ _ _ H) eq_refl).
+  rewrite (with_ctx_structures _ (cStk bk) s (ST_err _ _ _ _ _ _ _ _ _ _ H) eq_refl).
   pose proof (finish_empty_ST _ _ _ _ _ _ _ _ _ H) as H0.
-  pose proof (push_ctx_ST cSt _ _ _ _ _ _ _ _ _ _ H0) as H1.
+  pose proof (push_ctx_ST (cStk bk) _ _ _ _ _ _ _ _ _ _ H0) as H1.
   rewrite (run_S _ C_structures _ (ST_err _ _ _ _ _ _ _ _ _ _ H1)).
   unfold arm_structures. rewrite (ST_cur_tt _ _ _ _ _ _ _ _ _ _ _ H1 Hk). cbn [tBegin].
   rewrite (ending_St_SB bk _ _ _ _ _ _ _ _ _ _ _ H1 Hk). cbn [tBegin is_term sarm_of].
   cbv delta [sa_begin stmt_block] beta.
   change (ctx (CT_StatementBlock BK_Begin) true P_end (ParserGrammar.L 1)) with (cBlk KBegin).
-  destruct (open_block bk f _ _ _ _ _ _ _ _ _ KBegin H1 eq_refl HC Hkn) as [Eq H4]. rewrite Eq. clear Eq.
-  destruct (IHb f _ _ _ _ _ _ _ _ ltac:(lia) H4 Hb) as (mcb & lastb & flb & Tyb & H5).
+  destruct (open_block bk f _ _ _ _ _ _ _ _ _ KBegin H1 eq_refl HC Hkn) as [Eq H4]. cbn [sk_of] in Eq. rewrite Eq. clear Eq.
+  pose proof (fun Hli => IHb f _ _ _ _ _ _ _ _ (S (length Ls)) ltac:(lia) Hli H4 Hb) as IHb'.
+  destruct (IHb' ltac:(rewrite app_length; cbn [length]; lia)) as (mcb & lastb & flb & Tyb & H5).
   rewrite plain_sum_St_blk in H5. replace (1 + (0 + (1 + plain_sum C)))%Z with (1 + plain_sum C + 1)%Z in H5 by lia.
   pose proof (pop_ctx_ST _ _ _ _ _ _ _ _ _ _ _ H5) as H6. fold e in H6.
   match type of H6 with ST ?x _ _ _ _ _ _ _ _ _ => set (sB := x) in * end.
@@ -819,7 +918,7 @@ Proof.
   rewrite (ST_cur_tt _ _ _ _ _ _ _ _ _ _ _ H7 Hse). cbn [tSemi o_dot]. unfold s_loop.
   pose proof (close_keyword bk (S (S f)) _ _ _ _ _ _ _ _ _ tEnd H6 Tyb HC He Hse ltac:(lia)) as H9.
   pose proof (iter_close bk _ _ _ _ _ _ _ _ _ t' H9 ltac:(discriminate) Hse Hse1 Hne) as H12.
-  assert (EL : length ((Ls ++ [[k]]) ++ map ll_toks (expected (1 + plain_sum C + 1) (S k) b)) = length Ls + S (length (expected (1 + plain_sum C + 1) (S k) b)))
+  assert (EL : length ((Ls ++ [[k]]) ++ map ll_toks (pexpected par (1 + plain_sum C + 1) (S k) (S (length Ls)) b)) = length Ls + S (length (pexpected par (1 + plain_sum C + 1) (S k) (S (length Ls)) b)))
     by (rewrite !app_length, map_length; cbn [length]; lia).
   rewrite EL in H12.
   eexists. split; [|eapply ST_lists; [exact H12| |]].
@@ -829,8 +928,8 @@ Proof.
 Qed.
 
 Lemma iter_repeat bk b f s k Ls M mc last C lv a t' :
-  IHfor KRepeat b ((cSt, false) :: (cBlk bk, false) :: C) ->
-  ST s k Ls [] M mc last ((cBlk bk, false) :: C) lv a -> first_parent C = None ->
+  IHfor KRepeat b (((cStk bk), false) :: (cBlk bk, false) :: C) ->
+  ST s k Ls [] M mc last ((cBlk bk, false) :: C) lv a -> first_parent C = par ->
   nth_error T k = Some tRepeat -> toks_at (S k) (render b ++ [tUntil]) ->
   nth_error T (S (S k + length (render b))) = Some tI ->
   nth_error T (S (S (S k + length (render b)))) = Some tSemi ->
@@ -838,25 +937,26 @@ Lemma iter_repeat bk b f s k Ls M mc last C lv a t' :
   8 + need b <= f ->
   let e := S k + length (render b) in
   exists mc3 last3, lm_type mc3 = LLT_Unknown /\
-  ST (take_separators_on_last_line pass (CL_Level 0%Z) (finish_logical_line pass (RUN f (C_with_ctx cSt A_structures) s)))
-     (S (S (S e))) (Ls ++ [k] :: map ll_toks (expected (1 + plain_sum C + 1) (S k) b) ++ [[e; S e; S (S e)]]) []
-     (M ++ mkLM None (lvl (1 + plain_sum C)) LLT_Unknown :: map meta_of (expected (1 + plain_sum C + 1) (S k) b)
-        ++ [mkLM None (lvl (1 + plain_sum C)) LLT_Unknown])
+  ST (take_separators_on_last_line pass (CL_Level 0%Z) (finish_logical_line pass (RUN f (C_with_ctx (cStk bk) A_structures) s)))
+     (S (S (S e))) (Ls ++ [k] :: map ll_toks (pexpected par (1 + plain_sum C + 1) (S k) (S (length Ls)) b) ++ [[e; S e; S (S e)]]) []
+     (M ++ mkLM par (lvl (1 + plain_sum C)) LLT_Unknown :: map meta_of (pexpected par (1 + plain_sum C + 1) (S k) (S (length Ls)) b)
+        ++ [mkLM par (lvl (1 + plain_sum C)) LLT_Unknown])
      mc3 last3 ((cBlk bk, false) :: C) lv a.
 Proof.
   intros IHb H HC Hk Hb Hi Hse Hse1 Hne Hf e.
   assert (Hkn : k < n) by (apply nth_error_Some; congruence).
   destruct f as [|[|[|[|f]]]]; try lia.
-  rewrite (with_ctx_structures _ cSt s (ST_err _ _ _ _ _ _ _ _ _ _ H) eq_refl).
+  rewrite (with_ctx_structures _ (cStk bk) s (ST_err _ _ _ _ _ _ _ _ _ _ H) eq_refl).
   pose proof (finish_empty_ST _ _ _ _ _ _ _ _ _ H) as H0.
-  pose proof (push_ctx_ST cSt _ _ _ _ _ _ _ _ _ _ H0) as H1.
+  pose proof (push_ctx_ST (cStk bk) _ _ _ _ _ _ _ _ _ _ H0) as H1.
   rewrite (run_S _ C_structures _ (ST_err _ _ _ _ _ _ _ _ _ _ H1)).
   unfold arm_structures. rewrite (ST_cur_tt _ _ _ _ _ _ _ _ _ _ _ H1 Hk). cbn [tRepeat].
   rewrite (ending_St_SB bk _ _ _ _ _ _ _ _ _ _ _ H1 Hk). cbn [tRepeat is_term sarm_of].
   cbv delta [sa_repeat stmt_block] beta.
   change (ctx (CT_StatementBlock BK_Repeat) true P_until (ParserGrammar.L 1)) with (cBlk KRepeat).
-  destruct (open_block bk f _ _ _ _ _ _ _ _ _ KRepeat H1 eq_refl HC Hkn) as [Eq H4]. rewrite Eq. clear Eq.
-  destruct (IHb f _ _ _ _ _ _ _ _ ltac:(lia) H4 Hb) as (mcb & lastb & flb & Tyb & H5).
+  destruct (open_block bk f _ _ _ _ _ _ _ _ _ KRepeat H1 eq_refl HC Hkn) as [Eq H4]. cbn [sk_of] in Eq. rewrite Eq. clear Eq.
+  pose proof (fun Hli => IHb f _ _ _ _ _ _ _ _ (S (length Ls)) ltac:(lia) Hli H4 Hb) as IHb'.
+  destruct (IHb' ltac:(rewrite app_length; cbn [length]; lia)) as (mcb & lastb & flb & Tyb & H5).
   rewrite plain_sum_St_blk in H5. replace (1 + (0 + (1 + plain_sum C)))%Z with (1 + plain_sum C + 1)%Z in H5 by lia.
   pose proof (pop_ctx_ST _ _ _ _ _ _ _ _ _ _ _ H5) as H6. fold e in H6.
   match type of H6 with ST ?x _ _ _ _ _ _ _ _ _ => set (sB := x) in * end.
@@ -873,14 +973,14 @@ Proof.
   rewrite (take_until_ending _ _ (ST_err _ _ _ _ _ _ _ _ _ _ H10)).
   2: { rewrite (ST_cur_tt _ _ _ _ _ _ _ _ _ _ _ H10 Hse). discriminate. }
   2: { unfold no_more_separators. rewrite (ST_cur_tt _ _ _ _ _ _ _ _ _ _ _ H10 Hse). reflexivity. }
-  2: { unfold is_ending. rewrite (ending_St_ended _ _ _ _ _ _ _ _ _ _ H10). reflexivity. }
+  2: { unfold is_ending. rewrite (ending_St_ended bk _ _ _ _ _ _ _ _ _ _ H10). reflexivity. }
   pose proof (finish_ST _ _ _ _ _ _ _ _ _ _ H10 ltac:(discriminate)) as H11.
   rewrite (first_parent_St_blk bk), (plain_sum_St_blk bk), HC, Tyb in H11.
   replace (clamp_u16 (0 + (1 + plain_sum C))) with (lvl (1 + plain_sum C)) in H11 by (unfold lvl; f_equal; lia).
   unfold s_loop.
   rewrite (run_S _ C_structures _ (ST_err _ _ _ _ _ _ _ _ _ _ H11)).
   unfold arm_structures. rewrite (ST_cur_tt _ _ _ _ _ _ _ _ _ _ _ H11 Hse). cbn [tSemi].
-  rewrite (ending_St_ended _ _ _ _ _ _ _ _ _ _ H11).
+  rewrite (ending_St_ended bk _ _ _ _ _ _ _ _ _ _ H11).
   pose proof (update_statuses_ST 1 _ _ _ _ _ _ _ _ _ _ H11) as H12. cbn [mark_ended] in H12.
   pose proof (iter_close bk _ _ _ _ _ _ _ _ _ t' H12 ltac:(discriminate) Hse Hse1 Hne) as H13.
   eexists _, _. split; [|eapply ST_lists; [exact H13| |]].
@@ -890,8 +990,8 @@ Proof.
 Qed.
 
 Lemma iter_try bk b c f s k Ls M mc last C lv a t' :
-  IHfor KTry b ((cSt, false) :: (cBlk bk, false) :: C) -> IHfor KFinally c ((cSt, false) :: (cBlk bk, false) :: C) ->
-  ST s k Ls [] M mc last ((cBlk bk, false) :: C) lv a -> first_parent C = None ->
+  IHfor KTry b (((cStk bk), false) :: (cBlk bk, false) :: C) -> IHfor KFinally c (((cStk bk), false) :: (cBlk bk, false) :: C) ->
+  ST s k Ls [] M mc last ((cBlk bk, false) :: C) lv a -> first_parent C = par ->
   nth_error T k = Some tTry -> toks_at (S k) (render b ++ [tFinally]) ->
   toks_at (S (S k + length (render b))) (render c ++ [tEnd]) ->
   nth_error T (S (S (S k + length (render b)) + length (render c))) = Some tSemi ->
@@ -900,27 +1000,28 @@ Lemma iter_try bk b c f s k Ls M mc last C lv a t' :
   let m := S k + length (render b) in
   let e := S m + length (render c) in
   exists mc3 last3, lm_type mc3 = LLT_Unknown /\
-  ST (take_separators_on_last_line pass (CL_Level 0%Z) (finish_logical_line pass (RUN f (C_with_ctx cSt A_structures) s)))
+  ST (take_separators_on_last_line pass (CL_Level 0%Z) (finish_logical_line pass (RUN f (C_with_ctx (cStk bk) A_structures) s)))
      (S (S e))
-     (Ls ++ [k] :: map ll_toks (expected (1 + plain_sum C + 1) (S k) b) ++ [m] :: map ll_toks (expected (1 + plain_sum C + 1) (S m) c) ++ [[e; S e]]) []
-     (M ++ mkLM None (lvl (1 + plain_sum C)) LLT_Unknown :: map meta_of (expected (1 + plain_sum C + 1) (S k) b)
-        ++ mkLM None (lvl (1 + plain_sum C)) LLT_Unknown :: map meta_of (expected (1 + plain_sum C + 1) (S m) c)
-        ++ [mkLM None (lvl (1 + plain_sum C)) LLT_Unknown])
+     (Ls ++ [k] :: map ll_toks (pexpected par (1 + plain_sum C + 1) (S k) (S (length Ls)) b) ++ [m] :: map ll_toks (pexpected par (1 + plain_sum C + 1) (S m) (S (length Ls) + length (pexpected par (1 + plain_sum C + 1) (S k) (S (length Ls)) b) + 1) c) ++ [[e; S e]]) []
+     (M ++ mkLM par (lvl (1 + plain_sum C)) LLT_Unknown :: map meta_of (pexpected par (1 + plain_sum C + 1) (S k) (S (length Ls)) b)
+        ++ mkLM par (lvl (1 + plain_sum C)) LLT_Unknown :: map meta_of (pexpected par (1 + plain_sum C + 1) (S m) (S (length Ls) + length (pexpected par (1 + plain_sum C + 1) (S k) (S (length Ls)) b) + 1) c)
+        ++ [mkLM par (lvl (1 + plain_sum C)) LLT_Unknown])
      mc3 last3 ((cBlk bk, false) :: C) lv a.
 Proof.
   intros IHb IHc H HC Hk Hb Hcn Hse Hse1 Hne Hf m e.
   assert (Hkn : k < n) by (apply nth_error_Some; congruence).
   destruct f as [|[|[|[|f]]]]; try lia.
-  rewrite (with_ctx_structures _ cSt s (ST_err _ _ _ _ _ _ _ _ _ _ H) eq_refl).
+  rewrite (with_ctx_structures _ (cStk bk) s (ST_err _ _ _ _ _ _ _ _ _ _ H) eq_refl).
   pose proof (finish_empty_ST _ _ _ _ _ _ _ _ _ H) as H0.
-  pose proof (push_ctx_ST cSt _ _ _ _ _ _ _ _ _ _ H0) as H1.
+  pose proof (push_ctx_ST (cStk bk) _ _ _ _ _ _ _ _ _ _ H0) as H1.
   rewrite (run_S _ C_structures _ (ST_err _ _ _ _ _ _ _ _ _ _ H1)).
   unfold arm_structures. rewrite (ST_cur_tt _ _ _ _ _ _ _ _ _ _ _ H1 Hk). cbn [tTry].
   rewrite (ending_St_SB bk _ _ _ _ _ _ _ _ _ _ _ H1 Hk). cbn [tTry is_term sarm_of].
   cbv delta [sa_try stmt_block] beta.
   change (ctx (CT_StatementBlock BK_Try) true P_except_finally (ParserGrammar.L 1)) with (cBlk KTry).
-  destruct (open_block bk f _ _ _ _ _ _ _ _ _ KTry H1 eq_refl HC Hkn) as [Eq H4]. rewrite Eq. clear Eq.
-  destruct (IHb f _ _ _ _ _ _ _ _ ltac:(lia) H4 Hb) as (mcb & lastb & flb & Tyb & H5).
+  destruct (open_block bk f _ _ _ _ _ _ _ _ _ KTry H1 eq_refl HC Hkn) as [Eq H4]. cbn [sk_of] in Eq. rewrite Eq. clear Eq.
+  pose proof (fun Hli => IHb f _ _ _ _ _ _ _ _ (S (length Ls)) ltac:(lia) Hli H4 Hb) as IHb'.
+  destruct (IHb' ltac:(rewrite app_length; cbn [length]; lia)) as (mcb & lastb & flb & Tyb & H5).
   rewrite plain_sum_St_blk in H5. replace (1 + (0 + (1 + plain_sum C)))%Z with (1 + plain_sum C + 1)%Z in H5 by lia.
   pose proof (pop_ctx_ST _ _ _ _ _ _ _ _ _ _ _ H5) as H6. fold m in H6.
   match type of H6 with ST ?x _ _ _ _ _ _ _ _ _ => set (sB := x) in * end.
@@ -931,8 +1032,9 @@ Proof.
   change (ctx (CT_StatementBlock BK_Finally) true P_else_end (ParserGrammar.L 1)) with (cBlk KFinally).
   (* `finally` and its block *)
   destruct (open_block bk f _ _ _ _ _ _ _ _ _ KFinally H6 Tyb HC Hmn) as [Eq2 H4'].
-  fold m in Hcn. rewrite Eq2. clear Eq2.
-  destruct (IHc f _ _ _ _ _ _ _ _ ltac:(lia) H4' Hcn) as (mcc & lastc & flc & Tyc & H5').
+  fold m in Hcn. cbn [sk_of] in Eq2. rewrite Eq2. clear Eq2.
+  pose proof (fun Hli => IHc f _ _ _ _ _ _ _ _ (S (length Ls) + length (pexpected par (1 + plain_sum C + 1) (S k) (S (length Ls)) b) + 1) ltac:(lia) Hli H4' Hcn) as IHc'.
+  destruct (IHc' ltac:(rewrite !app_length, map_length; cbn [length]; lia)) as (mcc & lastc & flc & Tyc & H5').
   rewrite plain_sum_St_blk in H5'. replace (1 + (0 + (1 + plain_sum C)))%Z with (1 + plain_sum C + 1)%Z in H5' by lia.
   pose proof (pop_ctx_ST _ _ _ _ _ _ _ _ _ _ _ H5') as H6'. fold e in H6'.
   match type of H6' with ST ?x _ _ _ _ _ _ _ _ _ => set (sC := x) in * end.
@@ -946,49 +1048,1507 @@ Proof.
   - cbn [app]. repeat (progress (cbn [app]; rewrite <- ?app_assoc)). reflexivity.
   - repeat (progress (cbn [app]; rewrite <- ?app_assoc)). reflexivity.
 Qed.
-Theorem stmts_run : forall ss bk C, first_parent C = None -> IHfor bk ss C.
+
+Lemma iter_tryexcept bk b c f s k Ls M mc last C lv a t' :
+  IHfor KTryE b (((cStk bk), false) :: (cBlk bk, false) :: C) -> IHfor KExcept c (((cStk bk), false) :: (cBlk bk, false) :: C) ->
+  ST s k Ls [] M mc last ((cBlk bk, false) :: C) lv a -> first_parent C = par ->
+  nth_error T k = Some tTry -> toks_at (S k) (render b ++ [tExcept]) ->
+  toks_at (S (S k + length (render b))) (render c ++ [tEnd]) ->
+  nth_error T (S (S (S k + length (render b)) + length (render c))) = Some tSemi ->
+  nth_error T (S (S (S (S k + length (render b)) + length (render c)))) = Some t' -> t' <> tSemi ->
+  8 + need b + need c <= f ->
+  let m := S k + length (render b) in
+  let e := S m + length (render c) in
+  exists mc3 last3, lm_type mc3 = LLT_Unknown /\
+  ST (take_separators_on_last_line pass (CL_Level 0%Z) (finish_logical_line pass (RUN f (C_with_ctx (cStk bk) A_structures) s)))
+     (S (S e))
+     (Ls ++ [k] :: map ll_toks (pexpected par (1 + plain_sum C + 1) (S k) (S (length Ls)) b) ++ [m] :: map ll_toks (pexpected par (1 + plain_sum C + 1) (S m) (S (length Ls) + length (pexpected par (1 + plain_sum C + 1) (S k) (S (length Ls)) b) + 1) c) ++ [[e; S e]]) []
+     (M ++ mkLM par (lvl (1 + plain_sum C)) LLT_Unknown :: map meta_of (pexpected par (1 + plain_sum C + 1) (S k) (S (length Ls)) b)
+        ++ mkLM par (lvl (1 + plain_sum C)) LLT_Unknown :: map meta_of (pexpected par (1 + plain_sum C + 1) (S m) (S (length Ls) + length (pexpected par (1 + plain_sum C + 1) (S k) (S (length Ls)) b) + 1) c)
+        ++ [mkLM par (lvl (1 + plain_sum C)) LLT_Unknown])
+     mc3 last3 ((cBlk bk, false) :: C) lv a.
 Proof.
-  induction ss as [|r IHr|r IHr|b IHb r IHr|b IHb r IHr|b IHb c IHc r IHr]; intros bk C HC f s k Ls M mc last lv a Hf H Ht; unfold Post.
+  intros IHb IHc H HC Hk Hb Hcn Hse Hse1 Hne Hf m e.
+  assert (Hkn : k < n) by (apply nth_error_Some; congruence).
+  destruct f as [|[|[|[|f]]]]; try lia.
+  rewrite (with_ctx_structures _ (cStk bk) s (ST_err _ _ _ _ _ _ _ _ _ _ H) eq_refl).
+  pose proof (finish_empty_ST _ _ _ _ _ _ _ _ _ H) as H0.
+  pose proof (push_ctx_ST (cStk bk) _ _ _ _ _ _ _ _ _ _ H0) as H1.
+  rewrite (run_S _ C_structures _ (ST_err _ _ _ _ _ _ _ _ _ _ H1)).
+  unfold arm_structures. rewrite (ST_cur_tt _ _ _ _ _ _ _ _ _ _ _ H1 Hk). cbn [tTry].
+  rewrite (ending_St_SB bk _ _ _ _ _ _ _ _ _ _ _ H1 Hk). cbn [tTry is_term sarm_of].
+  cbv delta [sa_try stmt_block] beta.
+  change (ctx (CT_StatementBlock BK_Try) true P_except_finally (ParserGrammar.L 1)) with (cBlk KTryE).
+  destruct (open_block bk f _ _ _ _ _ _ _ _ _ KTryE H1 eq_refl HC Hkn) as [Eq H4]. cbn [sk_of] in Eq. rewrite Eq. clear Eq.
+  pose proof (fun Hli => IHb f _ _ _ _ _ _ _ _ (S (length Ls)) ltac:(lia) Hli H4 Hb) as IHb'.
+  destruct (IHb' ltac:(rewrite app_length; cbn [length]; lia)) as (mcb & lastb & flb & Tyb & H5).
+  rewrite plain_sum_St_blk in H5. replace (1 + (0 + (1 + plain_sum C)))%Z with (1 + plain_sum C + 1)%Z in H5 by lia.
+  pose proof (pop_ctx_ST _ _ _ _ _ _ _ _ _ _ _ H5) as H6. fold m in H6.
+  match type of H6 with ST ?x _ _ _ _ _ _ _ _ _ => set (sB := x) in * end.
+  assert (Hm : nth_error T m = Some tExcept).
+  { specialize (Hb (length (render b)) tExcept). rewrite nth_error_app2, Nat.sub_diag in Hb by lia. exact (Hb eq_refl). }
+  assert (Hmn : m < n) by (apply nth_error_Some; congruence).
+  cbv zeta. rewrite (ST_cur_tt _ _ _ _ _ _ _ _ _ _ _ H6 Hm). cbn [tExcept].
+  change (ctx (CT_StatementBlock BK_Except) true P_else_end (ParserGrammar.L 1)) with (cBlk KExcept).
+  (* `finally` and its block *)
+  destruct (open_block bk f _ _ _ _ _ _ _ _ _ KExcept H6 Tyb HC Hmn) as [Eq2 H4'].
+  fold m in Hcn. cbn [sk_of] in Eq2. rewrite Eq2. clear Eq2.
+  pose proof (fun Hli => IHc f _ _ _ _ _ _ _ _ (S (length Ls) + length (pexpected par (1 + plain_sum C + 1) (S k) (S (length Ls)) b) + 1) ltac:(lia) Hli H4' Hcn) as IHc'.
+  destruct (IHc' ltac:(rewrite !app_length, map_length; cbn [length]; lia)) as (mcc & lastc & flc & Tyc & H5').
+  rewrite plain_sum_St_blk in H5'. replace (1 + (0 + (1 + plain_sum C)))%Z with (1 + plain_sum C + 1)%Z in H5' by lia.
+  pose proof (pop_ctx_ST _ _ _ _ _ _ _ _ _ _ _ H5') as H6'. fold e in H6'.
+  match type of H6' with ST ?x _ _ _ _ _ _ _ _ _ => set (sC := x) in * end.
+  assert (He : nth_error T e = Some tEnd).
+  { specialize (Hcn (length (render c)) tEnd). rewrite nth_error_app2, Nat.sub_diag in Hcn by lia. exact (Hcn eq_refl). }
+  rewrite (ST_cur_tt _ _ _ _ _ _ _ _ _ _ _ H6' He). cbn [tEnd o_kw_else]. unfold s_loop.
+  pose proof (close_keyword bk (S (S f)) _ _ _ _ _ _ _ _ _ tEnd H6' Tyc HC He Hse ltac:(lia)) as H9.
+  pose proof (iter_close bk _ _ _ _ _ _ _ _ _ t' H9 ltac:(discriminate) Hse Hse1 Hne) as H12.
+  eexists _, _. split; [|eapply ST_lists; [exact H12| |]].
+  - reflexivity.
+  - cbn [app]. repeat (progress (cbn [app]; rewrite <- ?app_assoc)). reflexivity.
+  - repeat (progress (cbn [app]; rewrite <- ?app_assoc)). reflexivity.
+Qed.
+
+(* ================================================================== *)
+(* generic steps of parse_statement / parse_structures (any context on top) *)
+Lemma ending_top_ended s k L c M mc last x r lv a :
+  ST s k L c M mc last ((x, true) :: r) lv a -> ending_ctx pass s = Some 1.
+Proof. intros H. unfold ending_ctx. rewrite (ST_ctx _ _ _ _ _ _ _ _ _ _ H). reflexivity. Qed.
+
+Definition stmt_ctype (x : pctx) : Prop := c_type x = CT_Statement SK_Normal \/ c_type x = CT_Utility.
+
+Lemma prelude_none s k L c M mc last x fl r lv a :
+  ST s k L c M mc last ((x, fl) :: r) lv a -> ending_ctx pass s = None -> stmt_ctype x -> statement_prelude pass s = (s, true).
+Proof.
+  intros H E Hx. unfold statement_prelude. rewrite (last_ctx_ST _ _ _ _ _ _ _ _ _ _ _ _ H), E.
+  destruct (at_start pass s); [|reflexivity]. destruct Hx as [-> | ->]; reflexivity.
+Qed.
+Lemma prelude_some s k L c M mc last x fl r lv a j :
+  ST s k L c M mc last ((x, fl) :: r) lv a -> ending_ctx pass s = Some j ->
+  statement_prelude pass s = (update_statuses pass j s, false).
+Proof. intros H E. unfold statement_prelude. rewrite (last_ctx_ST _ _ _ _ _ _ _ _ _ _ _ _ H), E. reflexivity. Qed.
+
+Lemma statement_ident f s k L c M mc last x fl r lv a t1 :
+  ST s k L c M mc last ((x, fl) :: r) lv a -> nth_error T k = Some tI -> nth_error T (S k) = Some t1 -> t1 <> RTT_Eof ->
+  o_colon (Some t1) = false -> ending_ctx pass s = None -> stmt_ctype x ->
+  RUN (S f) C_statement s = RUN f C_statement (next_token pass s).
+Proof.
+  intros H Hk Hk1 Hne O E Hx.
+  rewrite (run_S _ C_statement _ (ST_err _ _ _ _ _ _ _ _ _ _ H)).
+  unfold arm_statement. rewrite (ST_cur_tt _ _ _ _ _ _ _ _ _ _ _ H Hk). cbn [tI].
+  rewrite (prelude_none _ _ _ _ _ _ _ _ _ _ _ _ H E Hx). cbn [negb starm_of tI].
+  unfold st_label_cand, label_or_other. rewrite (next_tt_ST _ _ _ _ _ _ _ _ _ _ _ H Hk1 Hne).
+  rewrite O, andb_false_r. reflexivity.
+Qed.
+Lemma statement_assign f s k L c M mc last x fl r lv a :
+  ST s k L c M mc last ((x, fl) :: r) lv a -> nth_error T k = Some tAssign -> lm_type mc = LLT_Unknown ->
+  ending_ctx pass s = None -> stmt_ctype x ->
+  RUN (S f) C_statement s = RUN f C_statement (set_line_type pass LLT_Assignment (next_token pass s)).
+Proof.
+  intros H Hk Hty E Hx. assert (Hkn : k < n) by (apply nth_error_Some; congruence).
+  rewrite (run_S _ C_statement _ (ST_err _ _ _ _ _ _ _ _ _ _ H)).
+  unfold arm_statement. rewrite (ST_cur_tt _ _ _ _ _ _ _ _ _ _ _ H Hk). cbn [tAssign].
+  rewrite (prelude_none _ _ _ _ _ _ _ _ _ _ _ _ H E Hx). cbn [negb starm_of tAssign].
+  cbv delta [st_assign t_loop] beta zeta.
+  pose proof (next_token_ST _ _ _ _ _ _ _ _ _ _ H Hkn) as H2.
+  rewrite (ST_cur_type _ _ _ _ _ _ _ _ _ _ H2), Hty. reflexivity.
+Qed.
+Lemma statement_stop f s k L c M mc last x fl r lv a t j :
+  ST s k L c M mc last ((x, fl) :: r) lv a -> nth_error T k = Some t -> t <> RTT_Eof -> ending_ctx pass s = Some j ->
+  RUN (S f) C_statement s = update_statuses pass j s.
+Proof.
+  intros H Hk Hne E. rewrite (run_S _ C_statement _ (ST_err _ _ _ _ _ _ _ _ _ _ H)).
+  unfold arm_statement. rewrite (ST_cur_tt _ _ _ _ _ _ _ _ _ _ _ H Hk).
+  destruct t; try (rewrite (prelude_some _ _ _ _ _ _ _ _ _ _ _ _ _ H E); reflexivity). contradiction Hne; reflexivity.
+Qed.
+Lemma structures_stop f s k L c M mc last cx lv a t j :
+  ST s k L c M mc last cx lv a -> nth_error T k = Some t -> t <> RTT_Eof -> ending_ctx pass s = Some j ->
+  RUN (S f) C_structures s = update_statuses pass j s.
+Proof.
+  intros H Hk Hne E. rewrite (run_S _ C_structures _ (ST_err _ _ _ _ _ _ _ _ _ _ H)).
+  unfold arm_structures. rewrite (ST_cur_tt _ _ _ _ _ _ _ _ _ _ _ H Hk), E.
+  destruct t; try reflexivity. contradiction Hne; reflexivity.
+Qed.
+Lemma structures_ident f s k L c M mc last cx lv a :
+  ST s k L c M mc last cx lv a -> nth_error T k = Some tI -> ending_ctx pass s = None ->
+  RUN (S f) C_structures s = RUN f C_structures (RUN f C_statement s).
+Proof.
+  intros H Hk E. rewrite (run_S _ C_structures _ (ST_err _ _ _ _ _ _ _ _ _ _ H)).
+  unfold arm_structures. rewrite (ST_cur_tt _ _ _ _ _ _ _ _ _ _ _ H Hk), E. reflexivity.
+Qed.
+Lemma take_until_stop pred s : has_err pass s = false -> cur_tt pass s <> None -> pred s = true \/ is_ending pass s = true ->
+  take_until pass pred s = s.
+Proof.
+  intros E Hc Hp. unfold take_until, simple_op_until, op_until.
+  replace (remaining pass s + 2) with (S (remaining pass s + 1)) by lia. cbn [op_until_go]. rewrite E.
+  destruct (cur_tt pass s); [|congruence]. destruct (pred s); [reflexivity|]. destruct Hp as [Hp|Hp]; [discriminate|]. rewrite Hp. reflexivity.
+Qed.
+
+(* entering a nested block after its opening keyword, in any context *)
+Lemma open_block_G f s k Ls M mc last Y lv a bk' :
+  ST s k Ls [] M mc last Y lv a -> k < n ->
+  let s1 := push_ctx pass (cBlk bk') (finish_logical_line pass (next_token pass s)) in
+  RUN (S (S f)) (C_stmt_block (cBlk bk') (sk_of bk')) (next_token pass s) = pop_ctx pass (RUN f (slc bk') s1)
+  /\ ST s1 (S k) (Ls ++ [[k]]) [] (M ++ [mkLM (first_parent Y) (clamp_u16 (plain_sum Y)) (lm_type mc)])
+        (mkLM None (clamp_u16 (plain_sum Y)) LLT_Unknown) (length Ls) ((cBlk bk', false) :: Y) lv a.
+Proof.
+  intros H Hkn s1.
+  pose proof (next_token_ST _ _ _ _ _ _ _ _ _ _ H Hkn) as H2. cbn [app] in H2.
+  split.
+  - rewrite (run_S _ (C_stmt_block (cBlk bk') (sk_of bk')) _ (ST_err _ _ _ _ _ _ _ _ _ _ H2)). unfold arm_stmt_block.
+    rewrite (with_ctx_stmt_list _ (cBlk bk') _ _ (ST_err _ _ _ _ _ _ _ _ _ _ H2) (cBlk_level bk')). reflexivity.
+  - pose proof (finish_ST _ _ _ _ _ _ _ _ _ _ H2 ltac:(discriminate)) as H3.
+    exact (push_ctx_ST (cBlk bk') _ _ _ _ _ _ _ _ _ _ H3).
+Qed.
+
+(* ---------------- the line section `Identifier then` / `Identifier do` of a header line *)
+Inductive hk := HThen | HDo | HOf.
+Definition cUtp (th : hk) : pctx := ctx CT_Utility true (match th with HThen => P_then | HDo => P_kw_do | HOf => P_of end) (ParserGrammar.L 0).
+Definition tHd (th : hk) : RawTokenType := match th with HThen => tThen | HDo => tDo | HOf => tOf end.
+Definition is_hd (th : hk) (t : RawTokenType) : bool :=
+  match t, th with
+  | RTT_Keyword KK_Then, HThen | RTT_Keyword KK_Do, HDo | RTT_Keyword KK_Of, HOf => true
+  | _, _ => false
+  end.
+Lemma ending_Ut th s k L c M mc last r lv a t :
+  ST s k L c M mc last ((cUtp th, false) :: r) lv a -> nth_error T k = Some t ->
+  ending_ctx pass s = if is_hd th t then Some 1 else None.
+Proof.
+  intros H Ht. unfold ending_ctx. rewrite (ST_ctx _ _ _ _ _ _ _ _ _ _ H). cbn [ending_go cUtp ctx c_pred c_opaque].
+  pose proof (ST_cur_tt _ _ _ _ _ _ _ _ _ _ _ H Ht) as Ct. pose proof (plain_nth _ _ Ht) as P.
+  destruct th; cbn [eval_pred]; unfold cur_kk; rewrite Ct.
+  all: destruct t as [o| |k0|k0| | | | | | |]; try contradiction; try reflexivity.
+  all: try (destruct o; try contradiction; reflexivity).
+  all: destruct k0; try contradiction; reflexivity.
+Qed.
+Lemma line_section_run th f s k L c M mc last r lv a :
+  ST s k L c M mc last r lv a -> nth_error T k = Some tI -> nth_error T (S k) = Some (tHd th) -> 3 <= f ->
+  ST (RUN f (C_line_section (cUtp th)) s) (S k) L (c ++ [k]) M mc last r lv a.
+Proof.
+  intros H Hk Hk1 Hf. destruct f as [|[|[|f]]]; try lia.
+  assert (Hkn : k < n) by (apply nth_error_Some; congruence).
+  rewrite (run_S _ (C_line_section _) _ (ST_err _ _ _ _ _ _ _ _ _ _ H)). unfold arm_line_section.
+  pose proof (push_ctx_ST (cUtp th) _ _ _ _ _ _ _ _ _ _ H) as H1.
+  assert (E0 : ending_ctx pass (push_ctx pass (cUtp th) s) = None) by (rewrite (ending_Ut _ _ _ _ _ _ _ _ _ _ _ _ H1 Hk); reflexivity).
+  rewrite (statement_ident _ _ _ _ _ _ _ _ _ _ _ _ _ _ H1 Hk Hk1 ltac:(destruct th; discriminate) ltac:(destruct th; reflexivity) E0 (or_intror eq_refl)).
+  pose proof (next_token_ST _ _ _ _ _ _ _ _ _ _ H1 Hkn) as H2.
+  assert (E1 : ending_ctx pass (next_token pass (push_ctx pass (cUtp th) s)) = Some 1)
+    by (rewrite (ending_Ut _ _ _ _ _ _ _ _ _ _ _ _ H2 Hk1); destruct th; reflexivity).
+  rewrite (statement_stop _ _ _ _ _ _ _ _ _ _ _ _ _ _ _ H2 Hk1 ltac:(destruct th; discriminate) E1).
+  pose proof (update_statuses_ST 1 _ _ _ _ _ _ _ _ _ _ H2) as H3. cbn [mark_ended] in H3.
+  exact (pop_ctx_ST _ _ _ _ _ _ _ _ _ _ _ H3).
+Qed.
+
+(* ---------------- the body of a child line context (parse_block with a parent) *)
+Definition cCh (pe : bool) (p : nat * nat) : pctx :=
+  ctx (CT_Statement SK_Normal) false (if pe then P_else else P_never) (CL_Parent p 1%N).
+Definition tFol (el : bool) : RawTokenType := if el then tElse else tSemi.
+Definition Xc bk pe p (C : list (pctx * bool)) := (cCh pe p, false) :: ((cStk bk), false) :: (cBlk bk, false) :: C.
+Definition Xe bk pe p (C : list (pctx * bool)) (el : bool) := (cCh pe p, true) :: ((cStk bk), negb el) :: (cBlk bk, false) :: C.
+Lemma first_parent_Xc bk pe p C : first_parent (Xc bk pe p C) = Some p. Proof. reflexivity. Qed.
+Lemma plain_sum_Xc bk pe p C : plain_sum (Xc bk pe p C) = 1%Z. Proof. reflexivity. Qed.
+Lemma first_parent_Xe bk pe p C el : first_parent (Xe bk pe p C el) = Some p. Proof. reflexivity. Qed.
+Lemma plain_sum_Xe bk pe p C el : plain_sum (Xe bk pe p C el) = 1%Z. Proof. reflexivity. Qed.
+
+Lemma ending_Ch bk pe p s k L c M mc last C lv a t :
+  ST s k L c M mc last (Xc bk pe p C) lv a -> nth_error T k = Some t ->
+  ending_ctx pass s = if pe && o_kw_else (Some t) then Some 1
+                      else match t with RTT_Op OK_Semicolon => Some 2 | _ => if is_term bk t then Some 3 else None end.
+Proof.
+  intros H Ht. unfold ending_ctx. rewrite (ST_ctx _ _ _ _ _ _ _ _ _ _ H). unfold Xc. cbn [ending_go cCh cStk ctx c_pred c_opaque].
+  rewrite (blk_pred_eval bk _ _ _ _ _ _ _ _ _ _ _ H Ht), cBlk_opaque.
+  pose proof (ST_cur_tt _ _ _ _ _ _ _ _ _ _ _ H Ht) as Ct. pose proof (plain_nth _ _ Ht) as P.
+  destruct pe; cbn [eval_pred andb]; rewrite ?Ct.
+  all: destruct t as [o| |k0|k0| | | | | | |]; try contradiction; try reflexivity.
+  all: try (destruct o; try contradiction; reflexivity).
+  all: destruct k0; try contradiction; cbn [o_semicolon o_kw_else]; try reflexivity; destruct (is_term bk _); reflexivity.
+Qed.
+
+Lemma body_simple bk pe el p f s k L M mc last C lv a :
+  ST s k L [] M mc last (Xc bk pe p C) lv a -> (el = true -> pe = true) ->
+  nth_error T k = Some tI -> nth_error T (S k) = Some (tFol el) -> 4 <= f ->
+  ST (finish_logical_line pass (RUN f C_structures s)) (S k) (L ++ [[k]]) []
+     (M ++ [mkLM (Some p) (lvl 1) (lm_type mc)]) (mkLM None (lvl 1) LLT_Unknown) (length L) (Xe bk pe p C el) lv a.
+Proof.
+  intros H Hel Hk Hk1 Hf. destruct f as [|[|[|[|f]]]]; try lia.
+  assert (Hkn : k < n) by (apply nth_error_Some; congruence).
+  assert (E0 : ending_ctx pass s = None) by (rewrite (ending_Ch _ _ _ _ _ _ _ _ _ _ _ _ _ _ H Hk); destruct pe; reflexivity).
+  rewrite (structures_ident _ _ _ _ _ _ _ _ _ _ _ H Hk E0).
+  rewrite (statement_ident _ _ _ _ _ _ _ _ _ _ _ _ _ _ H Hk Hk1 ltac:(destruct el; discriminate) ltac:(destruct el; reflexivity) E0 (or_introl eq_refl)).
+  pose proof (next_token_ST _ _ _ _ _ _ _ _ _ _ H Hkn) as H1. cbn [app] in H1.
+  assert (E1 : ending_ctx pass (next_token pass s) = Some (if el then 1 else 2)).
+  { rewrite (ending_Ch _ _ _ _ _ _ _ _ _ _ _ _ _ _ H1 Hk1). destruct el; [rewrite (Hel eq_refl)|destruct pe]; reflexivity. }
+  rewrite (statement_stop _ _ _ _ _ _ _ _ _ _ _ _ _ _ _ H1 Hk1 ltac:(destruct el; discriminate) E1).
+  pose proof (update_statuses_ST (if el then 1 else 2) _ _ _ _ _ _ _ _ _ _ H1) as H2.
+  assert (MX : mark_ended (if el then 1 else 2) (Xc bk pe p C) = Xe bk pe p C el) by (destruct el; reflexivity). rewrite MX in H2.
+  rewrite (structures_stop _ _ _ _ _ _ _ _ _ _ _ _ _ H2 Hk1 ltac:(destruct el; discriminate) (ending_top_ended _ _ _ _ _ _ _ _ _ _ _ H2)).
+  pose proof (update_statuses_ST 1 _ _ _ _ _ _ _ _ _ _ H2) as H3.
+  change (mark_ended 1 (Xe bk pe p C el)) with (Xe bk pe p C el) in H3.
+  pose proof (finish_ST _ _ _ _ _ _ _ _ _ _ H3 ltac:(discriminate)) as H4.
+  rewrite first_parent_Xe, plain_sum_Xe in H4. exact H4.
+Qed.
+
+Lemma body_assign bk pe el p f s k L M mc last C lv a :
+  ST s k L [] M mc last (Xc bk pe p C) lv a -> lm_type mc = LLT_Unknown -> (el = true -> pe = true) ->
+  nth_error T k = Some tI -> nth_error T (S k) = Some tAssign -> nth_error T (S (S k)) = Some tI ->
+  nth_error T (S (S (S k))) = Some (tFol el) -> 6 <= f ->
+  ST (finish_logical_line pass (RUN f C_structures s)) (S (S (S k))) (L ++ [[k; S k; S (S k)]]) []
+     (M ++ [mkLM (Some p) (lvl 1) LLT_Assignment]) (mkLM None (lvl 1) LLT_Unknown) (length L) (Xe bk pe p C el) lv a.
+Proof.
+  intros H Hty Hel Hk Hk1 Hk2 Hk3 Hf. destruct f as [|[|[|[|[|[|f]]]]]]; try lia.
+  assert (Hkn : k < n) by (apply nth_error_Some; congruence).
+  assert (Hkn1 : S k < n) by (apply nth_error_Some; congruence).
+  assert (Hkn2 : S (S k) < n) by (apply nth_error_Some; congruence).
+  assert (E0 : ending_ctx pass s = None) by (rewrite (ending_Ch _ _ _ _ _ _ _ _ _ _ _ _ _ _ H Hk); destruct pe; reflexivity).
+  rewrite (structures_ident _ _ _ _ _ _ _ _ _ _ _ H Hk E0).
+  rewrite (statement_ident _ _ _ _ _ _ _ _ _ _ _ _ _ _ H Hk Hk1 ltac:(discriminate) eq_refl E0 (or_introl eq_refl)).
+  pose proof (next_token_ST _ _ _ _ _ _ _ _ _ _ H Hkn) as H1. cbn [app] in H1.
+  assert (E1 : ending_ctx pass (next_token pass s) = None) by (rewrite (ending_Ch _ _ _ _ _ _ _ _ _ _ _ _ _ _ H1 Hk1); destruct pe; reflexivity).
+  rewrite (statement_assign _ _ _ _ _ _ _ _ _ _ _ _ _ H1 Hk1 Hty E1 (or_introl eq_refl)).
+  pose proof (next_token_ST _ _ _ _ _ _ _ _ _ _ H1 Hkn1) as H2. cbn [app] in H2.
+  pose proof (set_line_type_ST LLT_Assignment _ _ _ _ _ _ _ _ _ _ H2) as H3.
+  match type of H3 with ST ?x _ _ _ _ _ _ _ _ _ => set (s3 := x) in * end.
+  assert (E2 : ending_ctx pass s3 = None) by (rewrite (ending_Ch _ _ _ _ _ _ _ _ _ _ _ _ _ _ H3 Hk2); destruct pe; reflexivity).
+  rewrite (statement_ident _ _ _ _ _ _ _ _ _ _ _ _ _ _ H3 Hk2 Hk3 ltac:(destruct el; discriminate) ltac:(destruct el; reflexivity) E2 (or_introl eq_refl)).
+  pose proof (next_token_ST _ _ _ _ _ _ _ _ _ _ H3 Hkn2) as H4. cbn [app] in H4.
+  assert (E3 : ending_ctx pass (next_token pass s3) = Some (if el then 1 else 2)).
+  { rewrite (ending_Ch _ _ _ _ _ _ _ _ _ _ _ _ _ _ H4 Hk3). destruct el; [rewrite (Hel eq_refl)|destruct pe]; reflexivity. }
+  rewrite (statement_stop _ _ _ _ _ _ _ _ _ _ _ _ _ _ _ H4 Hk3 ltac:(destruct el; discriminate) E3).
+  pose proof (update_statuses_ST (if el then 1 else 2) _ _ _ _ _ _ _ _ _ _ H4) as H5.
+  assert (MX : mark_ended (if el then 1 else 2) (Xc bk pe p C) = Xe bk pe p C el) by (destruct el; reflexivity). rewrite MX in H5.
+  rewrite (structures_stop _ _ _ _ _ _ _ _ _ _ _ _ _ H5 Hk3 ltac:(destruct el; discriminate) (ending_top_ended _ _ _ _ _ _ _ _ _ _ _ H5)).
+  pose proof (update_statuses_ST 1 _ _ _ _ _ _ _ _ _ _ H5) as H6.
+  change (mark_ended 1 (Xe bk pe p C el)) with (Xe bk pe p C el) in H6.
+  pose proof (finish_ST _ _ _ _ _ _ _ _ _ _ H6 ltac:(discriminate)) as H7.
+  rewrite first_parent_Xe, plain_sum_Xe in H7. exact H7.
+Qed.
+
+Lemma body_block bk pe el p b f s k L M mc last C lv a :
+  IHfor KBegin b (Xc bk pe p C) -> par = Some p ->
+  ST s k L [] M mc last (Xc bk pe p C) lv a -> lm_type mc = LLT_Unknown -> (el = true -> pe = true) ->
+  nth_error T k = Some tBegin -> toks_at (S k) (render b ++ [tEnd]) ->
+  nth_error T (S (S k + length (render b))) = Some (tFol el) ->
+  8 + need b <= f ->
+  let e := S k + length (render b) in
+  let lb := pexpected par 2 (S k) (S (length L)) b in
+  ST (finish_logical_line pass (RUN f C_structures s)) (S e) (L ++ [k] :: map ll_toks lb ++ [[e]]) []
+     (M ++ mkLM par (lvl 1) LLT_Unknown :: map meta_of lb ++ [mkLM par (lvl 1) LLT_Unknown])
+     (mkLM None (lvl 1) LLT_Unknown) (length L + S (length lb)) (Xe bk pe p C el) lv a.
+Proof.
+  intros IHb Hp H Hty Hel Hk Hb Hfo Hf e lb.
+  assert (Hkn : k < n) by (apply nth_error_Some; congruence).
+  destruct f as [|[|[|[|f]]]]; try lia.
+  assert (E0 : ending_ctx pass s = None) by (rewrite (ending_Ch _ _ _ _ _ _ _ _ _ _ _ _ _ _ H Hk); destruct pe, bk; reflexivity).
+  rewrite (run_S _ C_structures _ (ST_err _ _ _ _ _ _ _ _ _ _ H)).
+  unfold arm_structures. rewrite (ST_cur_tt _ _ _ _ _ _ _ _ _ _ _ H Hk), E0. cbn [tBegin sarm_of].
+  cbv delta [sa_begin stmt_block] beta.
+  change (ctx (CT_StatementBlock BK_Begin) true P_end (ParserGrammar.L 1)) with (cBlk KBegin).
+  destruct (open_block_G (S f) _ _ _ _ _ _ _ _ _ KBegin H Hkn) as [Eq H4]. cbn [sk_of] in Eq. rewrite Eq. clear Eq.
+  rewrite first_parent_Xc, plain_sum_Xc, Hty, <- Hp in H4.
+  pose proof (fun Hli => IHb (S f) _ _ _ _ _ _ _ _ (S (length L)) ltac:(lia) Hli H4 Hb) as IHb'.
+  destruct (IHb' ltac:(rewrite app_length; cbn [length]; lia)) as (mcb & lastb & flb & Tyb & H5).
+  rewrite plain_sum_Xc in H5. change (1 + 1)%Z with 2%Z in H5. fold lb in H5.
+  pose proof (pop_ctx_ST _ _ _ _ _ _ _ _ _ _ _ H5) as H6. fold e in H6.
+  match type of H6 with ST ?x _ _ _ _ _ _ _ _ _ => set (sB := x) in * end.
+  assert (He : nth_error T e = Some tEnd).
+  { specialize (Hb (length (render b)) tEnd). rewrite nth_error_app2, Nat.sub_diag in Hb by lia. exact (Hb eq_refl). }
+  assert (Hen : e < n) by (apply nth_error_Some; congruence).
+  cbv zeta. rewrite (ST_cur_tt _ _ _ _ _ _ _ _ _ _ _ H6 He). cbn [tEnd o_kw_end].
+  pose proof (next_token_ST _ _ _ _ _ _ _ _ _ _ H6 Hen) as H7. cbn [app] in H7.
+  assert (Ct7 : cur_tt pass (next_token pass sB) = Some (tFol el)) by (rewrite (ST_cur_tt _ _ _ _ _ _ _ _ _ _ _ H7 Hfo); destruct el; reflexivity).
+  assert (E7 : ending_ctx pass (next_token pass sB) = Some (if el then 1 else 2)).
+  { rewrite (ending_Ch _ _ _ _ _ _ _ _ _ _ _ _ _ _ H7 Hfo). destruct el; [rewrite (Hel eq_refl)|destruct pe]; reflexivity. }
+  assert (OD : o_dot (cur_tt pass (next_token pass sB)) = false) by (rewrite Ct7; destruct el; reflexivity). rewrite OD.
+  rewrite (take_until_stop _ _ (ST_err _ _ _ _ _ _ _ _ _ _ H7)).
+  2: { rewrite Ct7. discriminate. }
+  2: { right. unfold is_ending. rewrite E7. reflexivity. }
+  pose proof (finish_ST _ _ _ _ _ _ _ _ _ _ H7 ltac:(discriminate)) as H8.
+  rewrite first_parent_Xc, plain_sum_Xc, Tyb, <- Hp in H8.
+  unfold s_loop.
+  assert (E8 : ending_ctx pass (finish_logical_line pass (next_token pass sB)) = Some (if el then 1 else 2)).
+  { rewrite (ending_Ch _ _ _ _ _ _ _ _ _ _ _ _ _ _ H8 Hfo). destruct el; [rewrite (Hel eq_refl)|destruct pe]; reflexivity. }
+  rewrite (structures_stop _ _ _ _ _ _ _ _ _ _ _ _ _ H8 Hfo ltac:(destruct el; discriminate) E8).
+  pose proof (update_statuses_ST (if el then 1 else 2) _ _ _ _ _ _ _ _ _ _ H8) as H9.
+  assert (MX : mark_ended (if el then 1 else 2) (Xc bk pe p C) = Xe bk pe p C el) by (destruct el; reflexivity). rewrite MX in H9.
+  pose proof (finish_empty_ST _ _ _ _ _ _ _ _ _ H9) as H10. cbn [lm_parent lm_level] in H10.
+  assert (EL : length ((L ++ [[k]]) ++ map ll_toks lb) = length L + S (length lb)) by (rewrite !app_length, map_length; cbn [length]; lia).
+  rewrite EL in H10.
+  eapply ST_lists; [exact H10| |].
+  - repeat (progress (cbn [app]; rewrite <- ?app_assoc)). reflexivity.
+  - repeat (progress (cbn [app]; rewrite <- ?app_assoc)). reflexivity.
+Qed.
+
+(* the lines of a body without the `;` and without the empty line that follows *)
+Definition body_init (p : option (nat * nat)) (k li : nat) (c : tbody) : list lline :=
+  match c with TBlock b => mkLine LLT_Unknown (lvl 1) p [k] :: pexpected p 2 (k + 1) (li + 1) b | _ => [] end.
+Definition body_last (k : nat) (c : tbody) : list nat :=
+  match c with TSimple => [k] | TAssign => [k; k + 1; k + 2] | TBlock b => [k + 1 + length (render b)] end.
+Definition body_ty (c : tbody) : LogicalLineType := match c with TAssign => LLT_Assignment | _ => LLT_Unknown end.
+Lemma pexpected_body_eq p k li semi c :
+  pexpected_body p k li semi c
+  = body_init p k li c ++ [mkLine (body_ty c) (lvl 1) p (body_last k c ++ match semi with Some e => [e] | None => [] end);
+                           mkLine LLT_Unknown (lvl 1) None []].
+Proof. destruct c; cbn [pexpected_body body_init body_last body_ty app]; try reflexivity. Qed.
+
+Lemma body_run bk pe el p c f s k L M mc last C lv a :
+  (forall b, c = TBlock b -> IHfor KBegin b (Xc bk pe p C)) -> par = Some p ->
+  ST s k L [] M mc last (Xc bk pe p C) lv a -> lm_type mc = LLT_Unknown -> (el = true -> pe = true) ->
+  toks_at k (render_body c ++ [tFol el]) -> 8 + 10 * length (render_body c) <= f ->
+  ST (finish_logical_line pass (RUN f C_structures s)) (k + length (render_body c))
+     (L ++ map ll_toks (body_init par k (length L) c) ++ [body_last k c]) []
+     (M ++ map meta_of (body_init par k (length L) c) ++ [mkLM par (lvl 1) (body_ty c)])
+     (mkLM None (lvl 1) LLT_Unknown) (length L + length (body_init par k (length L) c)) (Xe bk pe p C el) lv a.
+Proof.
+  intros IH Hp H Hty Hel Ht Hf. destruct c as [| |b]; cbn [render_body length body_init body_last body_ty map] in *.
+  - pose proof (Ht 0 _ eq_refl) as Hk. rewrite Nat.add_0_r in Hk.
+    pose proof (Ht 1 _ eq_refl) as Hk1. replace (k + 1) with (S k) in * by lia.
+    pose proof (body_simple bk pe el p f _ _ _ _ _ _ _ _ _ H Hel Hk Hk1 ltac:(lia)) as H1.
+    rewrite Hty, <- Hp in H1. rewrite Nat.add_0_r. cbn [app]. exact H1.
+  - pose proof (Ht 0 _ eq_refl) as Hk. rewrite Nat.add_0_r in Hk.
+    pose proof (Ht 1 _ eq_refl) as Hk1. pose proof (Ht 2 _ eq_refl) as Hk2. pose proof (Ht 3 _ eq_refl) as Hk3.
+    replace (k + 1) with (S k) in * by lia. replace (k + 2) with (S (S k)) in * by lia. replace (k + 3) with (S (S (S k))) in * by lia.
+    pose proof (body_assign bk pe el p f _ _ _ _ _ _ _ _ _ H Hty Hel Hk Hk1 Hk2 Hk3 ltac:(lia)) as H1.
+    rewrite <- Hp in H1. rewrite Nat.add_0_r. cbn [app]. exact H1.
+  - rewrite app_length in Hf. cbn [length] in Hf.
+    assert (Eq : (tBegin :: render b ++ [tEnd]) ++ [tFol el] = [tBegin] ++ (render b ++ [tEnd]) ++ [tFol el])
+      by (cbn [app]; rewrite <- !app_assoc; reflexivity).
+    rewrite Eq in Ht.
+    pose proof (Ht 0 _ eq_refl) as Hk. rewrite Nat.add_0_r in Hk.
+    assert (Htb : toks_at (S k) (render b ++ [tEnd])).
+    { replace (S k) with (k + 1) by lia. eapply toks_at_prefix. apply (toks_at_shift k 1 [tBegin]); [exact Ht|reflexivity]. }
+    assert (Hts : toks_at (S (S k + length (render b))) [tFol el]).
+    { replace (S (S k + length (render b))) with (k + 1 + length (render b ++ [tEnd])) by (rewrite app_length; cbn [length]; lia).
+      apply (toks_at_shift (k + 1) _ (render b ++ [tEnd])); [|reflexivity]. apply (toks_at_shift k 1 [tBegin]); [exact Ht|reflexivity]. }
+    pose proof (toks_at_0 _ _ _ Hts eq_refl) as Hfo.
+    pose proof (body_block bk pe el p b f _ _ _ _ _ _ _ _ _ (IH b eq_refl) Hp H Hty Hel Hk Htb Hfo ltac:(unfold need; lia)) as H1.
+    cbv zeta in H1. replace (k + 1) with (S k) by lia. replace (length L + 1) with (S (length L)) by lia.
+    replace (k + S (length (render b ++ [tEnd]))) with (S (S k + length (render b))) by (rewrite app_length; cbn [length]; lia).
+    eapply ST_lists; [exact H1| |]; repeat (progress (cbn [app]; rewrite <- ?app_assoc)); reflexivity.
+Qed.
+End Frame.
+
+(* ================================================================== *)
+(* states of any line-stack shape: lines Ls, current_line stack cs (the current line need not be the last
+   line: after a child line context returns, the current line is the header line again) *)
+Notation RUN := (run pass []).
+Definition GS (s : pstate) (k : nat) (Ls : list (list nat)) (cs : list nat) (M : list lmeta) (last : nat)
+           (cx : list (pctx * bool)) (lv : levels) (at_ : list nat) : Prop :=
+  kst pass s = mkK Ls cs k last /\ metas pass s = M /\ length M = length Ls /\ restv s = (T, cx, [], false, lv, at_, None).
+Lemma ST_GS stk s k L c M mc last cx lv a :
+  ST stk s k L c M mc last cx lv a -> GS s k (L ++ [c]) (length L :: stk) (M ++ [mc]) last cx lv a.
+Proof. intros (K & Mt & Ml & R). split; [exact K|split; [exact Mt|split; [|exact R]]]. rewrite !app_length, Ml. reflexivity. Qed.
+Lemma GS_ST stk s k LL cs MM last cx lv a L c M mc :
+  GS s k LL cs MM last cx lv a -> LL = L ++ [c] -> MM = M ++ [mc] -> cs = length L :: stk -> ST stk s k L c M mc last cx lv a.
+Proof.
+  intros (K & Mt & Ml & R) -> -> ->. split; [exact K|split; [exact Mt|split; [|exact R]]].
+  rewrite !app_length in Ml. cbn [length] in Ml. lia.
+Qed.
+Lemma GS_lists s k Ls Ls' cs M M' last cx lv a :
+  GS s k Ls cs M last cx lv a -> Ls = Ls' -> M = M' -> GS s k Ls' cs M' last cx lv a.
+Proof. intros H -> ->. exact H. Qed.
+Lemma GS_err s k Ls cs M last cx lv a : GS s k Ls cs M last cx lv a -> has_err pass s = false.
+Proof. intros (_ & _ & _ & R). unfold restv in R. unfold has_err. injection R as _ _ _ _ _ _ E. rewrite E. reflexivity. Qed.
+Lemma GS_toks s k Ls cs M last cx lv a : GS s k Ls cs M last cx lv a -> ps_toks pass s = T.
+Proof. intros (_ & _ & _ & R). unfold restv in R. congruence. Qed.
+Lemma GS_ctx s k Ls cs M last cx lv a : GS s k Ls cs M last cx lv a -> ps_ctx pass s = cx.
+Proof. intros (_ & _ & _ & R). unfold restv in R. congruence. Qed.
+Lemma GS_pidx s k Ls cs M last cx lv a : GS s k Ls cs M last cx lv a -> pidx pass s = k.
+Proof. intros (K & _). unfold pidx. rewrite K. reflexivity. Qed.
+Lemma GS_cur_ref s k Ls h cs M last cx lv a : GS s k Ls (h :: cs) M last cx lv a -> cur_ref pass s = h.
+Proof. intros (K & _). unfold cur_ref. rewrite K. reflexivity. Qed.
+Lemma GS_cur_tt s k Ls cs M last cx lv a t : GS s k Ls cs M last cx lv a -> nth_error T k = Some t ->
+  cur_tt pass s = match t with RTT_Eof => None | _ => Some t end.
+Proof. intros H Ht. exact (cur_tt_G s k t (GS_toks _ _ _ _ _ _ _ _ _ H) (GS_pidx _ _ _ _ _ _ _ _ _ H) Ht). Qed.
+
+Lemma emit_KC_GS m s k Ls cs M last cx lv a : GS s k Ls cs M last cx lv a ->
+  GS (p_emit pass KC m s) k (Ls ++ [[]]) (length Ls :: cs) (M ++ [m]) (length Ls) cx lv a.
+Proof.
+  intros H. pose proof (GS_err _ _ _ _ _ _ _ _ _ H) as E. destruct H as (K & Mt & Ml & R). split; [|split; [|split]].
+  - rewrite (kst_p_emit pass KC m s E), K. reflexivity.
+  - rewrite (metas_p_emit _ _ _ E), Mt. reflexivity.
+  - rewrite !app_length, Ml. reflexivity.
+  - rewrite restv_p_emit. exact R.
+Qed.
+Lemma emit_Kc_GS s k Ls cs M last cx lv a : GS s k Ls cs M last cx lv a ->
+  GS (p_emit pass Kc lm0 s) k Ls (pop_keep cs) M last cx lv a.
+Proof.
+  intros H. pose proof (GS_err _ _ _ _ _ _ _ _ _ H) as E. destruct H as (K & Mt & Ml & R). split; [|split; [|split]].
+  - rewrite (kst_p_emit pass Kc lm0 s E), K. reflexivity.
+  - rewrite (metas_p_emit _ _ _ E), Mt. reflexivity.
+  - exact Ml.
+  - rewrite restv_p_emit. exact R.
+Qed.
+Lemma next_token_GS s k Ls h cs M last cx lv a : GS s k Ls (h :: cs) M last cx lv a -> k < n ->
+  GS (next_token pass s) (S k) (upd_nth h (fun l => l ++ [k]) Ls) (h :: cs) M last cx lv a.
+Proof.
+  intros H Hk.
+  destruct (next_token_G s k (GS_err _ _ _ _ _ _ _ _ _ H) (GS_toks _ _ _ _ _ _ _ _ _ H) (GS_pidx _ _ _ _ _ _ _ _ _ H) Hk) as (K1 & M1 & R1).
+  destruct H as (K & Mt & Ml & R). split; [|split; [|split]].
+  - rewrite K1, K. cbn [k_step k_pi k_lines k_cur k_last k_top hd]. rewrite (nth_error_seq0 _ _ Hk). reflexivity.
+  - rewrite M1. exact Mt.
+  - rewrite upd_nth_len. exact Ml.
+  - rewrite R1. exact R.
+Qed.
+
+(* take_separators_on_last_line in front of one `;`, any line-stack shape *)
+Lemma take_separators_GS lvl_ s k Ls h cs M last cx lv a t' :
+  GS s k Ls (h :: cs) M last cx lv a ->
+  nth_error T k = Some tSemi -> nth_error T (S k) = Some t' -> t' <> tSemi ->
+  nth last Ls [] <> [] ->
+  GS (take_separators_on_last_line pass lvl_ s) (S k) (upd_nth last (fun l => l ++ [k]) Ls) (h :: cs) M last cx lv a.
+Proof.
+  intros H Hk Hk1 Hne Hnl. pose proof (GS_err _ _ _ _ _ _ _ _ _ H) as E.
+  assert (Hkn : k < n) by (apply nth_error_Some; congruence).
+  unfold take_separators_on_last_line, guard. rewrite E, (GS_cur_tt _ _ _ _ _ _ _ _ _ _ H Hk). cbn [tSemi o_semicolon negb].
+  destruct H as (K & Mt & Ml & R).
+  set (s1 := p_emit pass KR lm0 s).
+  assert (K1 : kst pass s1 = mkK Ls (last :: h :: cs) k last) by (subst s1; rewrite (kst_p_emit pass KR lm0 s E), K; reflexivity).
+  assert (M1 : metas pass s1 = M) by (subst s1; rewrite (metas_p_emit _ _ _ E); exact Mt).
+  assert (R1 : restv s1 = (T, cx, [], false, lv, a, None)) by (subst s1; rewrite restv_p_emit; exact R).
+  assert (A1 : at_start pass s1 = false).
+  { unfold at_start, cur_toks, cur_ref. rewrite K1. cbn [k_top k_cur hd k_lines].
+    destruct (nth last Ls []); [contradiction|reflexivity]. }
+  rewrite A1.
+  set (s2 := push_ctx pass (mkCtx CT_Utility true P_never lvl_) s1).
+  assert (E1 : has_err pass s1 = false) by (unfold has_err; unfold restv in R1; injection R1 as _ _ _ _ _ _ X; rewrite X; reflexivity).
+  assert (F2 : kst pass s2 = kst pass s1 /\ metas pass s2 = metas pass s1 /\ restv s2 = (T, (mkCtx CT_Utility true P_never lvl_, false) :: cx, [], false, lv, a, None)).
+  { subst s2. unfold push_ctx, guard. rewrite E1. repeat split. unfold restv in *. cbn.
+    injection R1 as X1 X2 X3 X4 X5 X6 X7. rewrite X1, X2, X3, X4, X5, X6, X7. reflexivity. }
+  destruct F2 as (K2 & M2 & R2).
+  assert (T2 : ps_toks pass s2 = T) by (unfold restv in R2; congruence).
+  assert (P2 : pidx pass s2 = k) by (unfold pidx; rewrite K2, K1; reflexivity).
+  assert (E2 : has_err pass s2 = false) by (unfold has_err; unfold restv in R2; injection R2 as _ _ _ _ _ _ X; rewrite X; reflexivity).
+  destruct (next_token_G s2 k E2 T2 P2 Hkn) as (K3 & M3 & R3). set (s3 := next_token pass s2) in *.
+  assert (T3 : ps_toks pass s3 = T) by (unfold restv in R3, R2; congruence).
+  assert (P3 : pidx pass s3 = S k) by (unfold pidx; rewrite K3, k_pi_KT; fold (pidx pass s2); rewrite P2; reflexivity).
+  assert (TU : take_until pass (no_more_separators pass) s2 = s3).
+  { unfold take_until, simple_op_until, op_until.
+    assert (Hrem : remaining pass s2 + 2 = S (S (remaining pass s2))) by lia. rewrite Hrem.
+    cbn [op_until_go]. rewrite E2, (cur_tt_G s2 k tSemi T2 P2 Hk). cbn [tSemi].
+    unfold no_more_separators at 1. rewrite (cur_tt_G s2 k tSemi T2 P2 Hk). cbn [tSemi o_semicolon negb].
+    assert (IE : is_ending pass s2 = false).
+    { unfold is_ending, ending_ctx. assert (C2 : ps_ctx pass s2 = (mkCtx CT_Utility true P_never lvl_, false) :: cx) by (unfold restv in R2; congruence).
+      rewrite C2. reflexivity. }
+    rewrite IE. fold s3.
+    assert (E3 : has_err pass s3 = false).
+    { unfold has_err. unfold restv in R3, R2. assert (X : ps_err pass s3 = None) by congruence. rewrite X. reflexivity. }
+    rewrite E3. rewrite (cur_tt_G s3 (S k) t' T3 P3 Hk1).
+    destruct t' as [o| |k0|k0| | | | | | |]; try reflexivity;
+      unfold no_more_separators; rewrite (cur_tt_G s3 (S k) _ T3 P3 Hk1); try reflexivity.
+    destruct o; try reflexivity. exfalso. apply Hne. reflexivity. }
+  rewrite TU.
+  assert (E3 : has_err pass s3 = false).
+  { unfold has_err. unfold restv in R3, R2. assert (X : ps_err pass s3 = None) by congruence. rewrite X. reflexivity. }
+  set (s4 := pop_ctx pass s3).
+  assert (F4 : kst pass s4 = kst pass s3 /\ metas pass s4 = metas pass s3 /\ restv s4 = (T, cx, [], false, lv, a, None)).
+  { subst s4. unfold pop_ctx, guard. rewrite E3. repeat split. unfold restv in *. cbn.
+    rewrite R2 in R3. injection R3 as X1 X2 X3 X4 X5 X6 X7. rewrite X1, X2, X3, X4, X5, X6, X7. reflexivity. }
+  destruct F4 as (K4 & M4 & R4).
+  assert (E4 : has_err pass s4 = false) by (unfold has_err; unfold restv in R4; injection R4 as _ _ _ _ _ _ X; rewrite X; reflexivity).
+  split; [|split; [|split]].
+  - rewrite (kst_p_emit pass Kr lm0 s4 E4), K4, K3, K2, K1. cbn [k_step k_pi k_lines k_cur k_last k_top hd pop_keep].
+    rewrite (nth_error_seq0 _ _ Hkn). reflexivity.
+  - rewrite (metas_p_emit _ _ _ E4). cbn [appends]. rewrite M4, M3, M2. exact M1.
+  - rewrite upd_nth_len. exact Ml.
+  - rewrite restv_p_emit. exact R4.
+Qed.
+
+(* finish_logical_line on a non-empty current line, any line-stack shape *)
+Lemma finish_GS s k Ls h cs M last cx lv a : GS s k Ls (h :: cs) M last cx lv a -> nth h Ls [] <> [] ->
+  GS (finish_logical_line pass s) k (Ls ++ [[]]) (length Ls :: cs)
+     (upd_nth h (fun m => mkLM (first_parent cx) (clamp_u16 (plain_sum cx)) (lm_type m)) M ++ [mkLM None (clamp_u16 (plain_sum cx)) LLT_Unknown])
+     h cx lv a.
+Proof.
+  intros H Hc. pose proof (GS_err _ _ _ _ _ _ _ _ _ H) as E.
+  pose proof (GS_cur_ref _ _ _ _ _ _ _ _ _ _ H) as Rf.
+  assert (A : at_start pass s = false).
+  { unfold at_start, cur_toks. rewrite Rf. destruct H as (K & _). rewrite K. cbn [k_lines]. destruct (nth h Ls []); [contradiction|reflexivity]. }
+  unfold finish_logical_line, guard. rewrite E, A.
+  rewrite (portability_noop_G s (GS_toks _ _ _ _ _ _ _ _ _ H)).
+  replace (remaining pass s + 2) with (S (remaining pass s + 1)) by lia.
+  rewrite (inline_noop s _ (not_inline_G s k (GS_toks _ _ _ _ _ _ _ _ _ H) (GS_pidx _ _ _ _ _ _ _ _ _ H))).
+  assert (GL : get_context_level pass s = (first_parent cx, clamp_u16 (plain_sum cx))).
+  { unfold get_context_level. rewrite (GS_ctx _ _ _ _ _ _ _ _ _ H), ctx_level_go_spec. reflexivity. }
+  rewrite GL.
+  destruct H as (K & Mt & Ml & R).
+  assert (U : ps_cur_unfinished pass s = false /\ ps_unfinished pass s = []) by (unfold restv in R; split; congruence).
+  destruct U as [U1 U2]. rewrite U1, U2. cbn [fold_left].
+  set (s2 := set_unfinished pass (ps_unfinished pass (set_unfinished pass [] false s)) false (set_unfinished pass [] false s)).
+  assert (K2 : kst pass s2 = kst pass s) by reflexivity.
+  assert (M2 : metas pass s2 = metas pass s) by reflexivity.
+  assert (R2 : restv s2 = restv s) by (unfold restv in *; subst s2; cbn; injection R as R1 R2' R3 R4 R5 R6 R7; rewrite R3, R4; reflexivity).
+  assert (E2 : has_err pass s2 = false) by exact E.
+  assert (Rf2 : cur_ref pass s2 = h) by exact Rf.
+  rewrite Rf2.
+  set (s3 := p_set_meta pass h (fun m => mkLM (first_parent cx) (clamp_u16 (plain_sum cx)) (lm_type m)) s2).
+  assert (E3 : has_err pass s3 = false) by (subst s3; rewrite has_err_p_set_meta; exact E2).
+  split; [|split; [|split]].
+  - rewrite (kst_p_emit pass KL _ s3 E3). subst s3. rewrite kst_p_set_meta, K2, K. reflexivity.
+  - rewrite (metas_p_emit _ _ _ E3). cbn [appends]. subst s3. rewrite (metas_p_set_meta pass _ _ _ E2), M2, Mt. reflexivity.
+  - rewrite !app_length, upd_nth_len. cbn [length]. lia.
+  - rewrite restv_p_emit. subst s3. rewrite restv_p_set_meta, R2. exact R.
+Qed.
+
+(* list surgery *)
+Lemma upd_nth_mid_eq {A} (f : A -> A) i (l l1 : list A) x l2 : l = l1 ++ x :: l2 -> length l1 = i -> upd_nth i f l = l1 ++ f x :: l2.
+Proof. intros -> <-. induction l1 as [|y l1 IH]; cbn; [reflexivity|]. rewrite IH. reflexivity. Qed.
+Lemma nth_mid_eq {A} i (l l1 : list A) x l2 d : l = l1 ++ x :: l2 -> length l1 = i -> nth i l d = x.
+Proof. intros -> <-. rewrite app_nth2, Nat.sub_diag by lia. reflexivity. Qed.
+Lemma nth_upd_nth_ne i j (x : list nat) (l : list (list nat)) : nth i l [] <> [] -> nth i (upd_nth j (fun c => c ++ x) l) [] <> [].
+Proof.
+  revert i j. induction l as [|y l IH]; intros i j H; [destruct i; contradiction|].
+  destruct j as [|j]; destruct i as [|i]; cbn in *; try exact H.
+  - destruct y; [contradiction|discriminate].
+  - apply IH, H.
+Qed.
+Lemma body_last_ne k c : body_last k c <> []. Proof. destruct c; discriminate. Qed.
+
+(* ---------------- parse_block with a parent: the child lines of one body *)
+Lemma child_run stk bk pe el p c f s k LL h MM last0 C lv a li :
+  (forall b, c = TBlock b -> IHfor (h :: stk) (Some p) KBegin b (Xc bk pe p C)) ->
+  GS s k LL (h :: stk) MM last0 (((cStk bk), false) :: (cBlk bk, false) :: C) lv a -> li = length LL ->
+  (el = true -> pe = true) -> toks_at k (render_body c ++ [tFol el]) -> 10 + 10 * length (render_body c) <= f ->
+  GS (RUN f (C_block (cCh pe p)) s) (k + length (render_body c))
+     (LL ++ map ll_toks (body_init (Some p) k li c) ++ [body_last k c; []]) (h :: stk)
+     (MM ++ map meta_of (body_init (Some p) k li c) ++ [mkLM (Some p) (lvl 1) (body_ty c); mkLM None (lvl 1) LLT_Unknown])
+     (li + length (body_init (Some p) k li c)) (((cStk bk), negb el) :: (cBlk bk, false) :: C) lv a.
+Proof.
+  intros IH H -> Hel Ht Hf. destruct f as [|[|f]]; try lia.
+  rewrite (run_S _ (C_block _) _ (GS_err _ _ _ _ _ _ _ _ _ H)). unfold arm_block.
+  rewrite (run_S _ (C_with_ctx _ _) _ (GS_err _ _ _ _ _ _ _ _ _ H)). unfold arm_with_ctx.
+  cbn [cCh ctx c_level clevel_parent]. fold (cCh pe p).
+  pose proof (emit_KC_GS (mkLM (Some p) 0%N LLT_Unknown) _ _ _ _ _ _ _ _ _ H) as G1.
+  pose proof (GS_ST (h :: stk) _ _ _ _ _ _ _ _ _ LL [] MM _ G1 eq_refl eq_refl eq_refl) as S1.
+  pose proof (push_ctx_ST (h :: stk) (cCh pe p) _ _ _ _ _ _ _ _ _ _ S1) as S2.
+  pose proof (body_run (h :: stk) (Some p) bk pe el p c f _ _ _ _ _ _ _ _ _ IH eq_refl S2 eq_refl Hel Ht ltac:(lia)) as S3.
+  pose proof (pop_ctx_ST (h :: stk) _ _ _ _ _ _ _ _ _ _ _ S3) as S4.
+  pose proof (emit_Kc_GS _ _ _ _ _ _ _ _ _ (ST_GS _ _ _ _ _ _ _ _ _ _ _ S4)) as G5.
+  cbn [pop_keep] in G5.
+  eapply GS_lists; [exact G5| |]; repeat (progress (cbn [app]; rewrite <- ?app_assoc)); reflexivity.
+Qed.
+
+(* ... and the end of the statement that owns the child lines: the `;` goes to the last child line, the
+   header line is finished, the statement context (already ended) is left *)
+Lemma child_tail stk bk lvl_ f s e LL h M last C lv a t' :
+  GS s e LL (h :: stk) M last (((cStk bk), true) :: (cBlk bk, false) :: C) lv a ->
+  nth_error T e = Some tSemi -> nth_error T (S e) = Some t' -> t' <> tSemi -> t' <> RTT_Eof ->
+  nth last LL [] <> [] -> nth h LL [] <> [] ->
+  ST stk (take_separators_on_last_line pass (CL_Level 0%Z) (finish_logical_line pass (pop_ctx pass
+           (RUN (S f) C_structures (finish_logical_line pass (take_separators_on_last_line pass lvl_ s))))))
+     (S e) (upd_nth last (fun l => l ++ [e]) LL) []
+     (upd_nth h (fun m => mkLM (first_parent C) (lvl (1 + plain_sum C)) (lm_type m)) M)
+     (mkLM None (lvl (1 + plain_sum C)) LLT_Unknown) h ((cBlk bk, false) :: C) lv a.
+Proof.
+  intros H He He1 Hne HnE Hnl Hnh.
+  pose proof (take_separators_GS lvl_ _ _ _ _ _ _ _ _ _ _ t' H He He1 Hne Hnl) as G1.
+  pose proof (finish_GS _ _ _ _ _ _ _ _ _ _ G1 (nth_upd_nth_ne _ _ _ _ Hnh)) as G2.
+  rewrite (first_parent_St_blk bk), (plain_sum_St_blk bk) in G2.
+  pose proof (GS_ST stk _ _ _ _ _ _ _ _ _ _ _ _ _ G2 eq_refl eq_refl eq_refl) as S2.
+  rewrite (structures_stop stk f _ _ _ _ _ _ _ _ _ _ _ _ S2 He1 HnE (ending_top_ended stk _ _ _ _ _ _ _ _ _ _ _ S2)).
+  pose proof (update_statuses_ST stk 1 _ _ _ _ _ _ _ _ _ _ S2) as S3. cbn [mark_ended] in S3.
+  pose proof (pop_ctx_ST stk _ _ _ _ _ _ _ _ _ _ _ S3) as S4.
+  pose proof (finish_empty_ST stk _ _ _ _ _ _ _ _ _ S4) as S5. cbn [lm_parent lm_level] in S5.
+  rewrite (take_separators_noop stk _ _ _ _ _ _ _ _ _ _ _ t' S5 He1 Hne).
+  exact S5.
+Qed.
+
+Lemma child_final stk bk pe lvl_ p c f f1 s k LL h MM last0 C lv a t' li :
+  (forall b, c = TBlock b -> IHfor (h :: stk) (Some p) KBegin b (Xc bk pe p C)) ->
+  GS s k LL (h :: stk) MM last0 (((cStk bk), false) :: (cBlk bk, false) :: C) lv a -> li = length LL ->
+  nth h LL [] <> [] -> h < length LL ->
+  toks_at k (render_body c ++ [tSemi]) -> nth_error T (S (k + length (render_body c))) = Some t' -> t' <> tSemi -> t' <> RTT_Eof ->
+  10 + 10 * length (render_body c) <= f ->
+  let e := k + length (render_body c) in
+  ST stk (take_separators_on_last_line pass (CL_Level 0%Z) (finish_logical_line pass (pop_ctx pass
+           (RUN (S f1) C_structures (finish_logical_line pass (take_separators_on_last_line pass lvl_ (RUN f (C_block (cCh pe p)) s)))))))
+     (S e) (LL ++ map ll_toks (pexpected_body (Some p) k li (Some e) c)) []
+     (upd_nth h (fun m => mkLM (first_parent C) (lvl (1 + plain_sum C)) (lm_type m)) MM ++ map meta_of (pexpected_body (Some p) k li (Some e) c))
+     (mkLM None (lvl (1 + plain_sum C)) LLT_Unknown) h ((cBlk bk, false) :: C) lv a.
+Proof.
+  intros IH H Hli Hnh Hh Ht He1 Hne HnE Hf e.
+  pose proof (child_run stk bk pe false p c f _ _ _ _ _ _ _ _ _ li IH H Hli ltac:(discriminate) Ht Hf) as G1. fold e in G1. cbn [negb] in G1.
+  assert (He : nth_error T e = Some tSemi).
+  { specialize (Ht (length (render_body c)) tSemi). rewrite nth_error_app2, Nat.sub_diag in Ht by lia. exact (Ht eq_refl). }
+  assert (Ml : length MM = length LL) by (destruct H as (_ & _ & Ml & _); exact Ml).
+  set (BI := body_init (Some p) k li c) in *.
+  pose proof (child_tail stk bk lvl_ f1 _ _ _ _ _ _ _ _ _ t' G1 He He1 Hne HnE) as S1.
+  assert (N1 : nth (li + length BI) (LL ++ map ll_toks BI ++ [body_last k c; []]) [] = body_last k c).
+  { apply (nth_mid_eq _ _ (LL ++ map ll_toks BI) _ [[]]); [rewrite <- app_assoc; reflexivity|rewrite app_length, map_length; lia]. }
+  rewrite N1 in S1. specialize (S1 (body_last_ne _ _)).
+  rewrite app_nth1 in S1 by exact Hh. specialize (S1 Hnh).
+  rewrite (upd_nth_mid_eq _ _ _ (LL ++ map ll_toks BI) (body_last k c) [[]]) in S1
+    by (try (rewrite <- app_assoc; reflexivity); rewrite app_length, map_length; lia).
+  rewrite upd_nth_app_l in S1 by lia.
+  rewrite pexpected_body_eq. fold BI. rewrite !map_app. cbn [map ll_toks meta_of ll_parent ll_level ll_type].
+  eapply ST_lists; [exact S1| |]; repeat (progress (cbn [app]; rewrite <- ?app_assoc)); reflexivity.
+Qed.
+
+(* ================================================================== *)
+(* more primitives on states of any line-stack shape (for the arm lines of a case statement: the current
+   line of an arm is followed by the child lines of the previous arm) *)
+Lemma push_ctx_GS c0 s k Ls cs M last cx lv a :
+  GS s k Ls cs M last cx lv a -> GS (push_ctx pass c0 s) k Ls cs M last ((c0, false) :: cx) lv a.
+Proof.
+  intros H. pose proof (GS_err _ _ _ _ _ _ _ _ _ H) as E. destruct H as (K & Mt & Ml & R).
+  unfold push_ctx, guard. rewrite E. unfold GS, kst, metas, restv in *. cbn. repeat split; try assumption.
+  injection R as R1 R2 R3 R4 R5 R6 R7. rewrite R1, R2, R3, R4, R5, R6, R7. reflexivity.
+Qed.
+Lemma pop_ctx_GS s k Ls cs M last x cx lv a :
+  GS s k Ls cs M last (x :: cx) lv a -> GS (pop_ctx pass s) k Ls cs M last cx lv a.
+Proof.
+  intros H. pose proof (GS_err _ _ _ _ _ _ _ _ _ H) as E. destruct H as (K & Mt & Ml & R).
+  unfold pop_ctx, guard. rewrite E. unfold GS, kst, metas, restv in *. cbn. repeat split; try assumption.
+  injection R as R1 R2 R3 R4 R5 R6 R7. rewrite R1, R2, R3, R4, R5, R6, R7. reflexivity.
+Qed.
+Lemma update_statuses_GS j s k Ls cs M last cx lv a :
+  GS s k Ls cs M last cx lv a -> GS (update_statuses pass j s) k Ls cs M last (mark_ended j cx) lv a.
+Proof.
+  intros H. pose proof (GS_err _ _ _ _ _ _ _ _ _ H) as E. destruct H as (K & Mt & Ml & R).
+  unfold update_statuses, guard. rewrite E. unfold GS, kst, metas, restv in *. cbn. repeat split; try assumption.
+  injection R as R1 R2 R3 R4 R5 R6 R7. rewrite R1, R2, R3, R4, R5, R6, R7. reflexivity.
+Qed.
+Lemma set_line_type_GS ty s k Ls h cs M last cx lv a :
+  GS s k Ls (h :: cs) M last cx lv a ->
+  GS (set_line_type pass ty s) k Ls (h :: cs) (upd_nth h (fun m => mkLM (lm_parent m) (lm_level m) ty) M) last cx lv a.
+Proof.
+  intros H. pose proof (GS_err _ _ _ _ _ _ _ _ _ H) as E. pose proof (GS_cur_ref _ _ _ _ _ _ _ _ _ _ H) as Rf.
+  destruct H as (K & Mt & Ml & R). unfold set_line_type. rewrite Rf. split; [|split; [|split]].
+  - rewrite kst_p_set_meta. exact K.
+  - rewrite (metas_p_set_meta pass _ _ _ E), Mt. reflexivity.
+  - rewrite upd_nth_len. exact Ml.
+  - rewrite restv_p_set_meta. exact R.
+Qed.
+Lemma GS_at_start s k Ls h cs M last cx lv a : GS s k Ls (h :: cs) M last cx lv a ->
+  at_start pass s = match nth h Ls [] with [] => true | _ :: _ => false end.
+Proof. intros H. unfold at_start, cur_toks. rewrite (GS_cur_ref _ _ _ _ _ _ _ _ _ _ H). destruct H as (K & _). rewrite K. reflexivity. Qed.
+Lemma GS_cur_type s k Ls h cs M last cx lv a : GS s k Ls (h :: cs) M last cx lv a -> cur_type pass s = lm_type (nth h M lm0).
+Proof. intros H. unfold cur_type. rewrite (GS_cur_ref _ _ _ _ _ _ _ _ _ _ H). destruct H as (_ & Mt & _). rewrite Mt. reflexivity. Qed.
+Lemma finish_empty_GS s k Ls h cs M last cx lv a : GS s k Ls (h :: cs) M last cx lv a -> nth h Ls [] = [] ->
+  GS (finish_logical_line pass s) k Ls (h :: cs) (upd_nth h (fun m => mkLM (lm_parent m) (lm_level m) LLT_Unknown) M) last cx lv a.
+Proof.
+  intros H Hn. unfold finish_logical_line, guard. rewrite (GS_err _ _ _ _ _ _ _ _ _ H), (GS_at_start _ _ _ _ _ _ _ _ _ _ H), Hn.
+  apply set_line_type_GS, H.
+Qed.
+Lemma next_tt_GS s k Ls cs M last cx lv a t :
+  GS s k Ls cs M last cx lv a -> nth_error T (S k) = Some t -> t <> RTT_Eof -> next_tt pass s = Some t.
+Proof.
+  intros H Ht Hne. assert (Hk : S k < n) by (apply nth_error_Some; congruence).
+  unfold next_tt, idx_next. rewrite (GS_pidx _ _ _ _ _ _ _ _ _ H).
+  assert (Sk : exists r, skipn (S k) pass = S k :: r).
+  { rewrite skipn_seq. cbn [Nat.add]. destruct (length T - S k) eqn:Z; [lia|]. cbn [seq]. eauto. }
+  destruct Sk as [r Sk].
+  rewrite Sk. cbn [find]. unfold filt_at, tt_at. rewrite (GS_toks _ _ _ _ _ _ _ _ _ H), Ht.
+  pose proof (plain_nth _ _ Ht) as P.
+  assert (F : tok_filter t = true) by (destruct t; try reflexivity; try contradiction; exfalso; apply Hne; reflexivity).
+  rewrite F. cbn [bind]. exact Ht.
+Qed.
+Lemma take_separators_noop_G lvl_ (s : pstate) : o_semicolon (cur_tt pass s) = false -> take_separators_on_last_line pass lvl_ s = s.
+Proof. intros H. unfold take_separators_on_last_line, guard. destruct (has_err pass s); [reflexivity|]. rewrite H. reflexivity. Qed.
+Lemma caret_noop_G (s : pstate) : ps_toks pass s = T -> consolidate_current_caret_to_type pass s = s.
+Proof.
+  intros Tk. unfold consolidate_current_caret_to_type, upd_cur. destruct (idx0 pass s) as [i|]; [|reflexivity].
+  unfold tt_at. rewrite Tk. destruct (nth_error T i) as [t|] eqn:E; [|reflexivity]. pose proof (plain_nth _ _ E) as P.
+  destruct t as [o| | | | | | | | | |]; try reflexivity. destruct o; try reflexivity; contradiction.
+Qed.
+
+(* the context-ending test and the steps of parse_statement / parse_structures from the raw facts *)
+Definition cur_is (s : pstate) (t : RawTokenType) : Prop := cur_tt pass s = match t with RTT_Eof => None | _ => Some t end.
+Lemma GS_cur_is s k Ls cs M last cx lv a t : GS s k Ls cs M last cx lv a -> nth_error T k = Some t -> cur_is s t.
+Proof. exact (GS_cur_tt s k Ls cs M last cx lv a t). Qed.
+Lemma blk_pred_eval_G b (s : pstate) t : cur_is s t -> plain t -> eval_pred pass (c_pred (cBlk b)) s = is_term b t.
+Proof.
+  intros Ct P. unfold cur_is in Ct.
+  destruct b; cbn [cBlk ctx c_pred eval_pred]; unfold o_kw_end; rewrite Ct;
+    (destruct t as [o| |k0|k0| | | | | | |]; try contradiction; try reflexivity; destruct k0; try contradiction; reflexivity).
+Qed.
+Lemma ending_G_St bk0 (s : pstate) fl C t : ps_ctx pass s = (cStk bk0, false) :: (cBlk bk0, fl) :: C -> fl = false -> cur_is s t -> plain t ->
+  ending_ctx pass s = match t with RTT_Op OK_Semicolon => Some 1 | _ => if is_term bk0 t then Some 2 else None end.
+Proof.
+  intros Hc -> Ct P. unfold ending_ctx. rewrite Hc. cbn [ending_go cStk ctx c_pred c_opaque eval_pred].
+  rewrite (blk_pred_eval_G bk0 s t Ct P), cBlk_opaque. unfold cur_is in Ct. rewrite Ct.
+  destruct t as [o| |k0|k0| | | | | | |]; try contradiction; try reflexivity.
+  all: try (destruct o; try contradiction; reflexivity).
+  all: try (destruct k0; try contradiction; cbn [o_semicolon]; destruct (is_term bk0 _); reflexivity).
+Qed.
+Lemma is_ending_G_blk bk0 (s : pstate) C t : ps_ctx pass s = (cBlk bk0, false) :: C -> cur_is s t -> plain t ->
+  is_ending pass s = is_term bk0 t.
+Proof.
+  intros Hc Ct P. unfold is_ending, ending_ctx. rewrite Hc. cbn [ending_go].
+  rewrite (blk_pred_eval_G bk0 s t Ct P), cBlk_opaque. destruct (is_term bk0 t); reflexivity.
+Qed.
+Lemma ending_G_ended (s : pstate) x r : ps_ctx pass s = (x, true) :: r -> ending_ctx pass s = Some 1.
+Proof. intros Hc. unfold ending_ctx. rewrite Hc. reflexivity. Qed.
+Lemma statement_stop_G f (s : pstate) t x fl r j : has_err pass s = false -> cur_is s t -> t <> RTT_Eof ->
+  ps_ctx pass s = (x, fl) :: r -> ending_ctx pass s = Some j -> RUN (S f) C_statement s = update_statuses pass j s.
+Proof.
+  intros E Ct Hne Hc En. rewrite (run_S _ C_statement _ E). unfold arm_statement. unfold cur_is in Ct. rewrite Ct.
+  assert (Pr : statement_prelude pass s = (update_statuses pass j s, false)).
+  { unfold statement_prelude, last_ctx. rewrite Hc, En. reflexivity. }
+  destruct t; try (rewrite Pr; reflexivity). contradiction Hne; reflexivity.
+Qed.
+Lemma structures_stop_G f (s : pstate) t j : has_err pass s = false -> cur_is s t -> t <> RTT_Eof ->
+  ending_ctx pass s = Some j -> RUN (S f) C_structures s = update_statuses pass j s.
+Proof.
+  intros E Ct Hne En. rewrite (run_S _ C_structures _ E). unfold arm_structures. unfold cur_is in Ct. rewrite Ct, En.
+  destruct t; try reflexivity. contradiction Hne; reflexivity.
+Qed.
+
+(* ---------------- if Identifier then body ; *)
+Lemma GS_last_is_ended s k Ls cs M last x fl r lv a : GS s k Ls cs M last ((x, fl) :: r) lv a -> last_is_ended pass s = Some fl.
+Proof. intros H. unfold last_is_ended. rewrite (GS_ctx _ _ _ _ _ _ _ _ _ H). reflexivity. Qed.
+
+Lemma iter_if stk par bk c f s k Ls M mc last C lv a t' :
+  (forall b, c = TBlock b -> IHfor (length Ls :: stk) (Some (length Ls, S (S k))) KBegin b (Xc bk true (length Ls, S (S k)) C)) ->
+  ST stk s k Ls [] M mc last ((cBlk bk, false) :: C) lv a -> first_parent C = par ->
+  nth_error T k = Some tIf -> nth_error T (S k) = Some tI -> nth_error T (S (S k)) = Some tThen ->
+  toks_at (S (S (S k))) (render_body c ++ [tSemi]) ->
+  nth_error T (S (S (S (S k)) + length (render_body c))) = Some t' -> t' <> tSemi -> t' <> RTT_Eof ->
+  20 + 10 * length (render_body c) <= f ->
+  let e := S (S (S k)) + length (render_body c) in
+  let pb := pexpected_body (Some (length Ls, S (S k))) (S (S (S k))) (S (length Ls)) (Some e) c in
+  ST stk (take_separators_on_last_line pass (CL_Level 0%Z) (finish_logical_line pass (RUN f (C_with_ctx (cStk bk) A_structures) s)))
+     (S e) (Ls ++ [k; S k; S (S k)] :: map ll_toks pb) []
+     (M ++ mkLM par (lvl (1 + plain_sum C)) LLT_Unknown :: map meta_of pb)
+     (mkLM None (lvl (1 + plain_sum C)) LLT_Unknown) (length Ls) ((cBlk bk, false) :: C) lv a.
+Proof.
+  intros IHc H HC Hk Hk1 Hk2 Hb He1 Hne HnE Hf e pb.
+  assert (Hkn : k < n) by (apply nth_error_Some; congruence).
+  assert (Hkn1 : S k < n) by (apply nth_error_Some; congruence).
+  assert (Hkn2 : S (S k) < n) by (apply nth_error_Some; congruence).
+  assert (Ml : length M = length Ls) by (destruct H as (_ & _ & Ml & _); exact Ml).
+  destruct f as [|[|[|[|f]]]]; try lia.
+  rewrite (with_ctx_structures _ (cStk bk) s (ST_err stk _ _ _ _ _ _ _ _ _ _ H) eq_refl).
+  pose proof (finish_empty_ST stk _ _ _ _ _ _ _ _ _ H) as H0.
+  pose proof (push_ctx_ST stk (cStk bk) _ _ _ _ _ _ _ _ _ _ H0) as H1.
+  rewrite (run_S _ C_structures _ (ST_err stk _ _ _ _ _ _ _ _ _ _ H1)).
+  unfold arm_structures. rewrite (ST_cur_tt stk _ _ _ _ _ _ _ _ _ _ _ H1 Hk). cbn [tIf].
+  rewrite (ending_St_SB stk bk _ _ _ _ _ _ _ _ _ _ _ H1 Hk). cbn [tIf is_term sarm_of].
+  unfold sa_if, s_loop.
+  rewrite (run_S _ C_if_then _ (ST_err stk _ _ _ _ _ _ _ _ _ _ H1)). unfold arm_if_then.
+  change (ctx CT_Utility true P_then (ParserGrammar.L 0)) with (cUtp HThen).
+  pose proof (next_token_ST stk _ _ _ _ _ _ _ _ _ _ H1 Hkn) as H2. cbn [app] in H2.
+  pose proof (line_section_run stk HThen (S f) _ _ _ _ _ _ _ _ _ _ H2 Hk1 Hk2 ltac:(lia)) as H3. cbn [app] in H3.
+  match type of H3 with ST _ ?x _ _ _ _ _ _ _ _ _ => set (s3 := x) in * end.
+  cbv zeta.
+  assert (CK : cur_kk pass s3 = Some KK_Then) by (unfold cur_kk; rewrite (ST_cur_tt stk _ _ _ _ _ _ _ _ _ _ _ H3 Hk2); reflexivity).
+  rewrite CK.
+  assert (LP : line_parent_of_current pass s3 = Some (length Ls, S (S k))).
+  { unfold line_parent_of_current. rewrite (ST_cur_index stk _ _ _ _ _ _ _ _ _ _ H3 Hkn2), (ST_cur_ref stk _ _ _ _ _ _ _ _ _ _ H3). reflexivity. }
+  rewrite LP.
+  pose proof (next_token_ST stk _ _ _ _ _ _ _ _ _ _ H3 Hkn2) as H4. cbn [app] in H4.
+  change (ctx (CT_Statement SK_Normal) false P_else (CL_Parent (length Ls, S (S k)) 1%N)) with (cCh true (length Ls, S (S k))).
+  pose proof (ST_GS stk _ _ _ _ _ _ _ _ _ _ H4) as G4.
+  set (s4 := next_token pass s3) in *.
+  (* no else branch: the statement context has ended at the `;` *)
+  assert (Ht0 : toks_at (S (S (S k))) (render_body c ++ [tFol false])) by exact Hb.
+  pose proof (child_run stk bk true false _ c (S f) _ _ _ _ _ _ _ _ _ (S (length Ls)) IHc G4
+                ltac:(rewrite app_length; cbn [length]; lia) ltac:(discriminate) Ht0 ltac:(lia)) as G5.
+  rewrite (GS_last_is_ended _ _ _ _ _ _ _ _ _ _ _ G5). cbn [negb].
+  pose proof (child_final stk bk true (CL_Parent (length Ls, S (S k)) 1%N) _ c (S f) (S f) _ _ _ _ _ _ _ _ _ t' (S (length Ls)) IHc G4
+                ltac:(rewrite app_length; cbn [length]; lia)) as CF.
+  rewrite nth_app_last in CF. specialize (CF ltac:(discriminate) ltac:(rewrite app_length; cbn [length]; lia) Hb He1 Hne HnE ltac:(lia)).
+  cbv zeta in CF. fold e in CF. fold pb in CF.
+  rewrite <- Ml, upd_nth_app_last in CF. cbn [lm_type] in CF. rewrite HC in CF.
+  rewrite Ml in CF.
+  eapply ST_lists; [exact CF| |]; repeat (progress (cbn [app]; rewrite <- ?app_assoc)); reflexivity.
+Qed.
+
+(* ---------------- while Identifier do body ; *)
+Lemma iter_while stk par bk c f s k Ls M mc last C lv a t' :
+  (forall b, c = TBlock b -> IHfor (length Ls :: stk) (Some (length Ls, S (S k))) KBegin b (Xc bk false (length Ls, S (S k)) C)) ->
+  ST stk s k Ls [] M mc last ((cBlk bk, false) :: C) lv a -> first_parent C = par ->
+  nth_error T k = Some tWhile -> nth_error T (S k) = Some tI -> nth_error T (S (S k)) = Some tDo ->
+  toks_at (S (S (S k))) (render_body c ++ [tSemi]) ->
+  nth_error T (S (S (S (S k)) + length (render_body c))) = Some t' -> t' <> tSemi -> t' <> RTT_Eof ->
+  20 + 10 * length (render_body c) <= f ->
+  let e := S (S (S k)) + length (render_body c) in
+  let pb := pexpected_body (Some (length Ls, S (S k))) (S (S (S k))) (S (length Ls)) (Some e) c in
+  ST stk (take_separators_on_last_line pass (CL_Level 0%Z) (finish_logical_line pass (RUN f (C_with_ctx (cStk bk) A_structures) s)))
+     (S e) (Ls ++ [k; S k; S (S k)] :: map ll_toks pb) []
+     (M ++ mkLM par (lvl (1 + plain_sum C)) LLT_Unknown :: map meta_of pb)
+     (mkLM None (lvl (1 + plain_sum C)) LLT_Unknown) (length Ls) ((cBlk bk, false) :: C) lv a.
+Proof.
+  intros IHc H HC Hk Hk1 Hk2 Hb He1 Hne HnE Hf e pb.
+  assert (Hkn : k < n) by (apply nth_error_Some; congruence).
+  assert (Hkn1 : S k < n) by (apply nth_error_Some; congruence).
+  assert (Hkn2 : S (S k) < n) by (apply nth_error_Some; congruence).
+  assert (Ml : length M = length Ls) by (destruct H as (_ & _ & Ml & _); exact Ml).
+  destruct f as [|[|[|[|f]]]]; try lia.
+  rewrite (with_ctx_structures _ (cStk bk) s (ST_err stk _ _ _ _ _ _ _ _ _ _ H) eq_refl).
+  pose proof (finish_empty_ST stk _ _ _ _ _ _ _ _ _ H) as H0.
+  pose proof (push_ctx_ST stk (cStk bk) _ _ _ _ _ _ _ _ _ _ H0) as H1.
+  rewrite (run_S _ C_structures _ (ST_err stk _ _ _ _ _ _ _ _ _ _ H1)).
+  unfold arm_structures. rewrite (ST_cur_tt stk _ _ _ _ _ _ _ _ _ _ _ H1 Hk). cbn [tWhile].
+  rewrite (ending_St_SB stk bk _ _ _ _ _ _ _ _ _ _ _ H1 Hk). cbn [tWhile is_term sarm_of].
+  unfold sa_do, s_loop.
+  rewrite (run_S _ (C_do false) _ (ST_err stk _ _ _ _ _ _ _ _ _ _ H1)). unfold arm_do.
+  change (ctx CT_Utility true P_kw_do (ParserGrammar.L 0)) with (cUtp HDo).
+  pose proof (next_token_ST stk _ _ _ _ _ _ _ _ _ _ H1 Hkn) as H2. cbn [app] in H2.
+  pose proof (set_line_type_ST stk LLT_Unknown _ _ _ _ _ _ _ _ _ _ H2) as H2'. cbn [lm_parent lm_level] in H2'.
+  pose proof (line_section_run stk HDo (S f) _ _ _ _ _ _ _ _ _ _ H2' Hk1 Hk2 ltac:(lia)) as H3. cbn [app] in H3.
+  match type of H3 with ST _ ?x _ _ _ _ _ _ _ _ _ => set (s3 := x) in * end.
+  cbv zeta.
+  assert (CK : cur_kk pass s3 = Some KK_Do) by (unfold cur_kk; rewrite (ST_cur_tt stk _ _ _ _ _ _ _ _ _ _ _ H3 Hk2); reflexivity).
+  rewrite CK.
+  assert (LP : line_parent_of_current pass s3 = Some (length Ls, S (S k))).
+  { unfold line_parent_of_current. rewrite (ST_cur_index stk _ _ _ _ _ _ _ _ _ _ H3 Hkn2), (ST_cur_ref stk _ _ _ _ _ _ _ _ _ _ H3). reflexivity. }
+  rewrite LP.
+  pose proof (next_token_ST stk _ _ _ _ _ _ _ _ _ _ H3 Hkn2) as H4. cbn [app] in H4.
+  change (ctx (CT_Statement SK_Normal) false P_never (CL_Parent (length Ls, S (S k)) 1%N)) with (cCh false (length Ls, S (S k))).
+  pose proof (ST_GS stk _ _ _ _ _ _ _ _ _ _ H4) as G4.
+  set (s4 := next_token pass s3) in *.
+  pose proof (child_final stk bk false (CL_Parent (length Ls, S (S k)) 1%N) _ c (S f) (S f) _ _ _ _ _ _ _ _ _ t' (S (length Ls)) IHc G4
+                ltac:(rewrite app_length; cbn [length]; lia)) as CF.
+  rewrite nth_app_last in CF. specialize (CF ltac:(discriminate) ltac:(rewrite app_length; cbn [length]; lia) Hb He1 Hne HnE ltac:(lia)).
+  cbv zeta in CF. fold e in CF. fold pb in CF.
+  rewrite <- Ml, upd_nth_app_last in CF. cbn [lm_type] in CF. rewrite HC in CF.
+  rewrite Ml in CF.
+  eapply ST_lists; [exact CF| |]; repeat (progress (cbn [app]; rewrite <- ?app_assoc)); reflexivity.
+Qed.
+
+(* ---------------- if Identifier then body else body ; *)
+Lemma iter_ifelse stk par bk c1 c2 f s k Ls M mc last C lv a t' el :
+  el = S (S (S k)) + length (render_body c1) ->
+  (forall b, c1 = TBlock b -> IHfor (length Ls :: stk) (Some (length Ls, S (S k))) KBegin b (Xc bk true (length Ls, S (S k)) C)) ->
+  (forall b, c2 = TBlock b -> IHfor (length Ls :: stk) (Some (length Ls, el)) KBegin b (Xc bk false (length Ls, el) C)) ->
+  ST stk s k Ls [] M mc last ((cBlk bk, false) :: C) lv a -> first_parent C = par ->
+  nth_error T k = Some tIf -> nth_error T (S k) = Some tI -> nth_error T (S (S k)) = Some tThen ->
+  toks_at (S (S (S k))) (render_body c1 ++ [tElse]) -> toks_at (S el) (render_body c2 ++ [tSemi]) ->
+  nth_error T (S (S el + length (render_body c2))) = Some t' -> t' <> tSemi -> t' <> RTT_Eof ->
+  40 + 10 * length (render_body c1) + 10 * length (render_body c2) <= f ->
+  let e := S el + length (render_body c2) in
+  let l1 := pexpected_body (Some (length Ls, S (S k))) (S (S (S k))) (S (length Ls)) None c1 in
+  let l2 := pexpected_body (Some (length Ls, el)) (S el) (S (length Ls) + length l1) (Some e) c2 in
+  ST stk (take_separators_on_last_line pass (CL_Level 0%Z) (finish_logical_line pass (RUN f (C_with_ctx (cStk bk) A_structures) s)))
+     (S e) (Ls ++ [k; S k; S (S k); el] :: map ll_toks l1 ++ map ll_toks l2) []
+     (M ++ mkLM par (lvl (1 + plain_sum C)) LLT_Unknown :: map meta_of l1 ++ map meta_of l2)
+     (mkLM None (lvl (1 + plain_sum C)) LLT_Unknown) (length Ls) ((cBlk bk, false) :: C) lv a.
+Proof.
+  intros Hel IH1 IH2 H HC Hk Hk1 Hk2 Hb1 Hb2 He1 Hne HnE Hf e l1 l2.
+  assert (Hkn : k < n) by (apply nth_error_Some; congruence).
+  assert (Hkn1 : S k < n) by (apply nth_error_Some; congruence).
+  assert (Hkn2 : S (S k) < n) by (apply nth_error_Some; congruence).
+  assert (Ml : length M = length Ls) by (destruct H as (_ & _ & Ml & _); exact Ml).
+  assert (Hte : nth_error T el = Some tElse).
+  { specialize (Hb1 (length (render_body c1)) tElse). rewrite nth_error_app2, Nat.sub_diag in Hb1 by lia. rewrite Hel. exact (Hb1 eq_refl). }
+  assert (Heln : el < n) by (apply nth_error_Some; congruence).
+  destruct f as [|[|[|[|f]]]]; try lia.
+  rewrite (with_ctx_structures _ (cStk bk) s (ST_err stk _ _ _ _ _ _ _ _ _ _ H) eq_refl).
+  pose proof (finish_empty_ST stk _ _ _ _ _ _ _ _ _ H) as H0.
+  pose proof (push_ctx_ST stk (cStk bk) _ _ _ _ _ _ _ _ _ _ H0) as H1.
+  rewrite (run_S _ C_structures _ (ST_err stk _ _ _ _ _ _ _ _ _ _ H1)).
+  unfold arm_structures. rewrite (ST_cur_tt stk _ _ _ _ _ _ _ _ _ _ _ H1 Hk). cbn [tIf].
+  rewrite (ending_St_SB stk bk _ _ _ _ _ _ _ _ _ _ _ H1 Hk). cbn [tIf is_term sarm_of].
+  unfold sa_if, s_loop.
+  rewrite (run_S _ C_if_then _ (ST_err stk _ _ _ _ _ _ _ _ _ _ H1)). unfold arm_if_then.
+  change (ctx CT_Utility true P_then (ParserGrammar.L 0)) with (cUtp HThen).
+  pose proof (next_token_ST stk _ _ _ _ _ _ _ _ _ _ H1 Hkn) as H2. cbn [app] in H2.
+  pose proof (line_section_run stk HThen (S f) _ _ _ _ _ _ _ _ _ _ H2 Hk1 Hk2 ltac:(lia)) as H3. cbn [app] in H3.
+  match type of H3 with ST _ ?x _ _ _ _ _ _ _ _ _ => set (s3 := x) in * end.
+  cbv zeta.
+  assert (CK : cur_kk pass s3 = Some KK_Then) by (unfold cur_kk; rewrite (ST_cur_tt stk _ _ _ _ _ _ _ _ _ _ _ H3 Hk2); reflexivity).
+  rewrite CK.
+  assert (LP : line_parent_of_current pass s3 = Some (length Ls, S (S k))).
+  { unfold line_parent_of_current. rewrite (ST_cur_index stk _ _ _ _ _ _ _ _ _ _ H3 Hkn2), (ST_cur_ref stk _ _ _ _ _ _ _ _ _ _ H3). reflexivity. }
+  rewrite LP.
+  pose proof (next_token_ST stk _ _ _ _ _ _ _ _ _ _ H3 Hkn2) as H4. cbn [app] in H4.
+  change (ctx (CT_Statement SK_Normal) false P_else (CL_Parent (length Ls, S (S k)) 1%N)) with (cCh true (length Ls, S (S k))).
+  pose proof (ST_GS stk _ _ _ _ _ _ _ _ _ _ H4) as G4.
+  set (s4 := next_token pass s3) in *.
+  (* the then branch stops in front of `else`; the statement context has not ended *)
+  assert (Ht1 : toks_at (S (S (S k))) (render_body c1 ++ [tFol true])) by exact Hb1.
+  pose proof (child_run stk bk true true _ c1 (S f) _ _ _ _ _ _ _ _ _ (S (length Ls)) IH1 G4
+                ltac:(rewrite app_length; cbn [length]; lia) ltac:(reflexivity) Ht1 ltac:(lia)) as G5.
+  rewrite <- Hel in G5. cbn [negb] in G5.
+  match type of G5 with GS ?x _ _ _ _ _ _ _ _ => set (s5 := x) in * end.
+  rewrite (GS_last_is_ended _ _ _ _ _ _ _ _ _ _ _ G5).
+  assert (CK5 : cur_kk pass s5 = Some KK_Else) by (unfold cur_kk; rewrite (GS_cur_tt _ _ _ _ _ _ _ _ _ _ G5 Hte); reflexivity).
+  rewrite CK5.
+  assert (LP5 : line_parent_of_current pass s5 = Some (length Ls, el)).
+  { unfold line_parent_of_current. rewrite (cur_index_G s5 el (GS_pidx _ _ _ _ _ _ _ _ _ G5) Heln), (GS_cur_ref _ _ _ _ _ _ _ _ _ _ G5). reflexivity. }
+  rewrite LP5.
+  pose proof (next_token_GS _ _ _ _ _ _ _ _ _ _ G5 Heln) as G6.
+  change (ctx (CT_Statement SK_Normal) false P_never (CL_Parent (length Ls, el) 1%N)) with (cCh false (length Ls, el)).
+  set (BI1 := body_init (Some (length Ls, S (S k))) (S (S (S k))) (S (length Ls)) c1) in *.
+  rewrite (upd_nth_mid_eq _ _ _ Ls [k; S k; S (S k)] (map ll_toks BI1 ++ [body_last (S (S (S k))) c1; []])) in G6
+    by (try reflexivity; rewrite <- app_assoc; reflexivity).
+  cbn [app] in G6.
+  assert (L1 : map ll_toks l1 = map ll_toks BI1 ++ [body_last (S (S (S k))) c1; []]).
+  { unfold l1. rewrite pexpected_body_eq. fold BI1. rewrite map_app, app_nil_r. reflexivity. }
+  assert (M1 : map meta_of l1 = map meta_of BI1 ++ [mkLM (Some (length Ls, S (S k))) (lvl 1) (body_ty c1); mkLM None (lvl 1) LLT_Unknown]).
+  { unfold l1. rewrite pexpected_body_eq. fold BI1. rewrite map_app. reflexivity. }
+  rewrite <- L1 in G6. rewrite <- M1 in G6.
+  set (s6 := next_token pass s5) in *.
+  pose proof (child_final stk bk false (CL_Parent (length Ls, el) 1%N) _ c2 (S f) (S f) _ _ _ _ _ _ _ _ _ t' (S (length Ls) + length l1) IH2 G6
+                ltac:(rewrite app_length; cbn [length]; rewrite map_length; lia)) as CF.
+  rewrite (nth_mid_eq _ _ Ls [k; S k; S (S k); el] (map ll_toks l1)) in CF by reflexivity.
+  specialize (CF ltac:(discriminate) ltac:(rewrite app_length; cbn [length]; lia) Hb2 He1 Hne HnE ltac:(lia)).
+  cbv zeta in CF. fold e in CF. fold l2 in CF.
+  rewrite upd_nth_app_l in CF by (rewrite app_length; cbn [length]; lia).
+  rewrite <- Ml, upd_nth_app_last in CF. cbn [lm_type] in CF. rewrite HC in CF.
+  rewrite Ml in CF.
+  eapply ST_lists; [exact CF| |]; repeat (progress (cbn [app]; rewrite <- ?app_assoc)); reflexivity.
+Qed.
+
+(* ---------------- one arm of a case statement: `Identifier : body ;` *)
+Lemma iter_arm stk par bkc bk c f s k L0 PL M0 mcur MP last C lv a t' :
+  sk_of bkc = SK_Case ->
+  (forall b, c = TBlock b ->
+     IHfor (length (L0 ++ [k; S k] :: PL) :: stk) (Some (length L0, S k)) KBegin b
+           (Xc bkc false (length L0, S k) ((cStk bk, false) :: (cBlk bk, false) :: C))) ->
+  GS s k (L0 ++ [] :: PL) (length L0 :: stk) (M0 ++ mcur :: MP) last ((cBlk bkc, false) :: (cStk bk, false) :: (cBlk bk, false) :: C) lv a ->
+  length M0 = length L0 -> first_parent C = par ->
+  nth_error T k = Some tI -> nth_error T (S k) = Some tColon -> toks_at (S (S k)) (render_body c ++ [tSemi]) ->
+  nth_error T (S (S (S k) + length (render_body c))) = Some t' -> t' <> tSemi -> t' <> RTT_Eof ->
+  30 + 10 * length (render_body c) <= f ->
+  let e := S (S k) + length (render_body c) in
+  let h := length (L0 ++ [k; S k] :: PL) in
+  let pb := pexpected_body (Some (length L0, S k)) (S (S k)) (S h) (Some e) c in
+  exists last',
+  GS (take_separators_on_last_line pass (CL_Level 0%Z) (finish_logical_line pass (RUN f (C_with_ctx (cStk bkc) A_structures) s)))
+     (S e) ((L0 ++ [k; S k] :: PL) ++ [] :: map ll_toks pb) (h :: stk)
+     ((M0 ++ mkLM par (lvl (1 + plain_sum C + 1)) LLT_CaseArm :: MP) ++ mkLM None (lvl (1 + plain_sum C + 1)) LLT_Unknown :: map meta_of pb)
+     last' ((cBlk bkc, false) :: (cStk bk, false) :: (cBlk bk, false) :: C) lv a.
+Proof.
+  intros Hskc IHc H Hm0 HC Hk Hk1 Hb He1 Hne HnE Hf e h pb.
+  set (C0 := (cStk bk, false) :: (cBlk bk, false) :: C) in *.
+  assert (Hkn : k < n) by (apply nth_error_Some; congruence).
+  assert (Hkn1 : S k < n) by (apply nth_error_Some; congruence).
+  assert (Pk : plain tI) by exact I. assert (Pc : plain tColon) by exact I.
+  assert (Pt' : plain t') by exact (plain_nth _ _ He1).
+  assert (He : nth_error T e = Some tSemi).
+  { specialize (Hb (length (render_body c)) tSemi). rewrite nth_error_app2, Nat.sub_diag in Hb by lia. exact (Hb eq_refl). }
+  destruct f as [|[|[|[|[|[|f]]]]]]; try lia.
+  rewrite (with_ctx_structures _ (cStk bkc) s (GS_err _ _ _ _ _ _ _ _ _ H) eq_refl).
+  (* the empty current line; the statement context of the arm *)
+  pose proof (finish_empty_GS _ _ _ _ _ _ _ _ _ _ H (nth_mid_eq _ _ L0 [] PL [] eq_refl eq_refl)) as G0.
+  rewrite (upd_nth_mid_eq _ _ _ M0 mcur MP eq_refl Hm0) in G0.
+  pose proof (push_ctx_GS (cStk bkc) _ _ _ _ _ _ _ _ _ G0) as G1.
+  match type of G1 with GS ?x _ _ _ _ _ _ _ _ => set (s1 := x) in * end.
+  assert (En1 : ending_ctx pass s1 = None).
+  { rewrite (ending_G_St bkc s1 false _ tI (GS_ctx _ _ _ _ _ _ _ _ _ G1) eq_refl (GS_cur_is _ _ _ _ _ _ _ _ _ _ G1 Hk) Pk). destruct bkc; reflexivity. }
+  rewrite (run_S _ C_structures _ (GS_err _ _ _ _ _ _ _ _ _ G1)).
+  unfold arm_structures. rewrite (GS_cur_tt _ _ _ _ _ _ _ _ _ _ G1 Hk), En1. cbn [tI sarm_of].
+  unfold sa_other, s_other, s_loop.
+  (* parse_statement: the label of the arm; the line becomes a CaseArm line *)
+  rewrite (run_S _ C_statement _ (GS_err _ _ _ _ _ _ _ _ _ G1)).
+  unfold arm_statement. rewrite (GS_cur_tt _ _ _ _ _ _ _ _ _ _ G1 Hk). cbn [tI].
+  assert (As1 : at_start pass s1 = true).
+  { rewrite (GS_at_start _ _ _ _ _ _ _ _ _ _ G1), (nth_mid_eq _ _ L0 [] PL [] eq_refl eq_refl). reflexivity. }
+  assert (Pr1 : statement_prelude pass s1 = (set_line_type pass LLT_CaseArm s1, true)).
+  { unfold statement_prelude, last_ctx. rewrite (GS_ctx _ _ _ _ _ _ _ _ _ G1), En1, As1. cbn [cStk ctx c_type]. rewrite Hskc. reflexivity. }
+  rewrite Pr1. cbn [negb starm_of tI].
+  pose proof (set_line_type_GS LLT_CaseArm _ _ _ _ _ _ _ _ _ _ G1) as G1'.
+  rewrite (upd_nth_mid_eq _ _ _ M0 _ MP eq_refl Hm0) in G1'. cbn [lm_parent lm_level] in G1'.
+  match type of G1' with GS ?x _ _ _ _ _ _ _ _ => set (s1' := x) in * end.
+  unfold st_label_cand, label_or_other.
+  assert (Lx : is_label_ctx_excluded pass s1' = true).
+  { unfold is_label_ctx_excluded, last_ctype, last_ctx. rewrite (GS_ctx _ _ _ _ _ _ _ _ _ G1'). cbn [option_map cStk ctx c_type]. rewrite Hskc. reflexivity. }
+  rewrite Lx, andb_false_r. unfold t_other, t_loop.
+  pose proof (next_token_GS _ _ _ _ _ _ _ _ _ _ G1' Hkn) as G2.
+  rewrite (upd_nth_mid_eq _ _ _ L0 [] PL eq_refl eq_refl) in G2. cbn [app] in G2.
+  match type of G2 with GS ?x _ _ _ _ _ _ _ _ => set (s2 := x) in * end.
+  (* the colon: the arm line is finished, then the body is a child line context *)
+  assert (En2 : ending_ctx pass s2 = None).
+  { rewrite (ending_G_St bkc s2 false _ tColon (GS_ctx _ _ _ _ _ _ _ _ _ G2) eq_refl (GS_cur_is _ _ _ _ _ _ _ _ _ _ G2 Hk1) Pc). destruct bkc; reflexivity. }
+  rewrite (run_S _ C_statement _ (GS_err _ _ _ _ _ _ _ _ _ G2)).
+  unfold arm_statement. rewrite (GS_cur_tt _ _ _ _ _ _ _ _ _ _ G2 Hk1). cbn [tColon].
+  assert (Pr2 : statement_prelude pass s2 = (s2, true)).
+  { unfold statement_prelude, last_ctx. rewrite (GS_ctx _ _ _ _ _ _ _ _ _ G2), En2.
+    rewrite (GS_at_start _ _ _ _ _ _ _ _ _ _ G2), (nth_mid_eq _ _ L0 [k] PL [] eq_refl eq_refl). reflexivity. }
+  rewrite Pr2. cbn [negb starm_of tColon]. unfold st_colon.
+  assert (LP : line_parent_of_current pass s2 = Some (length L0, S k)).
+  { unfold line_parent_of_current. rewrite (cur_index_G s2 (S k) (GS_pidx _ _ _ _ _ _ _ _ _ G2) Hkn1), (GS_cur_ref _ _ _ _ _ _ _ _ _ _ G2). reflexivity. }
+  rewrite LP.
+  pose proof (next_token_GS _ _ _ _ _ _ _ _ _ _ G2 Hkn1) as G3.
+  rewrite (upd_nth_mid_eq _ _ _ L0 [k] PL eq_refl eq_refl) in G3. cbn [app] in G3.
+  match type of G3 with GS ?x _ _ _ _ _ _ _ _ => set (s3 := x) in * end.
+  assert (Ct3 : cur_type pass s3 = LLT_CaseArm).
+  { rewrite (GS_cur_type _ _ _ _ _ _ _ _ _ _ G3), (nth_mid_eq _ _ M0 _ MP lm0 eq_refl Hm0). reflexivity. }
+  rewrite Ct3. cbn [llt_is LogicalLineType_eqb LogicalLineType_idx Nat.eqb].
+  pose proof (finish_GS _ _ _ _ _ _ _ _ _ _ G3) as G4.
+  rewrite (nth_mid_eq _ _ L0 [k; S k] PL [] eq_refl eq_refl) in G4. specialize (G4 ltac:(discriminate)).
+  rewrite (upd_nth_mid_eq _ _ _ M0 _ MP eq_refl Hm0) in G4. cbn [lm_type] in G4.
+  fold h in G4.
+  assert (FP : first_parent ((cStk bkc, false) :: (cBlk bkc, false) :: C0) = par).
+  { unfold C0. rewrite (first_parent_St_blk bkc), (first_parent_St_blk bk). exact HC. }
+  assert (PS : clamp_u16 (plain_sum ((cStk bkc, false) :: (cBlk bkc, false) :: C0)) = lvl (1 + plain_sum C + 1)).
+  { unfold C0. rewrite (plain_sum_St_blk bkc), (plain_sum_St_blk bk). unfold lvl. f_equal. lia. }
+  rewrite FP, PS in G4.
+  match type of G4 with GS ?x _ _ _ _ _ _ _ _ => set (s4 := x) in * end.
+  (* the body *)
+  rewrite (run_S _ (C_case_arm _) _ (GS_err _ _ _ _ _ _ _ _ _ G4)). unfold arm_case_arm.
+  change (ctx (CT_Statement SK_Normal) false P_never (CL_Parent (length L0, S k) 1%N)) with (cCh false (length L0, S k)).
+  assert (Ht0 : toks_at (S (S k)) (render_body c ++ [tFol false])) by exact Hb.
+  pose proof (child_run stk bkc false false (length L0, S k) c (S f) _ _ _ _ _ _ _ _ _ (S h) IHc G4
+                ltac:(rewrite app_length; cbn [length]; unfold h; lia) ltac:(discriminate) Ht0 ltac:(lia)) as G5.
+  fold e in G5. cbn [negb] in G5.
+  set (BI := body_init (Some (length L0, S k)) (S (S k)) (S h) c) in *.
+  match type of G5 with GS ?x _ _ _ _ _ _ _ _ => set (s5 := x) in * end.
+  pose proof (take_separators_GS (CL_Parent (length L0, S k) 1%N) _ _ _ _ _ _ _ _ _ _ t' G5 He He1 Hne) as G6.
+  rewrite (nth_mid_eq _ _ (((L0 ++ [k; S k] :: PL) ++ [[]]) ++ map ll_toks BI) (body_last (S (S k)) c) [[]] []) in G6
+    by (try (rewrite <- !app_assoc; reflexivity); unfold h; rewrite !app_length, map_length; cbn [length]; lia).
+  specialize (G6 (body_last_ne _ _)).
+  rewrite (upd_nth_mid_eq _ _ _ (((L0 ++ [k; S k] :: PL) ++ [[]]) ++ map ll_toks BI) (body_last (S (S k)) c) [[]]) in G6
+    by (try (rewrite <- !app_assoc; reflexivity); unfold h; rewrite !app_length, map_length; cbn [length]; lia).
+  match type of G6 with GS ?x _ _ _ _ _ _ _ _ => set (s6 := x) in * end.
+  pose proof (finish_empty_GS _ _ _ _ _ _ _ _ _ _ G6) as G7.
+  rewrite (nth_mid_eq _ _ (L0 ++ [k; S k] :: PL) [] (map ll_toks BI ++ [body_last (S (S k)) c ++ [e]; []]) []) in G7
+    by (try reflexivity; rewrite <- !app_assoc; reflexivity).
+  specialize (G7 eq_refl).
+  assert (Hlen : length ((M0 ++ mkLM par (lvl (1 + plain_sum C + 1)) LLT_CaseArm :: MP)) = h).
+  { destruct H as (_ & _ & Ml & _). unfold h. rewrite !app_length in *. cbn [length] in *. lia. }
+  rewrite (upd_nth_mid_eq _ h _ (M0 ++ mkLM par (lvl (1 + plain_sum C + 1)) LLT_CaseArm :: MP) (mkLM None (lvl (1 + plain_sum C + 1)) LLT_Unknown)
+             (map meta_of BI ++ [mkLM (Some (length L0, S k)) (lvl 1) (body_ty c); mkLM None (lvl 1) LLT_Unknown])) in G7
+    by (try exact Hlen; repeat (progress (cbn [app]; rewrite <- ?app_assoc)); reflexivity).
+  cbn [lm_parent lm_level] in G7.
+  match type of G7 with GS ?x _ _ _ _ _ _ _ _ => set (s7 := x) in * end.
+  rewrite (caret_noop_G s7 (GS_toks _ _ _ _ _ _ _ _ _ G7)). unfold t_loop.
+  (* back in parse_statement and parse_structures: the statement context has ended *)
+  rewrite (statement_stop_G _ s7 t' _ _ _ 1 (GS_err _ _ _ _ _ _ _ _ _ G7) (GS_cur_is _ _ _ _ _ _ _ _ _ _ G7 He1) HnE
+             (GS_ctx _ _ _ _ _ _ _ _ _ G7) (ending_G_ended s7 _ _ (GS_ctx _ _ _ _ _ _ _ _ _ G7))).
+  pose proof (update_statuses_GS 1 _ _ _ _ _ _ _ _ _ G7) as G8. cbn [mark_ended] in G8.
+  match type of G8 with GS ?x _ _ _ _ _ _ _ _ => set (s8 := x) in * end.
+  rewrite (structures_stop_G _ s8 t' 1 (GS_err _ _ _ _ _ _ _ _ _ G8) (GS_cur_is _ _ _ _ _ _ _ _ _ _ G8 He1) HnE
+             (ending_G_ended s8 _ _ (GS_ctx _ _ _ _ _ _ _ _ _ G8))).
+  pose proof (update_statuses_GS 1 _ _ _ _ _ _ _ _ _ G8) as G9. cbn [mark_ended] in G9.
+  pose proof (pop_ctx_GS _ _ _ _ _ _ _ _ _ _ G9) as G10.
+  pose proof (finish_empty_GS _ _ _ _ _ _ _ _ _ _ G10) as G11.
+  rewrite (nth_mid_eq _ _ (L0 ++ [k; S k] :: PL) [] (map ll_toks BI ++ [body_last (S (S k)) c ++ [e]; []]) []) in G11
+    by (try reflexivity; rewrite <- !app_assoc; reflexivity).
+  specialize (G11 eq_refl).
+  rewrite (upd_nth_mid_eq _ h _ (M0 ++ mkLM par (lvl (1 + plain_sum C + 1)) LLT_CaseArm :: MP) (mkLM None (lvl (1 + plain_sum C + 1)) LLT_Unknown)
+             (map meta_of BI ++ [mkLM (Some (length L0, S k)) (lvl 1) (body_ty c); mkLM None (lvl 1) LLT_Unknown])) in G11
+    by (try exact Hlen; repeat (progress (cbn [app]; rewrite <- ?app_assoc)); reflexivity).
+  cbn [lm_parent lm_level] in G11.
+  match type of G11 with GS ?x _ _ _ _ _ _ _ _ => set (s11 := x) in * end.
+  rewrite (take_separators_noop_G _ s11).
+  2: { rewrite (GS_cur_tt _ _ _ _ _ _ _ _ _ _ G11 He1). destruct t' as [o| | | | | | | | | |]; try reflexivity. destruct o; try reflexivity. exfalso. apply Hne. reflexivity. }
+  eexists. eapply GS_lists; [exact G11| |].
+  - unfold pb. rewrite pexpected_body_eq. fold BI. rewrite map_app. cbn [map ll_toks].
+    repeat (progress (cbn [app]; rewrite <- ?app_assoc)). reflexivity.
+  - unfold pb. rewrite pexpected_body_eq. fold BI.
+    rewrite map_app. cbn [map meta_of ll_parent ll_level ll_type].
+    repeat (progress (cbn [app]; rewrite <- ?app_assoc)). reflexivity.
+Qed.
+
+(* no type declaration context below (parse_structures asks for it at `case`) *)
+Definition notd (C : list (pctx * bool)) : Prop :=
+  existsb (fun c => match c_type (fst c) with CT_TypeDeclaration => true | _ => false end) C = false.
+Lemma notd_St_blk bk f1 f2 C : notd C -> notd ((cStk bk, f1) :: (cBlk bk, f2) :: C).
+Proof. unfold notd. intros H. destruct bk; cbn; exact H. Qed.
+Lemma notd_Xc bk pe p C : notd C -> notd (Xc bk pe p C).
+Proof. unfold notd, Xc. intros H. destruct bk; cbn; exact H. Qed.
+
+Lemma head_tok_ne_eof bk r t' : nth_error (render r ++ [tTerm bk]) 0 = Some t' -> t' <> RTT_Eof.
+Proof. destruct r; cbn; intros [= <-]; try discriminate. destruct bk; discriminate. Qed.
+
+Ltac fix_li r H4 :=
+  match type of H4 with context [pexpected _ _ _ ?li1 r] =>
+    match goal with |- context [pexpected _ _ _ ?li2 r] => replace li1 with li2 in H4 by len_tac end end.
+
+(* ---------------- the arms of a case statement: the statement-list loop of the case block *)
+Definition need_arms (a : arms) : nat := 10 + 10 * length (render_arms a).
+Definition Qbody (c : tbody) : Prop :=
+  forall b, c = TBlock b -> forall stk par bk C, sk_of bk <> SK_Case -> notd C -> first_parent C = par -> IHfor stk par bk b C.
+Definition Parms (a : arms) : Prop :=
+  forall stk par bkc bk C f s k L0 PL M0 mcur MP last lv a0 pend,
+  sk_of bkc = SK_Case -> notd C -> first_parent C = par ->
+  GS s k (L0 ++ [] :: PL) (length L0 :: stk) (M0 ++ mcur :: MP) last ((cBlk bkc, false) :: (cStk bk, false) :: (cBlk bk, false) :: C) lv a0 ->
+  length M0 = length L0 -> PL = map ll_toks (pend (length L0 + 1)) -> MP = map meta_of (pend (length L0 + 1)) ->
+  toks_at k (render_arms a ++ [tTerm bkc]) -> need_arms a <= f ->
+  let d := (1 + plain_sum C)%Z in
+  let j := arms_li k (length L0) a pend in
+  exists mc' last' fl, lm_type mc' = LLT_Unknown /\
+    GS (RUN f (slc bkc) s) (k + length (render_arms a))
+       (L0 ++ map ll_toks (arms_pre par d k (length L0) a pend) ++ [] :: map ll_toks (arms_pend k (length L0) a pend (j + 1)))
+       (j :: stk)
+       (M0 ++ map meta_of (arms_pre par d k (length L0) a pend) ++ mc' :: map meta_of (arms_pend k (length L0) a pend (j + 1)))
+       last' ((cBlk bkc, fl) :: (cStk bk, false) :: (cBlk bk, false) :: C) lv a0.
+Lemma GS_cs s k Ls cs cs' M last cx lv a : GS s k Ls cs M last cx lv a -> cs = cs' -> GS s k Ls cs' M last cx lv a.
+Proof. intros H <-. exact H. Qed.
+
+Lemma arms_nil_run : Parms ANil.
+Proof.
+  intros stk par bkc bk C f s k L0 PL M0 mcur MP last lv a0 pend Hskc Hnd HC H Hm0 HPL HMP Ht Hf d j.
+  unfold need_arms in Hf. cbn [render_arms length app] in *. subst j. cbn [arms_li arms_pre arms_pend map app].
+  pose proof (toks_at_0 _ _ _ Ht eq_refl) as Hk.
+  assert (Pt : plain (tTerm bkc)) by exact (plain_nth _ _ Hk).
+  assert (HnE : tTerm bkc <> RTT_Eof) by (destruct bkc; discriminate).
+  destruct f as [|[|[|f]]]; try lia.
+  unfold slc. rewrite (stmt_list_unfold _ _ _ _ _ (GS_err _ _ _ _ _ _ _ _ _ H)). cbv zeta.
+  change (ctx (CT_Statement (sk_of bkc)) false P_semicolon (ParserGrammar.L 0)) with (cStk bkc).
+  rewrite (with_ctx_structures _ (cStk bkc) s (GS_err _ _ _ _ _ _ _ _ _ H) eq_refl).
+  pose proof (finish_empty_GS _ _ _ _ _ _ _ _ _ _ H (nth_mid_eq _ _ L0 [] PL [] eq_refl eq_refl)) as G0.
+  rewrite (upd_nth_mid_eq _ _ _ M0 mcur MP eq_refl Hm0) in G0.
+  pose proof (push_ctx_GS (cStk bkc) _ _ _ _ _ _ _ _ _ G0) as G1.
+  match type of G1 with GS ?x _ _ _ _ _ _ _ _ => set (s1 := x) in * end.
+  assert (En1 : ending_ctx pass s1 = Some 2).
+  { rewrite (ending_G_St bkc s1 false _ (tTerm bkc) (GS_ctx _ _ _ _ _ _ _ _ _ G1) eq_refl (GS_cur_is _ _ _ _ _ _ _ _ _ _ G1 Hk) Pt). destruct bkc; reflexivity. }
+  rewrite (structures_stop_G _ s1 (tTerm bkc) 2 (GS_err _ _ _ _ _ _ _ _ _ G1) (GS_cur_is _ _ _ _ _ _ _ _ _ _ G1 Hk) HnE En1).
+  pose proof (update_statuses_GS 2 _ _ _ _ _ _ _ _ _ G1) as G2. cbn [mark_ended] in G2.
+  pose proof (pop_ctx_GS _ _ _ _ _ _ _ _ _ _ G2) as G3.
+  pose proof (finish_empty_GS _ _ _ _ _ _ _ _ _ _ G3 (nth_mid_eq _ _ L0 [] PL [] eq_refl eq_refl)) as G4.
+  rewrite (upd_nth_mid_eq _ _ _ M0 _ MP eq_refl Hm0) in G4. cbn [lm_parent lm_level] in G4.
+  match type of G4 with GS ?x _ _ _ _ _ _ _ _ => set (s4 := x) in * end.
+  rewrite (take_separators_noop_G _ s4) by (rewrite (GS_cur_tt _ _ _ _ _ _ _ _ _ _ G4 Hk); destruct bkc; reflexivity).
+  assert (IE : is_ending pass s4 = true) by (unfold is_ending, ending_ctx; rewrite (GS_ctx _ _ _ _ _ _ _ _ _ G4); reflexivity).
+  rewrite IE. cbn [orb]. rewrite Nat.add_0_r.
+  eexists _, _, _. split.
+  2: { eapply GS_lists; [exact G4| rewrite HPL; reflexivity | rewrite HMP; reflexivity]. }
+  reflexivity.
+Qed.
+
+Lemma arms_cons_run c a' : Qbody c -> Parms a' -> Parms (ACons c a').
+Proof.
+  intros Qc IHa stk par bkc bk C f s k L0 PL M0 mcur MP last lv a0 pend Hskc Hnd HC H Hm0 HPL HMP Ht Hf d j.
+  unfold need_arms in Hf. cbn [render_arms length] in Hf. rewrite !app_length in Hf. cbn [length] in Hf.
+  cbn [render_arms] in Ht.
+  assert (Eq : (tI :: tColon :: render_body c ++ tSemi :: render_arms a') ++ [tTerm bkc]
+               = [tI; tColon] ++ (render_body c ++ [tSemi]) ++ (render_arms a' ++ [tTerm bkc])).
+  { cbn [app]. rewrite <- !app_assoc. reflexivity. }
+  rewrite Eq in Ht.
+  pose proof (Ht 0 _ eq_refl) as Hk. rewrite Nat.add_0_r in Hk.
+  pose proof (Ht 1 _ eq_refl) as Hk1.
+  assert (Ht2 : toks_at (k + 2) ((render_body c ++ [tSemi]) ++ render_arms a' ++ [tTerm bkc])).
+  { apply (toks_at_shift k 2 [tI; tColon]); [exact Ht|reflexivity]. }
+  assert (Hb : toks_at (k + 2) (render_body c ++ [tSemi])) by (eapply toks_at_prefix; exact Ht2).
+  set (e := k + 2 + length (render_body c)).
+  assert (Htr : toks_at (e + 1) (render_arms a' ++ [tTerm bkc])).
+  { replace (e + 1) with (k + 2 + length (render_body c ++ [tSemi])) by (rewrite app_length; cbn [length]; unfold e; lia).
+    apply (toks_at_shift _ _ (render_body c ++ [tSemi])); [exact Ht2|reflexivity]. }
+  assert (Ht' : exists t', nth_error (render_arms a' ++ [tTerm bkc]) 0 = Some t' /\ t' <> tSemi /\ t' <> RTT_Eof
+                /\ ((a' = ANil /\ t' = tTerm bkc) \/ (a' <> ANil /\ t' = tI))).
+  { destruct a' as [|c2 a2]; cbn; eexists; (split; [reflexivity|]); repeat split; try discriminate; try (destruct bkc; discriminate).
+    - left. split; reflexivity.
+    - right. split; [discriminate|reflexivity]. }
+  destruct Ht' as (t' & H0 & N1 & NE & Hcase).
+  pose proof (toks_at_0 _ _ _ Htr H0) as He1.
+  destruct f as [|f]; [lia|].
+  unfold slc. rewrite (stmt_list_unfold _ _ _ _ _ (GS_err _ _ _ _ _ _ _ _ _ H)). cbv zeta.
+  change (ctx (CT_Statement (sk_of bkc)) false P_semicolon (ParserGrammar.L 0)) with (cStk bkc).
+  change (ParserGrammar.L 0) with (CL_Level 0%Z).
+  assert (Hnd0 : notd ((cStk bk, false) :: (cBlk bk, false) :: C)) by (apply notd_St_blk, Hnd).
+  replace (k + 1) with (S k) in Hk1 by lia. replace (k + 2) with (S (S k)) in Hb by lia.
+  replace (e + 1) with (S (S (S k) + length (render_body c))) in He1 by (unfold e; lia).
+  destruct (iter_arm stk par bkc bk c f _ _ _ _ _ _ _ _ _ _ _ t' Hskc
+              (fun b Hb0 => Qc b Hb0 _ _ KBegin _ ltac:(discriminate) (notd_Xc _ _ _ _ Hnd0) eq_refl)
+              H Hm0 HC Hk Hk1 Hb He1 N1 NE ltac:(lia)) as (last1 & G).
+  cbv zeta in G.
+  (* the forms of Fragment.arms_lines *)
+  replace (S (S (S k) + length (render_body c))) with (e + 1) in G by (unfold e; lia).
+  replace (S (S k) + length (render_body c)) with e in G by (unfold e; lia).
+  replace (S (S k)) with (k + 2) in G by lia. replace (S k) with (k + 1) in G by lia.
+  replace (S (length (L0 ++ [k; k + 1] :: PL))) with (length (L0 ++ [k; k + 1] :: PL) + 1) in G by lia.
+  set (h := length (L0 ++ [k; k + 1] :: PL)) in *.
+  assert (Hh : h = length L0 + 1 + length (pend (length L0 + 1))).
+  { unfold h. rewrite HPL, app_length. cbn [length]. rewrite map_length. lia. }
+  match type of G with GS ?x _ _ _ _ _ _ _ _ => set (s3 := x) in * end.
+  assert (IE : is_ending pass s3 = is_term bkc t').
+  { apply (is_ending_G_blk bkc s3 _ t' (GS_ctx _ _ _ _ _ _ _ _ _ G)); [|exact (plain_nth _ _ He1)].
+    apply (GS_cur_is _ _ _ _ _ _ _ _ _ _ G). replace (e + 1) with (S (S (S k) + length (render_body c))) by (unfold e; lia). exact He1. }
+  rewrite IE.
+  subst j d. cbn [arms_li arms_pre arms_pend]. cbv zeta. fold e. rewrite <- Hh.
+  destruct Hcase as [[Ea Et]|[Ea Et]].
+  - (* the last arm *)
+    subst a' t'. rewrite is_term_term. cbn [orb arms_li arms_pre arms_pend render_arms].
+    replace (k + length (tI :: tColon :: render_body c ++ [tSemi])) with (e + 1) by (cbn [length]; rewrite app_length; cbn [length]; unfold e; lia).
+    eexists _, _, _. split; [|eapply GS_lists; [exact G| |]]; cycle 1.
+    + rewrite HPL. cbn [map ll_toks]. rewrite map_app. cbn [map]. repeat (progress (cbn [app]; rewrite <- ?app_assoc)). reflexivity.
+    + rewrite HMP. cbn [map meta_of ll_parent ll_level ll_type]. rewrite map_app. cbn [map].
+      replace (1 + plain_sum C + 1)%Z with (1 + plain_sum C + 1)%Z by reflexivity.
+      repeat (progress (cbn [app]; rewrite <- ?app_assoc)). reflexivity.
+    + reflexivity.
+  - (* another arm follows *)
+    subst t'. assert (X : is_term bkc tI = false) by (destruct bkc; reflexivity). rewrite X. clear X.
+    assert (Ct : cur_tt pass s3 = Some tI).
+    { refine (GS_cur_tt _ _ _ _ _ _ _ _ _ tI G _). replace (e + 1) with (S (S (S k) + length (render_body c))) by (unfold e; lia). exact He1. }
+    rewrite Ct. cbn [orb].
+    set (pend' := fun i : nat => pexpected_body (Some (length L0, k + 1)) (k + 2) i (Some e) c).
+    assert (Hlen : length (M0 ++ mkLM par (lvl (1 + plain_sum C + 1)) LLT_CaseArm :: MP) = length (L0 ++ [k; k + 1] :: PL)).
+    { rewrite !app_length. cbn [length]. rewrite HPL, HMP, !map_length. lia. }
+    destruct (IHa stk par bkc bk C f s3 (e + 1) (L0 ++ [k; k + 1] :: PL) (map ll_toks (pend' (h + 1)))
+                (M0 ++ mkLM par (lvl (1 + plain_sum C + 1)) LLT_CaseArm :: MP) _ (map meta_of (pend' (h + 1))) _ _ _ pend'
+                Hskc Hnd HC G Hlen eq_refl eq_refl Htr ltac:(unfold need_arms; lia))
+      as (mc' & last' & fl & Ty & G').
+    cbv zeta in G'. fold h in G'.
+    exists mc', last', fl. split; [exact Ty|].
+    cbn [render_arms].
+    replace (k + length (tI :: tColon :: render_body c ++ tSemi :: render_arms a')) with (e + 1 + length (render_arms a'))
+      by (cbn [length]; rewrite app_length; cbn [length]; unfold e; lia).
+    eapply GS_lists; [exact G'| |].
+    + rewrite HPL. cbn [map ll_toks]. rewrite !map_app. repeat (progress (cbn [app]; rewrite <- ?app_assoc)). reflexivity.
+    + rewrite HMP. cbn [map meta_of ll_parent ll_level ll_type]. rewrite !map_app. repeat (progress (cbn [app]; rewrite <- ?app_assoc)). reflexivity.
+Qed.
+(* ---------------- case Identifier of arms end ; *)
+Lemma in_type_decl_false stk bk s k L c M mc last C lv a :
+  ST stk s k L c M mc last ((cStk bk, false) :: (cBlk bk, false) :: C) lv a -> notd C -> is_in_type_decl pass s = false.
+Proof. intros H Hnd. unfold is_in_type_decl, any_ctype. rewrite (ST_ctx stk _ _ _ _ _ _ _ _ _ _ H). exact (notd_St_blk bk false false C Hnd). Qed.
+
+Lemma iter_case stk par bk a f s k Ls M mc last C lv a0 t' :
+  Parms a -> notd C ->
+  ST stk s k Ls [] M mc last ((cBlk bk, false) :: C) lv a0 -> first_parent C = par ->
+  nth_error T k = Some tCase -> nth_error T (S k) = Some tI -> nth_error T (S (S k)) = Some tOf ->
+  toks_at (S (S (S k))) (render_arms a ++ [tEnd]) ->
+  nth_error T (S (S (S (S k)) + length (render_arms a))) = Some tSemi ->
+  nth_error T (S (S (S (S (S k)) + length (render_arms a)))) = Some t' -> t' <> tSemi ->
+  20 + need_arms a <= f ->
+  let d := (1 + plain_sum C)%Z in
+  let ke := S (S (S k)) + length (render_arms a) in
+  let pre := arms_pre par d (S (S (S k))) (length Ls + 1) a (fun _ => []) in
+  let j := arms_li (S (S (S k))) (length Ls + 1) a (fun _ => []) in
+  let pl := arms_pend (S (S (S k))) (length Ls + 1) a (fun _ => []) (j + 1) in
+  exists mc3 last3, lm_type mc3 = LLT_Unknown /\
+  ST stk (take_separators_on_last_line pass (CL_Level 0%Z) (finish_logical_line pass (RUN f (C_with_ctx (cStk bk) A_structures) s)))
+     (S (S ke)) (Ls ++ [k; S k; S (S k)] :: map ll_toks pre ++ [ke; S ke] :: map ll_toks pl) []
+     (M ++ mkLM par (lvl d) LLT_CaseHeader :: map meta_of pre ++ mkLM par (lvl d) LLT_Unknown :: map meta_of pl)
+     mc3 last3 ((cBlk bk, false) :: C) lv a0.
+Proof.
+  intros IHa Hnd H HC Hk Hk1 Hk2 Hb Hse Hse1 Hne Hf d ke pre j pl.
+  assert (Hkn : k < n) by (apply nth_error_Some; congruence).
+  assert (Hkn2 : S (S k) < n) by (apply nth_error_Some; congruence).
+  assert (Ml : length M = length Ls) by (destruct H as (_ & _ & Ml & _); exact Ml).
+  assert (Hke : nth_error T ke = Some tEnd).
+  { specialize (Hb (length (render_arms a)) tEnd). rewrite nth_error_app2, Nat.sub_diag in Hb by lia. exact (Hb eq_refl). }
+  assert (Hken : ke < n) by (apply nth_error_Some; congruence).
+  destruct f as [|[|[|[|[|[|f]]]]]]; try lia.
+  rewrite (with_ctx_structures _ (cStk bk) s (ST_err stk _ _ _ _ _ _ _ _ _ _ H) eq_refl).
+  pose proof (finish_empty_ST stk _ _ _ _ _ _ _ _ _ H) as H0.
+  pose proof (push_ctx_ST stk (cStk bk) _ _ _ _ _ _ _ _ _ _ H0) as H1.
+  rewrite (run_S _ C_structures _ (ST_err stk _ _ _ _ _ _ _ _ _ _ H1)).
+  unfold arm_structures. rewrite (ST_cur_tt stk _ _ _ _ _ _ _ _ _ _ _ H1 Hk). cbn [tCase].
+  rewrite (ending_St_SB stk bk _ _ _ _ _ _ _ _ _ _ _ H1 Hk). cbn [tCase is_term sarm_of].
+  unfold sa_case. rewrite (in_type_decl_false stk bk _ _ _ _ _ _ _ _ _ _ H1 Hnd). unfold s_loop.
+  rewrite (run_S _ C_case_statement _ (ST_err stk _ _ _ _ _ _ _ _ _ _ H1)). unfold arm_case_statement.
+  change (ctx CT_Utility true P_of (ParserGrammar.L 0)) with (cUtp HOf).
+  pose proof (next_token_ST stk _ _ _ _ _ _ _ _ _ _ H1 Hkn) as H2. cbn [app] in H2.
+  pose proof (set_line_type_ST stk LLT_CaseHeader _ _ _ _ _ _ _ _ _ _ H2) as H2'. cbn [lm_parent lm_level] in H2'.
+  pose proof (line_section_run stk HOf (S (S (S f))) _ _ _ _ _ _ _ _ _ _ H2' Hk1 Hk2 ltac:(lia)) as H3. cbn [app] in H3.
+  match type of H3 with ST _ ?x _ _ _ _ _ _ _ _ _ => set (s3 := x) in * end.
+  cbv zeta. rewrite (ST_cur_tt stk _ _ _ _ _ _ _ _ _ _ _ H3 Hk2). cbn [tOf o_kw_of].
+  pose proof (next_token_ST stk _ _ _ _ _ _ _ _ _ _ H3 Hkn2) as H4. cbn [app] in H4.
+  pose proof (finish_ST stk _ _ _ _ _ _ _ _ _ _ H4 ltac:(discriminate)) as H5. cbn [lm_type] in H5.
+  rewrite (first_parent_St_blk bk), (plain_sum_St_blk bk), HC in H5.
+  replace (clamp_u16 (0 + (1 + plain_sum C))) with (lvl d) in H5 by (unfold lvl, d; f_equal; lia).
+  match type of H5 with ST _ ?x _ _ _ _ _ _ _ _ _ => set (s5 := x) in * end.
+  (* the case block and its arms *)
+  cbv delta [stmt_block] beta.
+  change (ctx (CT_Statement SK_Case) true P_else_end (ParserGrammar.L 1)) with (cBlk KCase).
+  rewrite (run_S _ (C_stmt_block (cBlk KCase) SK_Case) _ (ST_err stk _ _ _ _ _ _ _ _ _ _ H5)). unfold arm_stmt_block.
+  rewrite (with_ctx_stmt_list _ (cBlk KCase) _ _ (ST_err stk _ _ _ _ _ _ _ _ _ _ H5) eq_refl).
+  change (C_stmt_list (CT_Statement SK_Case) false P_semicolon) with (slc KCase).
+  pose proof (finish_empty_ST stk _ _ _ _ _ _ _ _ _ H5) as H6. cbn [lm_parent lm_level] in H6.
+  pose proof (push_ctx_ST stk (cBlk KCase) _ _ _ _ _ _ _ _ _ _ H6) as H7.
+  pose proof (ST_GS stk _ _ _ _ _ _ _ _ _ _ H7) as G7.
+  assert (Hl0 : length (M ++ [mkLM par (lvl d) LLT_CaseHeader]) = length (Ls ++ [[k; S k; S (S k)]])) by (rewrite !app_length, Ml; reflexivity).
+  destruct (IHa stk par KCase bk C (S f) _ (S (S (S k))) (Ls ++ [[k; S k; S (S k)]]) [] (M ++ [mkLM par (lvl d) LLT_CaseHeader]) _ [] _ _ _
+              (fun _ => []) eq_refl Hnd HC G7 Hl0 eq_refl eq_refl Hb ltac:(lia)) as (mc' & last' & fl & Ty & G8).
+  cbv zeta in G8. fold ke in G8.
+  replace (length (Ls ++ [[k; S k; S (S k)]])) with (length Ls + 1) in G8 by (rewrite app_length; reflexivity).
+  fold d in G8. fold pre in G8. fold j in G8. fold pl in G8.
+  pose proof (pop_ctx_GS _ _ _ _ _ _ _ _ _ _ G8) as G9.
+  match type of G9 with GS ?x _ _ _ _ _ _ _ _ => set (s9 := x) in * end.
+  rewrite (GS_cur_tt _ _ _ _ _ _ _ _ _ _ G9 Hke). cbn [tEnd o_kw_else].
+  rewrite (GS_cur_tt _ _ _ _ _ _ _ _ _ _ G9 Hke). cbn [tEnd o_kw_end].
+  (* `end` joins the line that is current after the last arm; the `;` too *)
+  assert (Hj : j = length (Ls ++ [[k; S k; S (S k)]]) + length pre).
+  { unfold j, pre. rewrite (arms_li_eq a par d), app_length. reflexivity. }
+  pose proof (next_token_GS _ _ _ _ _ _ _ _ _ _ G9 Hken) as G10.
+  rewrite (upd_nth_mid_eq _ _ _ ((Ls ++ [[k; S k; S (S k)]]) ++ map ll_toks pre) [] (map ll_toks pl)) in G10
+    by (try (rewrite <- !app_assoc; reflexivity); rewrite app_length, map_length; lia).
+  cbn [app] in G10.
+  match type of G10 with GS ?x _ _ _ _ _ _ _ _ => set (s10 := x) in * end.
+  assert (En10 : ending_ctx pass s10 = Some 1).
+  { rewrite (ending_G_St bk s10 false _ tSemi (GS_ctx _ _ _ _ _ _ _ _ _ G10) eq_refl (GS_cur_is _ _ _ _ _ _ _ _ _ _ G10 Hse) I). reflexivity. }
+  rewrite (structures_stop_G _ s10 tSemi 1 (GS_err _ _ _ _ _ _ _ _ _ G10) (GS_cur_is _ _ _ _ _ _ _ _ _ _ G10 Hse) ltac:(discriminate) En10).
+  pose proof (update_statuses_GS 1 _ _ _ _ _ _ _ _ _ G10) as G11. cbn [mark_ended] in G11.
+  pose proof (pop_ctx_GS _ _ _ _ _ _ _ _ _ _ G11) as G12.
+  pose proof (finish_GS _ _ _ _ _ _ _ _ _ _ G12) as G13.
+  rewrite (nth_mid_eq _ _ ((Ls ++ [[k; S k; S (S k)]]) ++ map ll_toks pre) [ke] (map ll_toks pl) []) in G13
+    by (try reflexivity; rewrite app_length, map_length; lia).
+  specialize (G13 ltac:(discriminate)).
+  rewrite (upd_nth_mid_eq _ _ _ ((M ++ [mkLM par (lvl d) LLT_CaseHeader]) ++ map meta_of pre) mc' (map meta_of pl)) in G13
+    by (try (rewrite <- !app_assoc; reflexivity); rewrite app_length, map_length, Hl0; lia).
+  rewrite first_parent_blk, plain_sum_blk, HC, Ty in G13. fold d in G13.
+  pose proof (GS_ST stk _ _ _ _ _ _ _ _ _ _ _ _ _ G13 eq_refl eq_refl eq_refl) as S13.
+  pose proof (take_separators_ST stk (CL_Level 0%Z) _ _ _ _ _ _ _ _ _ t' S13 Hse Hse1 Hne) as S14.
+  rewrite (nth_mid_eq _ _ ((Ls ++ [[k; S k; S (S k)]]) ++ map ll_toks pre) [ke] (map ll_toks pl) []) in S14
+    by (try reflexivity; rewrite app_length, map_length; lia).
+  specialize (S14 ltac:(rewrite Hj; len_tac) ltac:(discriminate)).
+  rewrite (upd_nth_mid_eq _ _ _ ((Ls ++ [[k; S k; S (S k)]]) ++ map ll_toks pre) [ke] (map ll_toks pl)) in S14
+    by (try reflexivity; rewrite app_length, map_length; lia).
+  cbn [app] in S14.
+  eexists _, _. split; [|eapply (ST_lists stk); [exact S14| |]]; cycle 1.
+  - repeat (progress (cbn [app]; rewrite <- ?app_assoc)). reflexivity.
+  - repeat (progress (cbn [app]; rewrite <- ?app_assoc)). reflexivity.
+  - reflexivity.
+Qed.
+
+(* ---------------- case Identifier of arms else stmts end ; *)
+Lemma iter_caseelse stk par bk a e f s k Ls M mc last C lv a0 t' :
+  Parms a -> IHfor stk par KElse e ((cStk bk, false) :: (cBlk bk, false) :: C) -> notd C ->
+  ST stk s k Ls [] M mc last ((cBlk bk, false) :: C) lv a0 -> first_parent C = par ->
+  nth_error T k = Some tCase -> nth_error T (S k) = Some tI -> nth_error T (S (S k)) = Some tOf ->
+  toks_at (S (S (S k))) (render_arms a ++ [tElse]) ->
+  toks_at (S (S (S (S k)) + length (render_arms a))) (render e ++ [tEnd]) ->
+  nth_error T (S (S (S (S (S k)) + length (render_arms a)) + length (render e))) = Some tSemi ->
+  nth_error T (S (S (S (S (S (S k)) + length (render_arms a)) + length (render e)))) = Some t' -> t' <> tSemi ->
+  20 + need_arms a + need e <= f ->
+  let d := (1 + plain_sum C)%Z in
+  let ke := S (S (S k)) + length (render_arms a) in
+  let kee := S ke + length (render e) in
+  let pre := arms_pre par d (S (S (S k))) (length Ls + 1) a (fun _ => []) in
+  let j := arms_li (S (S (S k))) (length Ls + 1) a (fun _ => []) in
+  let pl := arms_pend (S (S (S k))) (length Ls + 1) a (fun _ => []) (j + 1) in
+  let le := pexpected par (d + 1) (S ke) (j + 1 + length pl) e in
+  exists mc3 last3, lm_type mc3 = LLT_Unknown /\
+  ST stk (take_separators_on_last_line pass (CL_Level 0%Z) (finish_logical_line pass (RUN f (C_with_ctx (cStk bk) A_structures) s)))
+     (S (S kee)) (Ls ++ [k; S k; S (S k)] :: map ll_toks pre ++ [ke] :: map ll_toks pl ++ map ll_toks le ++ [[kee; S kee]]) []
+     (M ++ mkLM par (lvl d) LLT_CaseHeader :: map meta_of pre ++ mkLM par (lvl d) LLT_Unknown :: map meta_of pl ++ map meta_of le
+        ++ [mkLM par (lvl d) LLT_Unknown])
+     mc3 last3 ((cBlk bk, false) :: C) lv a0.
+Proof.
+  intros IHa IHe Hnd H HC Hk Hk1 Hk2 Hb Hbe Hse Hse1 Hne Hf d ke kee pre j pl le.
+  assert (Hkn : k < n) by (apply nth_error_Some; congruence).
+  assert (Hkn2 : S (S k) < n) by (apply nth_error_Some; congruence).
+  assert (Ml : length M = length Ls) by (destruct H as (_ & _ & Ml & _); exact Ml).
+  assert (Hke : nth_error T ke = Some tElse).
+  { specialize (Hb (length (render_arms a)) tElse). rewrite nth_error_app2, Nat.sub_diag in Hb by lia. exact (Hb eq_refl). }
+  assert (Hken : ke < n) by (apply nth_error_Some; congruence).
+  destruct f as [|[|[|[|[|[|f]]]]]]; try lia.
+  rewrite (with_ctx_structures _ (cStk bk) s (ST_err stk _ _ _ _ _ _ _ _ _ _ H) eq_refl).
+  pose proof (finish_empty_ST stk _ _ _ _ _ _ _ _ _ H) as H0.
+  pose proof (push_ctx_ST stk (cStk bk) _ _ _ _ _ _ _ _ _ _ H0) as H1.
+  rewrite (run_S _ C_structures _ (ST_err stk _ _ _ _ _ _ _ _ _ _ H1)).
+  unfold arm_structures. rewrite (ST_cur_tt stk _ _ _ _ _ _ _ _ _ _ _ H1 Hk). cbn [tCase].
+  rewrite (ending_St_SB stk bk _ _ _ _ _ _ _ _ _ _ _ H1 Hk). cbn [tCase is_term sarm_of].
+  unfold sa_case. rewrite (in_type_decl_false stk bk _ _ _ _ _ _ _ _ _ _ H1 Hnd). unfold s_loop.
+  rewrite (run_S _ C_case_statement _ (ST_err stk _ _ _ _ _ _ _ _ _ _ H1)). unfold arm_case_statement.
+  change (ctx CT_Utility true P_of (ParserGrammar.L 0)) with (cUtp HOf).
+  pose proof (next_token_ST stk _ _ _ _ _ _ _ _ _ _ H1 Hkn) as H2. cbn [app] in H2.
+  pose proof (set_line_type_ST stk LLT_CaseHeader _ _ _ _ _ _ _ _ _ _ H2) as H2'. cbn [lm_parent lm_level] in H2'.
+  pose proof (line_section_run stk HOf (S (S (S f))) _ _ _ _ _ _ _ _ _ _ H2' Hk1 Hk2 ltac:(lia)) as H3. cbn [app] in H3.
+  match type of H3 with ST _ ?x _ _ _ _ _ _ _ _ _ => set (s3 := x) in * end.
+  cbv zeta. rewrite (ST_cur_tt stk _ _ _ _ _ _ _ _ _ _ _ H3 Hk2). cbn [tOf o_kw_of].
+  pose proof (next_token_ST stk _ _ _ _ _ _ _ _ _ _ H3 Hkn2) as H4. cbn [app] in H4.
+  pose proof (finish_ST stk _ _ _ _ _ _ _ _ _ _ H4 ltac:(discriminate)) as H5. cbn [lm_type] in H5.
+  rewrite (first_parent_St_blk bk), (plain_sum_St_blk bk), HC in H5.
+  replace (clamp_u16 (0 + (1 + plain_sum C))) with (lvl d) in H5 by (unfold lvl, d; f_equal; lia).
+  match type of H5 with ST _ ?x _ _ _ _ _ _ _ _ _ => set (s5 := x) in * end.
+  (* the case block and its arms *)
+  cbv delta [stmt_block] beta.
+  change (ctx (CT_Statement SK_Case) true P_else_end (ParserGrammar.L 1)) with (cBlk KCaseE).
+  rewrite (run_S _ (C_stmt_block (cBlk KCaseE) SK_Case) _ (ST_err stk _ _ _ _ _ _ _ _ _ _ H5)). unfold arm_stmt_block.
+  rewrite (with_ctx_stmt_list _ (cBlk KCaseE) _ _ (ST_err stk _ _ _ _ _ _ _ _ _ _ H5) eq_refl).
+  change (C_stmt_list (CT_Statement SK_Case) false P_semicolon) with (slc KCaseE).
+  pose proof (finish_empty_ST stk _ _ _ _ _ _ _ _ _ H5) as H6. cbn [lm_parent lm_level] in H6.
+  pose proof (push_ctx_ST stk (cBlk KCaseE) _ _ _ _ _ _ _ _ _ _ H6) as H7.
+  pose proof (ST_GS stk _ _ _ _ _ _ _ _ _ _ H7) as G7.
+  assert (Hl0 : length (M ++ [mkLM par (lvl d) LLT_CaseHeader]) = length (Ls ++ [[k; S k; S (S k)]])) by (rewrite !app_length, Ml; reflexivity).
+  destruct (IHa stk par KCaseE bk C (S f) _ (S (S (S k))) (Ls ++ [[k; S k; S (S k)]]) [] (M ++ [mkLM par (lvl d) LLT_CaseHeader]) _ [] _ _ _
+              (fun _ => []) eq_refl Hnd HC G7 Hl0 eq_refl eq_refl Hb ltac:(lia)) as (mc' & last' & fl & Ty & G8).
+  cbv zeta in G8. fold ke in G8.
+  replace (length (Ls ++ [[k; S k; S (S k)]])) with (length Ls + 1) in G8 by (rewrite app_length; reflexivity).
+  fold d in G8. fold pre in G8. fold j in G8. fold pl in G8.
+  pose proof (pop_ctx_GS _ _ _ _ _ _ _ _ _ _ G8) as G9.
+  match type of G9 with GS ?x _ _ _ _ _ _ _ _ => set (s9 := x) in * end.
+  rewrite (GS_cur_tt _ _ _ _ _ _ _ _ _ _ G9 Hke). cbn [tElse o_kw_else].
+  assert (Hj : j = length (Ls ++ [[k; S k; S (S k)]]) + length pre).
+  { unfold j, pre. rewrite (arms_li_eq a par d), app_length. reflexivity. }
+  (* `else` joins the line that is current after the last arm; the else block *)
+  pose proof (next_token_GS _ _ _ _ _ _ _ _ _ _ G9 Hken) as G10.
+  rewrite (upd_nth_mid_eq _ _ _ ((Ls ++ [[k; S k; S (S k)]]) ++ map ll_toks pre) [] (map ll_toks pl)) in G10
+    by (try (rewrite <- !app_assoc; reflexivity); rewrite app_length, map_length; lia).
+  cbn [app] in G10.
+  pose proof (finish_GS _ _ _ _ _ _ _ _ _ _ G10) as G11.
+  rewrite (nth_mid_eq _ _ ((Ls ++ [[k; S k; S (S k)]]) ++ map ll_toks pre) [ke] (map ll_toks pl) []) in G11
+    by (try reflexivity; rewrite app_length, map_length; lia).
+  specialize (G11 ltac:(discriminate)).
+  rewrite (upd_nth_mid_eq _ _ _ ((M ++ [mkLM par (lvl d) LLT_CaseHeader]) ++ map meta_of pre) mc' (map meta_of pl)) in G11
+    by (try (rewrite <- !app_assoc; reflexivity); rewrite app_length, map_length, Hl0; lia).
+  rewrite (first_parent_St_blk bk), (plain_sum_St_blk bk), HC, Ty in G11.
+  replace (clamp_u16 (0 + (1 + plain_sum C))) with (lvl d) in G11 by (unfold lvl, d; f_equal; lia).
+  pose proof (GS_ST stk _ _ _ _ _ _ _ _ _ _ _ _ _ G11 eq_refl eq_refl eq_refl) as S11.
+  match type of S11 with ST _ ?x _ _ _ _ _ _ _ _ _ => set (s11 := x) in * end.
+  change (ctx (CT_StatementBlock BK_Else) true P_end (ParserGrammar.L 1)) with (cBlk KElse).
+  rewrite (run_S _ (C_stmt_block (cBlk KElse) SK_Normal) _ (ST_err stk _ _ _ _ _ _ _ _ _ _ S11)). unfold arm_stmt_block.
+  rewrite (with_ctx_stmt_list _ (cBlk KElse) _ _ (ST_err stk _ _ _ _ _ _ _ _ _ _ S11) eq_refl).
+  change (C_stmt_list (CT_Statement SK_Normal) false P_semicolon) with (slc KElse).
+  pose proof (finish_empty_ST stk _ _ _ _ _ _ _ _ _ S11) as S12. cbn [lm_parent lm_level] in S12.
+  pose proof (push_ctx_ST stk (cBlk KElse) _ _ _ _ _ _ _ _ _ _ S12) as S13.
+  pose proof (fun Hli => IHe (S f) _ _ _ _ _ _ _ _ (j + 1 + length pl) ltac:(lia) Hli S13 Hbe) as IHe'.
+  destruct (IHe' ltac:(rewrite Hj; len_tac)) as (mcb & lastb & flb & Tyb & S14).
+  rewrite (plain_sum_St_blk bk) in S14. replace (1 + (0 + (1 + plain_sum C)))%Z with (d + 1)%Z in S14 by (unfold d; lia).
+  fold le in S14. fold kee in S14.
+  pose proof (pop_ctx_ST stk _ _ _ _ _ _ _ _ _ _ _ S14) as S15.
+  match type of S15 with ST _ ?x _ _ _ _ _ _ _ _ _ => set (s15 := x) in * end.
+  assert (Hkee : nth_error T kee = Some tEnd).
+  { specialize (Hbe (length (render e)) tEnd). rewrite nth_error_app2, Nat.sub_diag in Hbe by lia. exact (Hbe eq_refl). }
+  assert (Hkeen : kee < n) by (apply nth_error_Some; congruence).
+  rewrite (ST_cur_tt stk _ _ _ _ _ _ _ _ _ _ _ S15 Hkee). cbn [tEnd o_kw_end].
+  pose proof (next_token_ST stk _ _ _ _ _ _ _ _ _ _ S15 Hkeen) as S16. cbn [app] in S16.
+  rewrite (structures_stop stk _ _ _ _ _ _ _ _ _ _ _ _ _ S16 Hse ltac:(discriminate) (ending_St_SB stk bk _ _ _ _ _ _ _ _ _ _ _ S16 Hse)).
+  pose proof (update_statuses_ST stk 1 _ _ _ _ _ _ _ _ _ _ S16) as S17. cbn [mark_ended] in S17.
+  pose proof (pop_ctx_ST stk _ _ _ _ _ _ _ _ _ _ _ S17) as S18.
+  pose proof (finish_ST stk _ _ _ _ _ _ _ _ _ _ S18 ltac:(discriminate)) as S19.
+  rewrite first_parent_blk, plain_sum_blk, HC, Tyb in S19. fold d in S19.
+  pose proof (take_separators_ST stk (CL_Level 0%Z) _ _ _ _ _ _ _ _ _ t' S19 Hse Hse1 Hne) as S20.
+  specialize (S20 ltac:(rewrite last_length; lia)). rewrite nth_app_last in S20.
+  specialize (S20 ltac:(discriminate)). rewrite upd_nth_app_last in S20. cbn [app] in S20.
+  eexists _, _. split; [|eapply (ST_lists stk); [exact S20| |]]; cycle 1.
+  - repeat (progress (cbn [app]; rewrite <- ?app_assoc)). reflexivity.
+  - repeat (progress (cbn [app]; rewrite <- ?app_assoc)). reflexivity.
+  - reflexivity.
+Qed.
+
+(* ---------------- the statement-list loop on any statement list of the fragment *)
+Theorem stmts_run : forall ss stk par bk C, sk_of bk <> SK_Case -> notd C -> first_parent C = par -> IHfor stk par bk ss C.
+Proof.
+  apply (stmts_mut (fun ss => forall stk par bk C, sk_of bk <> SK_Case -> notd C -> first_parent C = par -> IHfor stk par bk ss C)
+                   Qbody Parms).
   - (* no statement: the loop runs once, in front of `end` *)
+    intros stk par bk C Hsk Hnd HC f s k Ls M mc last lv a li Hf Hli H Ht; subst li; unfold Post.
     unfold need in Hf. cbn [render length] in *. destruct f as [|[|[|f]]]; try lia.
     pose proof (toks_at_0 _ _ _ Ht eq_refl) as Hk.
     assert (Hnt : tTerm bk <> tSemi) by (destruct bk; discriminate).
-    assert (Hct : cur_tt pass (push_ctx pass cSt (finish_logical_line pass s)) = Some (tTerm bk) -> True) by auto.
-    unfold stmt_list_call. rewrite (stmt_list_unfold _ _ _ _ _ (ST_err _ _ _ _ _ _ _ _ _ _ H)). cbv zeta.
-    change (ctx (CT_Statement SK_Normal) false P_semicolon (ParserGrammar.L 0)) with cSt.
-    rewrite (with_ctx_structures _ cSt s (ST_err _ _ _ _ _ _ _ _ _ _ H) eq_refl).
-    pose proof (finish_empty_ST _ _ _ _ _ _ _ _ _ H) as H0.
-    pose proof (push_ctx_ST cSt _ _ _ _ _ _ _ _ _ _ H0) as H1.
-    rewrite (run_S _ C_structures _ (ST_err _ _ _ _ _ _ _ _ _ _ H1)).
-    unfold arm_structures. rewrite (ST_cur_tt _ _ _ _ _ _ _ _ _ _ _ H1 Hk).
-    rewrite (ending_St_SB bk _ _ _ _ _ _ _ _ _ _ _ H1 Hk).
+    assert (Hct : cur_tt pass (push_ctx pass (cStk bk) (finish_logical_line pass s)) = Some (tTerm bk) -> True) by auto.
+    unfold slc. rewrite (stmt_list_unfold _ _ _ _ _ (ST_err stk _ _ _ _ _ _ _ _ _ _ H)). cbv zeta.
+    change (ctx (CT_Statement (sk_of bk)) false P_semicolon (ParserGrammar.L 0)) with (cStk bk).
+    rewrite (with_ctx_structures _ (cStk bk) s (ST_err stk _ _ _ _ _ _ _ _ _ _ H) eq_refl).
+    pose proof (finish_empty_ST stk _ _ _ _ _ _ _ _ _ H) as H0.
+    pose proof (push_ctx_ST stk (cStk bk) _ _ _ _ _ _ _ _ _ _ H0) as H1.
+    rewrite (run_S _ C_structures _ (ST_err stk _ _ _ _ _ _ _ _ _ _ H1)).
+    unfold arm_structures. rewrite (ST_cur_tt stk _ _ _ _ _ _ _ _ _ _ _ H1 Hk).
+    rewrite (ending_St_SB stk bk _ _ _ _ _ _ _ _ _ _ _ H1 Hk).
     assert (X : match tTerm bk with RTT_Eof => None | _ => Some (tTerm bk) end = Some (tTerm bk)) by (destruct bk; reflexivity). rewrite X. clear X.
     assert (X : match tTerm bk with RTT_Op OK_Semicolon => Some 1 | _ => if is_term bk (tTerm bk) then Some 2 else None end = Some 2) by (destruct bk; reflexivity). rewrite X. clear X.
-    pose proof (update_statuses_ST 2 _ _ _ _ _ _ _ _ _ _ H1) as H2. cbn [mark_ended] in H2.
-    pose proof (pop_ctx_ST _ _ _ _ _ _ _ _ _ _ _ H2) as H3.
-    pose proof (finish_empty_ST _ _ _ _ _ _ _ _ _ H3) as H4.
-    rewrite (take_separators_noop _ _ _ _ _ _ _ _ _ _ _ (tTerm bk) H4 Hk) by exact Hnt.
-    assert (IE : is_ending pass (finish_logical_line pass (pop_ctx pass (update_statuses pass 2 (push_ctx pass cSt (finish_logical_line pass s))))) = true).
-    { unfold is_ending, ending_ctx. rewrite (ST_ctx _ _ _ _ _ _ _ _ _ _ H4). reflexivity. }
-    rewrite IE. cbn [orb expected map]. rewrite !app_nil_r, Nat.add_0_r. eexists _, _, _. split; [|exact H4]. reflexivity.
+    pose proof (update_statuses_ST stk 2 _ _ _ _ _ _ _ _ _ _ H1) as H2. cbn [mark_ended] in H2.
+    pose proof (pop_ctx_ST stk _ _ _ _ _ _ _ _ _ _ _ H2) as H3.
+    pose proof (finish_empty_ST stk _ _ _ _ _ _ _ _ _ H3) as H4.
+    rewrite (take_separators_noop stk _ _ _ _ _ _ _ _ _ _ _ (tTerm bk) H4 Hk) by exact Hnt.
+    assert (IE : is_ending pass (finish_logical_line pass (pop_ctx pass (update_statuses pass 2 (push_ctx pass (cStk bk) (finish_logical_line pass s))))) = true).
+    { unfold is_ending, ending_ctx. rewrite (ST_ctx stk _ _ _ _ _ _ _ _ _ _ H4). reflexivity. }
+    rewrite IE. cbn [orb pexpected map]. rewrite !app_nil_r, Nat.add_0_r. eexists _, _, _. split; [|exact H4]. reflexivity.
   - (* Identifier ; *)
+    intros r IHr stk par bk C Hsk Hnd HC f s k Ls M mc last lv a li Hf Hli H Ht; subst li; unfold Post.
     unfold need in Hf. cbn [render length] in *. destruct f as [|f]; [lia|].
     pose proof (Ht 0 _ eq_refl) as Hk. rewrite Nat.add_0_r in Hk.
     pose proof (Ht 1 _ eq_refl) as Hk1. replace (k + 1) with (S k) in Hk1 by lia.
     assert (Htr : toks_at (S (S k)) (render r ++ [tTerm bk])).
     { replace (S (S k)) with (k + 2) by lia. apply (toks_at_shift k 2 [tI; tSemi]); [exact Ht|reflexivity]. }
     destruct (head_tok bk r) as (t' & H0 & N1 & _). pose proof (toks_at_0 _ _ _ Htr H0) as Hk2.
-    unfold stmt_list_call. rewrite (stmt_list_unfold _ _ _ _ _ (ST_err _ _ _ _ _ _ _ _ _ _ H)). cbv zeta.
-    change (ctx (CT_Statement SK_Normal) false P_semicolon (ParserGrammar.L 0)) with cSt.
-    pose proof (iter_simple bk f _ _ _ _ _ _ _ _ _ t' H HC Hk Hk1 Hk2 N1 ltac:(lia)) as H3.
+    unfold slc. rewrite (stmt_list_unfold _ _ _ _ _ (ST_err stk _ _ _ _ _ _ _ _ _ _ H)). cbv zeta.
+    change (ctx (CT_Statement (sk_of bk)) false P_semicolon (ParserGrammar.L 0)) with (cStk bk).
+    pose proof (iter_simple stk par bk f _ _ _ _ _ _ _ _ _ t' Hsk H HC Hk Hk1 Hk2 N1 ltac:(lia)) as H3.
     assert (Hn : need r <= f) by (unfold need; lia).
-    pose proof (fun Hty => loop_tail bk r C (IHr bk C HC) f _ _ _ _ _ _ _ _ Hn Hty H3 Htr) as LT.
+    pose proof (fun Hty => loop_tail stk par bk r C (IHr stk par bk C Hsk Hnd HC) f _ _ _ _ _ _ _ _ _ Hn eq_refl Hty H3 Htr) as LT.
     destruct (LT eq_refl) as (mc' & last' & fl & Ty & H4).
     exists mc', last', fl. split; [exact Ty|].
-    cbn [expected map]. replace (k + 1) with (S k) by lia. replace (k + 2) with (S (S k)) by lia.
+    cbn [pexpected map]. replace (k + 1) with (S k) by lia. replace (k + 2) with (S (S k)) by lia.
     replace (k + S (S (length (render r)))) with (S (S k) + length (render r)) by lia.
-    rewrite <- !app_assoc in H4. cbn [app] in H4. exact H4.
+    fix_li r H4. rewrite <- !app_assoc in H4. cbn [app] in H4. exact H4.
   - (* Identifier := Identifier ; *)
+    intros r IHr stk par bk C Hsk Hnd HC f s k Ls M mc last lv a li Hf Hli H Ht; subst li; unfold Post.
     unfold need in Hf. cbn [render length] in *. destruct f as [|f]; [lia|].
     pose proof (Ht 0 _ eq_refl) as Hk. rewrite Nat.add_0_r in Hk.
     pose proof (Ht 1 _ eq_refl) as Hk1. replace (k + 1) with (S k) in Hk1 by lia.
@@ -997,18 +2557,19 @@ Proof.
     assert (Htr : toks_at (S (S (S (S k)))) (render r ++ [tTerm bk])).
     { replace (S (S (S (S k)))) with (k + 4) by lia. apply (toks_at_shift k 4 [tI; tAssign; tI; tSemi]); [exact Ht|reflexivity]. }
     destruct (head_tok bk r) as (t' & H0 & N1 & _). pose proof (toks_at_0 _ _ _ Htr H0) as Hk4.
-    unfold stmt_list_call. rewrite (stmt_list_unfold _ _ _ _ _ (ST_err _ _ _ _ _ _ _ _ _ _ H)). cbv zeta.
-    change (ctx (CT_Statement SK_Normal) false P_semicolon (ParserGrammar.L 0)) with cSt.
-    pose proof (iter_assign bk f _ _ _ _ _ _ _ _ _ t' H HC Hk Hk1 Hk2 Hk3 Hk4 N1 ltac:(lia)) as H3.
+    unfold slc. rewrite (stmt_list_unfold _ _ _ _ _ (ST_err stk _ _ _ _ _ _ _ _ _ _ H)). cbv zeta.
+    change (ctx (CT_Statement (sk_of bk)) false P_semicolon (ParserGrammar.L 0)) with (cStk bk).
+    pose proof (iter_assign stk par bk f _ _ _ _ _ _ _ _ _ t' Hsk H HC Hk Hk1 Hk2 Hk3 Hk4 N1 ltac:(lia)) as H3.
     assert (Hn : need r <= f) by (unfold need; lia).
-    pose proof (fun Hty => loop_tail bk r C (IHr bk C HC) f _ _ _ _ _ _ _ _ Hn Hty H3 Htr) as LT.
+    pose proof (fun Hty => loop_tail stk par bk r C (IHr stk par bk C Hsk Hnd HC) f _ _ _ _ _ _ _ _ _ Hn eq_refl Hty H3 Htr) as LT.
     destruct (LT eq_refl) as (mc' & last' & fl & Ty & H4).
     exists mc', last', fl. split; [exact Ty|].
-    cbn [expected map]. replace (k + 1) with (S k) by lia. replace (k + 2) with (S (S k)) by lia.
+    cbn [pexpected map]. replace (k + 1) with (S k) by lia. replace (k + 2) with (S (S k)) by lia.
     replace (k + 3) with (S (S (S k))) by lia. replace (k + 4) with (S (S (S (S k)))) by lia.
     replace (k + S (S (S (S (length (render r)))))) with (S (S (S (S k))) + length (render r)) by lia.
-    rewrite <- !app_assoc in H4. cbn [app] in H4. exact H4.
+    fix_li r H4. rewrite <- !app_assoc in H4. cbn [app] in H4. exact H4.
   - (* begin b end ; *)
+    intros b IHb r IHr stk par bk C Hsk Hnd HC f s k Ls M mc last lv a li Hf Hli H Ht; subst li; unfold Post.
     unfold need in Hf. cbn [render length] in *. rewrite app_length in Hf. cbn [length] in Hf. destruct f as [|f]; [lia|].
     assert (Eq : (tBegin :: render b ++ tEnd :: tSemi :: render r) ++ [tTerm bk]
                  = [tBegin] ++ (render b ++ [tEnd]) ++ [tSemi] ++ (render r ++ [tTerm bk])).
@@ -1025,19 +2586,22 @@ Proof.
     assert (Htr : toks_at (S (S e)) (render r ++ [tTerm bk])).
     { replace (S (S e)) with (S e + 1) by lia. apply (toks_at_shift (S e) 1 [tSemi]); [exact Hts|reflexivity]. }
     destruct (head_tok bk r) as (t' & H0 & N1 & _). pose proof (toks_at_0 _ _ _ Htr H0) as Hse1.
-    unfold stmt_list_call. rewrite (stmt_list_unfold _ _ _ _ _ (ST_err _ _ _ _ _ _ _ _ _ _ H)). cbv zeta.
-    change (ctx (CT_Statement SK_Normal) false P_semicolon (ParserGrammar.L 0)) with cSt.
-    assert (HC' : first_parent ((cSt, false) :: (cBlk bk, false) :: C) = None) by (rewrite first_parent_St_blk; exact HC).
-    destruct (iter_block bk b f _ _ _ _ _ _ _ _ _ t' (IHb KBegin _ HC') H HC Hk Htb Hse Hse1 N1 ltac:(unfold need; lia)) as (mc3 & Ty3 & H3).
+    unfold slc. rewrite (stmt_list_unfold _ _ _ _ _ (ST_err stk _ _ _ _ _ _ _ _ _ _ H)). cbv zeta.
+    change (ctx (CT_Statement (sk_of bk)) false P_semicolon (ParserGrammar.L 0)) with (cStk bk).
+    assert (HC' : first_parent (((cStk bk), false) :: (cBlk bk, false) :: C) = par) by (rewrite first_parent_St_blk; exact HC).
+    assert (Hnd' : notd ((cStk bk, false) :: (cBlk bk, false) :: C)) by (apply notd_St_blk, Hnd).
+    destruct (iter_block stk par bk b f _ _ _ _ _ _ _ _ _ t' (IHb stk par KBegin _ ltac:(discriminate) Hnd' HC') H HC Hk Htb Hse Hse1 N1 ltac:(unfold need; lia)) as (mc3 & Ty3 & H3).
     fold e in H3.
-    destruct (loop_tail bk r C (IHr bk C HC) f _ _ _ _ _ _ _ _ ltac:(unfold need; lia) Ty3 H3 Htr) as (mc' & last' & fl & Ty & H4).
+    destruct (loop_tail stk par bk r C (IHr stk par bk C Hsk Hnd HC) f _ _ _ _ _ _ _ _ _ ltac:(unfold need; lia) eq_refl Ty3 H3 Htr) as (mc' & last' & fl & Ty & H4).
     exists mc', last', fl. split; [exact Ty|].
-    cbn [expected]. cbv zeta. replace (k + 1) with (S k) by lia. fold e.
+    cbn [pexpected]. cbv zeta. replace (k + 1) with (S k) by lia. fold e.
     replace (e + 1) with (S e) by lia. replace (e + 2) with (S (S e)) by lia.
     replace (k + S (length (render b ++ tEnd :: tSemi :: render r))) with (S (S e) + length (render r))
       by (rewrite app_length; cbn [length]; unfold e; lia).
-    eapply ST_lists; [exact H4| |]; cbn [map]; repeat (rewrite map_app; cbn [map]); cbn [map app ll_toks]; repeat (progress (cbn [app]; rewrite <- ?app_assoc)); reflexivity.
+    replace (length Ls + 1) with (S (length Ls)) by lia. fix_li r H4.
+    eapply (ST_lists stk); [exact H4| |]; cbn [map]; repeat (rewrite map_app; cbn [map]); cbn [map app ll_toks]; repeat (progress (cbn [app]; rewrite <- ?app_assoc)); reflexivity.
   - (* repeat b until Identifier ; *)
+    intros b IHb r IHr stk par bk C Hsk Hnd HC f s k Ls M mc last lv a li Hf Hli H Ht; subst li; unfold Post.
     unfold need in Hf. cbn [render length] in *. rewrite app_length in Hf. cbn [length] in Hf. destruct f as [|f]; [lia|].
     assert (Eq : (tRepeat :: render b ++ tUntil :: tI :: tSemi :: render r) ++ [tTerm bk]
                  = [tRepeat] ++ (render b ++ [tUntil]) ++ [tI; tSemi] ++ (render r ++ [tTerm bk])).
@@ -1055,19 +2619,22 @@ Proof.
     assert (Htr : toks_at (S (S (S e))) (render r ++ [tTerm bk])).
     { replace (S (S (S e))) with (S e + 2) by lia. apply (toks_at_shift (S e) 2 [tI; tSemi]); [exact Hts|reflexivity]. }
     destruct (head_tok bk r) as (t' & H0 & N1 & _). pose proof (toks_at_0 _ _ _ Htr H0) as Hse1.
-    unfold stmt_list_call. rewrite (stmt_list_unfold _ _ _ _ _ (ST_err _ _ _ _ _ _ _ _ _ _ H)). cbv zeta.
-    change (ctx (CT_Statement SK_Normal) false P_semicolon (ParserGrammar.L 0)) with cSt.
-    assert (HC' : first_parent ((cSt, false) :: (cBlk bk, false) :: C) = None) by (rewrite first_parent_St_blk; exact HC).
-    destruct (iter_repeat bk b f _ _ _ _ _ _ _ _ _ t' (IHb KRepeat _ HC') H HC Hk Htb Hi Hse Hse1 N1 ltac:(unfold need; lia)) as (mc3 & last3 & Ty3 & H3).
+    unfold slc. rewrite (stmt_list_unfold _ _ _ _ _ (ST_err stk _ _ _ _ _ _ _ _ _ _ H)). cbv zeta.
+    change (ctx (CT_Statement (sk_of bk)) false P_semicolon (ParserGrammar.L 0)) with (cStk bk).
+    assert (HC' : first_parent (((cStk bk), false) :: (cBlk bk, false) :: C) = par) by (rewrite first_parent_St_blk; exact HC).
+    assert (Hnd' : notd ((cStk bk, false) :: (cBlk bk, false) :: C)) by (apply notd_St_blk, Hnd).
+    destruct (iter_repeat stk par bk b f _ _ _ _ _ _ _ _ _ t' (IHb stk par KRepeat _ ltac:(discriminate) Hnd' HC') H HC Hk Htb Hi Hse Hse1 N1 ltac:(unfold need; lia)) as (mc3 & last3 & Ty3 & H3).
     fold e in H3.
-    destruct (loop_tail bk r C (IHr bk C HC) f _ _ _ _ _ _ _ _ ltac:(unfold need; lia) Ty3 H3 Htr) as (mc' & last' & fl & Ty & H4).
+    destruct (loop_tail stk par bk r C (IHr stk par bk C Hsk Hnd HC) f _ _ _ _ _ _ _ _ _ ltac:(unfold need; lia) eq_refl Ty3 H3 Htr) as (mc' & last' & fl & Ty & H4).
     exists mc', last', fl. split; [exact Ty|].
-    cbn [expected]. cbv zeta. replace (k + 1) with (S k) by lia. fold e.
+    cbn [pexpected]. cbv zeta. replace (k + 1) with (S k) by lia. fold e.
     replace (e + 1) with (S e) by lia. replace (e + 2) with (S (S e)) by lia. replace (e + 3) with (S (S (S e))) by lia.
     replace (k + S (length (render b ++ tUntil :: tI :: tSemi :: render r))) with (S (S (S e)) + length (render r))
       by (rewrite app_length; cbn [length]; unfold e; lia).
-    eapply ST_lists; [exact H4| |]; cbn [map]; repeat (rewrite map_app; cbn [map]); cbn [map app ll_toks]; repeat (progress (cbn [app]; rewrite <- ?app_assoc)); reflexivity.
+    replace (length Ls + 1) with (S (length Ls)) by lia. fix_li r H4.
+    eapply (ST_lists stk); [exact H4| |]; cbn [map]; repeat (rewrite map_app; cbn [map]); cbn [map app ll_toks]; repeat (progress (cbn [app]; rewrite <- ?app_assoc)); reflexivity.
   - (* try b finally c end ; *)
+    intros b IHb c IHc r IHr stk par bk C Hsk Hnd HC f s k Ls M mc last lv a li Hf Hli H Ht; subst li; unfold Post.
     unfold need in Hf. cbn [render length] in *. rewrite !app_length in Hf. cbn [length] in Hf. rewrite app_length in Hf. cbn [length] in Hf.
     destruct f as [|f]; [lia|].
     assert (Eq : (tTry :: render b ++ tFinally :: render c ++ tEnd :: tSemi :: render r) ++ [tTerm bk]
@@ -1090,23 +2657,249 @@ Proof.
     assert (Htr : toks_at (S (S e)) (render r ++ [tTerm bk])).
     { replace (S (S e)) with (S e + 1) by lia. apply (toks_at_shift (S e) 1 [tSemi]); [exact Hts|reflexivity]. }
     destruct (head_tok bk r) as (t' & H0 & N1 & _). pose proof (toks_at_0 _ _ _ Htr H0) as Hse1.
-    unfold stmt_list_call. rewrite (stmt_list_unfold _ _ _ _ _ (ST_err _ _ _ _ _ _ _ _ _ _ H)). cbv zeta.
-    change (ctx (CT_Statement SK_Normal) false P_semicolon (ParserGrammar.L 0)) with cSt.
-    assert (HC' : first_parent ((cSt, false) :: (cBlk bk, false) :: C) = None) by (rewrite first_parent_St_blk; exact HC).
-    destruct (iter_try bk b c f _ _ _ _ _ _ _ _ _ t' (IHb KTry _ HC') (IHc KFinally _ HC') H HC Hk Htb Htc Hse Hse1 N1 ltac:(unfold need; lia)) as (mc3 & last3 & Ty3 & H3).
+    unfold slc. rewrite (stmt_list_unfold _ _ _ _ _ (ST_err stk _ _ _ _ _ _ _ _ _ _ H)). cbv zeta.
+    change (ctx (CT_Statement (sk_of bk)) false P_semicolon (ParserGrammar.L 0)) with (cStk bk).
+    assert (HC' : first_parent (((cStk bk), false) :: (cBlk bk, false) :: C) = par) by (rewrite first_parent_St_blk; exact HC).
+    assert (Hnd' : notd ((cStk bk, false) :: (cBlk bk, false) :: C)) by (apply notd_St_blk, Hnd).
+    destruct (iter_try stk par bk b c f _ _ _ _ _ _ _ _ _ t' (IHb stk par KTry _ ltac:(discriminate) Hnd' HC') (IHc stk par KFinally _ ltac:(discriminate) Hnd' HC') H HC Hk Htb Htc Hse Hse1 N1 ltac:(unfold need; lia)) as (mc3 & last3 & Ty3 & H3).
     fold m in H3. fold e in H3.
-    destruct (loop_tail bk r C (IHr bk C HC) f _ _ _ _ _ _ _ _ ltac:(unfold need; lia) Ty3 H3 Htr) as (mc' & last' & fl & Ty & H4).
+    destruct (loop_tail stk par bk r C (IHr stk par bk C Hsk Hnd HC) f _ _ _ _ _ _ _ _ _ ltac:(unfold need; lia) eq_refl Ty3 H3 Htr) as (mc' & last' & fl & Ty & H4).
     exists mc', last', fl. split; [exact Ty|].
-    cbn [expected]. cbv zeta. replace (k + 1) with (S k) by lia. fold m. replace (m + 1) with (S m) by lia. fold e.
+    cbn [pexpected]. cbv zeta. replace (k + 1) with (S k) by lia. fold m. replace (m + 1) with (S m) by lia. fold e.
     replace (e + 1) with (S e) by lia. replace (e + 2) with (S (S e)) by lia.
     replace (k + S (length (render b ++ tFinally :: render c ++ tEnd :: tSemi :: render r))) with (S (S e) + length (render r))
       by (rewrite !app_length; cbn [length]; rewrite app_length; cbn [length]; unfold e, m; lia).
-    eapply ST_lists; [exact H4| |]; cbn [map]; repeat (rewrite map_app; cbn [map]); cbn [map app ll_toks]; repeat (progress (cbn [app]; rewrite <- ?app_assoc)); reflexivity.
+    replace (length Ls + 1) with (S (length Ls)) by lia. fix_li r H4.
+    eapply (ST_lists stk); [exact H4| |]; cbn [map]; repeat (rewrite map_app; cbn [map]); cbn [map app ll_toks]; repeat (progress (cbn [app]; rewrite <- ?app_assoc)); reflexivity.
+  - (* try b except c end ; *)
+    intros b IHb c IHc r IHr stk par bk C Hsk Hnd HC f s k Ls M mc last lv a li Hf Hli H Ht; subst li; unfold Post.
+    unfold need in Hf. cbn [render length] in *. rewrite !app_length in Hf. cbn [length] in Hf. rewrite app_length in Hf. cbn [length] in Hf.
+    destruct f as [|f]; [lia|].
+    assert (Eq : (tTry :: render b ++ tExcept :: render c ++ tEnd :: tSemi :: render r) ++ [tTerm bk]
+                 = [tTry] ++ (render b ++ [tExcept]) ++ (render c ++ [tEnd]) ++ [tSemi] ++ (render r ++ [tTerm bk])).
+    { cbn [app]. rewrite <- !app_assoc. cbn [app]. rewrite <- !app_assoc. reflexivity. }
+    rewrite Eq in Ht.
+    pose proof (Ht 0 _ eq_refl) as Hk. rewrite Nat.add_0_r in Hk.
+    assert (Htb : toks_at (S k) (render b ++ [tExcept])).
+    { replace (S k) with (k + 1) by lia. eapply toks_at_prefix. apply (toks_at_shift k 1 [tTry]); [exact Ht|reflexivity]. }
+    set (m := S k + length (render b)).
+    assert (Ht2 : toks_at (S m) ((render c ++ [tEnd]) ++ [tSemi] ++ render r ++ [tTerm bk])).
+    { replace (S m) with (k + 1 + length (render b ++ [tExcept])) by (rewrite app_length; cbn [length]; unfold m; lia).
+      apply (toks_at_shift (k + 1) _ (render b ++ [tExcept])); [|reflexivity]. apply (toks_at_shift k 1 [tTry]); [exact Ht|reflexivity]. }
+    assert (Htc : toks_at (S m) (render c ++ [tEnd])) by (eapply toks_at_prefix; exact Ht2).
+    set (e := S m + length (render c)).
+    assert (Hts : toks_at (S e) ([tSemi] ++ render r ++ [tTerm bk])).
+    { replace (S e) with (S m + length (render c ++ [tEnd])) by (rewrite app_length; cbn [length]; unfold e; lia).
+      apply (toks_at_shift (S m) _ (render c ++ [tEnd])); [exact Ht2|reflexivity]. }
+    pose proof (toks_at_0 _ _ _ Hts eq_refl) as Hse.
+    assert (Htr : toks_at (S (S e)) (render r ++ [tTerm bk])).
+    { replace (S (S e)) with (S e + 1) by lia. apply (toks_at_shift (S e) 1 [tSemi]); [exact Hts|reflexivity]. }
+    destruct (head_tok bk r) as (t' & H0 & N1 & _). pose proof (toks_at_0 _ _ _ Htr H0) as Hse1.
+    unfold slc. rewrite (stmt_list_unfold _ _ _ _ _ (ST_err stk _ _ _ _ _ _ _ _ _ _ H)). cbv zeta.
+    change (ctx (CT_Statement (sk_of bk)) false P_semicolon (ParserGrammar.L 0)) with (cStk bk).
+    assert (HC' : first_parent (((cStk bk), false) :: (cBlk bk, false) :: C) = par) by (rewrite first_parent_St_blk; exact HC).
+    assert (Hnd' : notd ((cStk bk, false) :: (cBlk bk, false) :: C)) by (apply notd_St_blk, Hnd).
+    destruct (iter_tryexcept stk par bk b c f _ _ _ _ _ _ _ _ _ t' (IHb stk par KTryE _ ltac:(discriminate) Hnd' HC') (IHc stk par KExcept _ ltac:(discriminate) Hnd' HC') H HC Hk Htb Htc Hse Hse1 N1 ltac:(unfold need; lia)) as (mc3 & last3 & Ty3 & H3).
+    fold m in H3. fold e in H3.
+    destruct (loop_tail stk par bk r C (IHr stk par bk C Hsk Hnd HC) f _ _ _ _ _ _ _ _ _ ltac:(unfold need; lia) eq_refl Ty3 H3 Htr) as (mc' & last' & fl & Ty & H4).
+    exists mc', last', fl. split; [exact Ty|].
+    cbn [pexpected]. cbv zeta. replace (k + 1) with (S k) by lia. fold m. replace (m + 1) with (S m) by lia. fold e.
+    replace (e + 1) with (S e) by lia. replace (e + 2) with (S (S e)) by lia.
+    replace (k + S (length (render b ++ tExcept :: render c ++ tEnd :: tSemi :: render r))) with (S (S e) + length (render r))
+      by (rewrite !app_length; cbn [length]; rewrite app_length; cbn [length]; unfold e, m; lia).
+    replace (length Ls + 1) with (S (length Ls)) by lia. fix_li r H4.
+    eapply (ST_lists stk); [exact H4| |]; cbn [map]; repeat (rewrite map_app; cbn [map]); cbn [map app ll_toks]; repeat (progress (cbn [app]; rewrite <- ?app_assoc)); reflexivity.
+  - (* if Identifier then c ; *)
+    intros c IHc r IHr stk par bk C Hsk Hnd HC f s k Ls M mc last lv a li Hf Hli H Ht; subst li; unfold Post.
+    unfold need in Hf. cbn [render length] in *. rewrite app_length in Hf. cbn [length] in Hf. destruct f as [|f]; [lia|].
+    assert (Eq : (tIf :: tI :: tThen :: render_body c ++ tSemi :: render r) ++ [tTerm bk]
+                 = [tIf; tI; tThen] ++ (render_body c ++ [tSemi]) ++ (render r ++ [tTerm bk])).
+    { cbn [app]. rewrite <- !app_assoc. reflexivity. }
+    rewrite Eq in Ht.
+    pose proof (Ht 0 _ eq_refl) as Hk. rewrite Nat.add_0_r in Hk.
+    pose proof (Ht 1 _ eq_refl) as Hk1. replace (k + 1) with (S k) in Hk1 by lia.
+    pose proof (Ht 2 _ eq_refl) as Hk2. replace (k + 2) with (S (S k)) in Hk2 by lia.
+    assert (Ht3 : toks_at (S (S (S k))) ((render_body c ++ [tSemi]) ++ render r ++ [tTerm bk])).
+    { replace (S (S (S k))) with (k + 3) by lia. apply (toks_at_shift k 3 [tIf; tI; tThen]); [exact Ht|reflexivity]. }
+    assert (Htb : toks_at (S (S (S k))) (render_body c ++ [tSemi])) by (eapply toks_at_prefix; exact Ht3).
+    set (e := S (S (S k)) + length (render_body c)).
+    assert (Htr : toks_at (S e) (render r ++ [tTerm bk])).
+    { replace (S e) with (S (S (S k)) + length (render_body c ++ [tSemi])) by (rewrite app_length; cbn [length]; unfold e; lia).
+      apply (toks_at_shift _ _ (render_body c ++ [tSemi])); [exact Ht3|reflexivity]. }
+    destruct (head_tok bk r) as (t' & H0 & N1 & _). pose proof (toks_at_0 _ _ _ Htr H0) as Hse1.
+    pose proof (head_tok_ne_eof bk r t' H0) as NE.
+    unfold slc. rewrite (stmt_list_unfold _ _ _ _ _ (ST_err stk _ _ _ _ _ _ _ _ _ _ H)). cbv zeta.
+    change (ctx (CT_Statement (sk_of bk)) false P_semicolon (ParserGrammar.L 0)) with (cStk bk).
+    pose proof (iter_if stk par bk c f _ _ _ _ _ _ _ _ _ t' (fun b Hb => IHc b Hb _ _ KBegin _ ltac:(discriminate) (notd_Xc _ _ _ _ Hnd) eq_refl) H HC Hk Hk1 Hk2 Htb Hse1 N1 NE ltac:(lia)) as H3.
+    cbv zeta in H3. fold e in H3.
+    pose proof (fun Hty => loop_tail stk par bk r C (IHr stk par bk C Hsk Hnd HC) f _ _ _ _ _ _ _ _ _ ltac:(unfold need; lia) eq_refl Hty H3 Htr) as LT.
+    destruct (LT eq_refl) as (mc' & last' & fl & Ty & H4).
+    exists mc', last', fl. split; [exact Ty|].
+    cbn [pexpected]. cbv zeta. replace (k + 1) with (S k) by lia. replace (k + 2) with (S (S k)) by lia. replace (k + 3) with (S (S (S k))) by lia.
+    fold e. replace (e + 1) with (S e) by lia. replace (length Ls + 1) with (S (length Ls)) by lia.
+    replace (k + S (S (S (length (render_body c ++ tSemi :: render r))))) with (S e + length (render r))
+      by (rewrite app_length; cbn [length]; unfold e; lia).
+    fix_li r H4.
+    eapply (ST_lists stk); [exact H4| |]; cbn [map]; repeat (rewrite map_app; cbn [map]); cbn [map app ll_toks]; repeat (progress (cbn [app]; rewrite <- ?app_assoc)); reflexivity.
+  - (* if Identifier then c1 else c2 ; *)
+    intros c1 IHc1 c2 IHc2 r IHr stk par bk C Hsk Hnd HC f s k Ls M mc last lv a li Hf Hli H Ht; subst li; unfold Post.
+    unfold need in Hf. cbn [render length] in *. rewrite !app_length in Hf. cbn [length] in Hf. rewrite app_length in Hf. cbn [length] in Hf.
+    destruct f as [|f]; [lia|].
+    assert (Eq : (tIf :: tI :: tThen :: render_body c1 ++ tElse :: render_body c2 ++ tSemi :: render r) ++ [tTerm bk]
+                 = [tIf; tI; tThen] ++ (render_body c1 ++ [tElse]) ++ (render_body c2 ++ [tSemi]) ++ (render r ++ [tTerm bk])).
+    { cbn [app]. rewrite <- !app_assoc. cbn [app]. rewrite <- !app_assoc. reflexivity. }
+    rewrite Eq in Ht.
+    pose proof (Ht 0 _ eq_refl) as Hk. rewrite Nat.add_0_r in Hk.
+    pose proof (Ht 1 _ eq_refl) as Hk1. replace (k + 1) with (S k) in Hk1 by lia.
+    pose proof (Ht 2 _ eq_refl) as Hk2. replace (k + 2) with (S (S k)) in Hk2 by lia.
+    assert (Ht3 : toks_at (S (S (S k))) ((render_body c1 ++ [tElse]) ++ (render_body c2 ++ [tSemi]) ++ render r ++ [tTerm bk])).
+    { replace (S (S (S k))) with (k + 3) by lia. apply (toks_at_shift k 3 [tIf; tI; tThen]); [exact Ht|reflexivity]. }
+    assert (Htb1 : toks_at (S (S (S k))) (render_body c1 ++ [tElse])) by (eapply toks_at_prefix; exact Ht3).
+    set (el := S (S (S k)) + length (render_body c1)).
+    assert (Ht4 : toks_at (S el) ((render_body c2 ++ [tSemi]) ++ render r ++ [tTerm bk])).
+    { replace (S el) with (S (S (S k)) + length (render_body c1 ++ [tElse])) by (rewrite app_length; cbn [length]; unfold el; lia).
+      apply (toks_at_shift _ _ (render_body c1 ++ [tElse])); [exact Ht3|reflexivity]. }
+    assert (Htb2 : toks_at (S el) (render_body c2 ++ [tSemi])) by (eapply toks_at_prefix; exact Ht4).
+    set (e := S el + length (render_body c2)).
+    assert (Htr : toks_at (S e) (render r ++ [tTerm bk])).
+    { replace (S e) with (S el + length (render_body c2 ++ [tSemi])) by (rewrite app_length; cbn [length]; unfold e; lia).
+      apply (toks_at_shift _ _ (render_body c2 ++ [tSemi])); [exact Ht4|reflexivity]. }
+    destruct (head_tok bk r) as (t' & H0 & N1 & _). pose proof (toks_at_0 _ _ _ Htr H0) as Hse1.
+    pose proof (head_tok_ne_eof bk r t' H0) as NE.
+    unfold slc. rewrite (stmt_list_unfold _ _ _ _ _ (ST_err stk _ _ _ _ _ _ _ _ _ _ H)). cbv zeta.
+    change (ctx (CT_Statement (sk_of bk)) false P_semicolon (ParserGrammar.L 0)) with (cStk bk).
+    pose proof (iter_ifelse stk par bk c1 c2 f _ _ _ _ _ _ _ _ _ t' el eq_refl (fun b Hb => IHc1 b Hb _ _ KBegin _ ltac:(discriminate) (notd_Xc _ _ _ _ Hnd) eq_refl)
+                  (fun b Hb => IHc2 b Hb _ _ KBegin _ ltac:(discriminate) (notd_Xc _ _ _ _ Hnd) eq_refl) H HC Hk Hk1 Hk2 Htb1 Htb2 Hse1 N1 NE ltac:(lia)) as H3.
+    cbv zeta in H3. fold e in H3.
+    pose proof (fun Hty => loop_tail stk par bk r C (IHr stk par bk C Hsk Hnd HC) f _ _ _ _ _ _ _ _ _ ltac:(unfold need; lia) eq_refl Hty H3 Htr) as LT.
+    destruct (LT eq_refl) as (mc' & last' & fl & Ty & H4).
+    exists mc', last', fl. split; [exact Ty|].
+    cbn [pexpected]. cbv zeta. replace (k + 1) with (S k) by lia. replace (k + 2) with (S (S k)) by lia. replace (k + 3) with (S (S (S k))) by lia.
+    fold el. replace (el + 1) with (S el) by lia. fold e. replace (e + 1) with (S e) by lia. replace (length Ls + 1) with (S (length Ls)) by lia.
+    replace (k + S (S (S (length (render_body c1 ++ tElse :: render_body c2 ++ tSemi :: render r))))) with (S e + length (render r))
+      by (rewrite !app_length; cbn [length]; rewrite app_length; cbn [length]; unfold e, el; lia).
+    fix_li r H4.
+    eapply (ST_lists stk); [exact H4| |]; cbn [map]; repeat (rewrite map_app; cbn [map]); cbn [map app ll_toks]; repeat (progress (cbn [app]; rewrite <- ?app_assoc)); reflexivity.
+  - (* while Identifier do c ; *)
+    intros c IHc r IHr stk par bk C Hsk Hnd HC f s k Ls M mc last lv a li Hf Hli H Ht; subst li; unfold Post.
+    unfold need in Hf. cbn [render length] in *. rewrite app_length in Hf. cbn [length] in Hf. destruct f as [|f]; [lia|].
+    assert (Eq : (tWhile :: tI :: tDo :: render_body c ++ tSemi :: render r) ++ [tTerm bk]
+                 = [tWhile; tI; tDo] ++ (render_body c ++ [tSemi]) ++ (render r ++ [tTerm bk])).
+    { cbn [app]. rewrite <- !app_assoc. reflexivity. }
+    rewrite Eq in Ht.
+    pose proof (Ht 0 _ eq_refl) as Hk. rewrite Nat.add_0_r in Hk.
+    pose proof (Ht 1 _ eq_refl) as Hk1. replace (k + 1) with (S k) in Hk1 by lia.
+    pose proof (Ht 2 _ eq_refl) as Hk2. replace (k + 2) with (S (S k)) in Hk2 by lia.
+    assert (Ht3 : toks_at (S (S (S k))) ((render_body c ++ [tSemi]) ++ render r ++ [tTerm bk])).
+    { replace (S (S (S k))) with (k + 3) by lia. apply (toks_at_shift k 3 [tWhile; tI; tDo]); [exact Ht|reflexivity]. }
+    assert (Htb : toks_at (S (S (S k))) (render_body c ++ [tSemi])) by (eapply toks_at_prefix; exact Ht3).
+    set (e := S (S (S k)) + length (render_body c)).
+    assert (Htr : toks_at (S e) (render r ++ [tTerm bk])).
+    { replace (S e) with (S (S (S k)) + length (render_body c ++ [tSemi])) by (rewrite app_length; cbn [length]; unfold e; lia).
+      apply (toks_at_shift _ _ (render_body c ++ [tSemi])); [exact Ht3|reflexivity]. }
+    destruct (head_tok bk r) as (t' & H0 & N1 & _). pose proof (toks_at_0 _ _ _ Htr H0) as Hse1.
+    pose proof (head_tok_ne_eof bk r t' H0) as NE.
+    unfold slc. rewrite (stmt_list_unfold _ _ _ _ _ (ST_err stk _ _ _ _ _ _ _ _ _ _ H)). cbv zeta.
+    change (ctx (CT_Statement (sk_of bk)) false P_semicolon (ParserGrammar.L 0)) with (cStk bk).
+    pose proof (iter_while stk par bk c f _ _ _ _ _ _ _ _ _ t' (fun b Hb => IHc b Hb _ _ KBegin _ ltac:(discriminate) (notd_Xc _ _ _ _ Hnd) eq_refl) H HC Hk Hk1 Hk2 Htb Hse1 N1 NE ltac:(lia)) as H3.
+    cbv zeta in H3. fold e in H3.
+    pose proof (fun Hty => loop_tail stk par bk r C (IHr stk par bk C Hsk Hnd HC) f _ _ _ _ _ _ _ _ _ ltac:(unfold need; lia) eq_refl Hty H3 Htr) as LT.
+    destruct (LT eq_refl) as (mc' & last' & fl & Ty & H4).
+    exists mc', last', fl. split; [exact Ty|].
+    cbn [pexpected]. cbv zeta. replace (k + 1) with (S k) by lia. replace (k + 2) with (S (S k)) by lia. replace (k + 3) with (S (S (S k))) by lia.
+    fold e. replace (e + 1) with (S e) by lia. replace (length Ls + 1) with (S (length Ls)) by lia.
+    replace (k + S (S (S (length (render_body c ++ tSemi :: render r))))) with (S e + length (render r))
+      by (rewrite app_length; cbn [length]; unfold e; lia).
+    fix_li r H4.
+    eapply (ST_lists stk); [exact H4| |]; cbn [map]; repeat (rewrite map_app; cbn [map]); cbn [map app ll_toks]; repeat (progress (cbn [app]; rewrite <- ?app_assoc)); reflexivity.
+  - (* case Identifier of a end ; *)
+    intros a IHa r IHr stk par bk C Hsk Hnd HC f s k Ls M mc last lv a0 li Hf Hli H Ht; subst li; unfold Post.
+    unfold need in Hf. cbn [render length] in *. rewrite app_length in Hf. cbn [length] in Hf. destruct f as [|f]; [lia|].
+    assert (Eq : (tCase :: tI :: tOf :: render_arms a ++ tEnd :: tSemi :: render r) ++ [tTerm bk]
+                 = [tCase; tI; tOf] ++ (render_arms a ++ [tEnd]) ++ [tSemi] ++ (render r ++ [tTerm bk])).
+    { cbn [app]. rewrite <- !app_assoc. reflexivity. }
+    rewrite Eq in Ht.
+    pose proof (Ht 0 _ eq_refl) as Hk. rewrite Nat.add_0_r in Hk.
+    pose proof (Ht 1 _ eq_refl) as Hk1. replace (k + 1) with (S k) in Hk1 by lia.
+    pose proof (Ht 2 _ eq_refl) as Hk2. replace (k + 2) with (S (S k)) in Hk2 by lia.
+    assert (Ht3 : toks_at (S (S (S k))) ((render_arms a ++ [tEnd]) ++ [tSemi] ++ render r ++ [tTerm bk])).
+    { replace (S (S (S k))) with (k + 3) by lia. apply (toks_at_shift k 3 [tCase; tI; tOf]); [exact Ht|reflexivity]. }
+    assert (Hb : toks_at (S (S (S k))) (render_arms a ++ [tEnd])) by (eapply toks_at_prefix; exact Ht3).
+    set (ke := S (S (S k)) + length (render_arms a)).
+    assert (Hts : toks_at (S ke) ([tSemi] ++ render r ++ [tTerm bk])).
+    { replace (S ke) with (S (S (S k)) + length (render_arms a ++ [tEnd])) by (rewrite app_length; cbn [length]; unfold ke; lia).
+      apply (toks_at_shift _ _ (render_arms a ++ [tEnd])); [exact Ht3|reflexivity]. }
+    pose proof (toks_at_0 _ _ _ Hts eq_refl) as Hse.
+    assert (Htr : toks_at (S (S ke)) (render r ++ [tTerm bk])).
+    { replace (S (S ke)) with (S ke + 1) by lia. apply (toks_at_shift (S ke) 1 [tSemi]); [exact Hts|reflexivity]. }
+    destruct (head_tok bk r) as (t' & H0 & N1 & _). pose proof (toks_at_0 _ _ _ Htr H0) as Hse1.
+    unfold slc. rewrite (stmt_list_unfold _ _ _ _ _ (ST_err stk _ _ _ _ _ _ _ _ _ _ H)). cbv zeta.
+    change (ctx (CT_Statement (sk_of bk)) false P_semicolon (ParserGrammar.L 0)) with (cStk bk).
+    destruct (iter_case stk par bk a f _ _ _ _ _ _ _ _ _ t' IHa Hnd H HC Hk Hk1 Hk2 Hb Hse Hse1 N1 ltac:(unfold need_arms; lia)) as (mc3 & last3 & Ty3 & H3).
+    cbv zeta in H3. fold ke in H3.
+    destruct (loop_tail stk par bk r C (IHr stk par bk C Hsk Hnd HC) f _ _ _ _ _ _ _ _ _ ltac:(unfold need; lia) eq_refl Ty3 H3 Htr) as (mc' & last' & fl & Ty & H4).
+    exists mc', last', fl. split; [exact Ty|].
+    cbn [pexpected]. rewrite arms_lines_eq. cbv beta.
+    replace (k + 1) with (S k) by lia. replace (k + 2) with (S (S k)) by lia. replace (k + 3) with (S (S (S k))) by lia.
+    fold ke. replace (ke + 1) with (S ke) by lia. replace (ke + 2) with (S (S ke)) by lia.
+    replace (k + S (S (S (length (render_arms a ++ tEnd :: tSemi :: render r))))) with (S (S ke) + length (render r))
+      by (rewrite app_length; cbn [length]; unfold ke; lia).
+    rewrite !(arms_li_eq a par (1 + plain_sum C)) in *.
+    fix_li r H4.
+    eapply (ST_lists stk); [exact H4| |]; cbn [map]; repeat (rewrite map_app; cbn [map]); cbn [map app ll_toks]; repeat (progress (cbn [app]; rewrite <- ?app_assoc)); reflexivity.
+  - (* case Identifier of a else e end ; *)
+    intros a IHa e IHe r IHr stk par bk C Hsk Hnd HC f s k Ls M mc last lv a0 li Hf Hli H Ht; subst li; unfold Post.
+    unfold need in Hf. cbn [render length] in *. rewrite !app_length in Hf. cbn [length] in Hf. rewrite app_length in Hf. cbn [length] in Hf.
+    destruct f as [|f]; [lia|].
+    assert (Eq : (tCase :: tI :: tOf :: render_arms a ++ tElse :: render e ++ tEnd :: tSemi :: render r) ++ [tTerm bk]
+                 = [tCase; tI; tOf] ++ (render_arms a ++ [tElse]) ++ (render e ++ [tEnd]) ++ [tSemi] ++ (render r ++ [tTerm bk])).
+    { cbn [app]. rewrite <- !app_assoc. cbn [app]. rewrite <- !app_assoc. reflexivity. }
+    rewrite Eq in Ht.
+    pose proof (Ht 0 _ eq_refl) as Hk. rewrite Nat.add_0_r in Hk.
+    pose proof (Ht 1 _ eq_refl) as Hk1. replace (k + 1) with (S k) in Hk1 by lia.
+    pose proof (Ht 2 _ eq_refl) as Hk2. replace (k + 2) with (S (S k)) in Hk2 by lia.
+    assert (Ht3 : toks_at (S (S (S k))) ((render_arms a ++ [tElse]) ++ (render e ++ [tEnd]) ++ [tSemi] ++ render r ++ [tTerm bk])).
+    { replace (S (S (S k))) with (k + 3) by lia. apply (toks_at_shift k 3 [tCase; tI; tOf]); [exact Ht|reflexivity]. }
+    assert (Hb : toks_at (S (S (S k))) (render_arms a ++ [tElse])) by (eapply toks_at_prefix; exact Ht3).
+    set (ke := S (S (S k)) + length (render_arms a)).
+    assert (Ht4 : toks_at (S ke) ((render e ++ [tEnd]) ++ [tSemi] ++ render r ++ [tTerm bk])).
+    { replace (S ke) with (S (S (S k)) + length (render_arms a ++ [tElse])) by (rewrite app_length; cbn [length]; unfold ke; lia).
+      apply (toks_at_shift _ _ (render_arms a ++ [tElse])); [exact Ht3|reflexivity]. }
+    assert (Hbe : toks_at (S ke) (render e ++ [tEnd])) by (eapply toks_at_prefix; exact Ht4).
+    set (kee := S ke + length (render e)).
+    assert (Hts : toks_at (S kee) ([tSemi] ++ render r ++ [tTerm bk])).
+    { replace (S kee) with (S ke + length (render e ++ [tEnd])) by (rewrite app_length; cbn [length]; unfold kee; lia).
+      apply (toks_at_shift _ _ (render e ++ [tEnd])); [exact Ht4|reflexivity]. }
+    pose proof (toks_at_0 _ _ _ Hts eq_refl) as Hse.
+    assert (Htr : toks_at (S (S kee)) (render r ++ [tTerm bk])).
+    { replace (S (S kee)) with (S kee + 1) by lia. apply (toks_at_shift (S kee) 1 [tSemi]); [exact Hts|reflexivity]. }
+    destruct (head_tok bk r) as (t' & H0 & N1 & _). pose proof (toks_at_0 _ _ _ Htr H0) as Hse1.
+    unfold slc. rewrite (stmt_list_unfold _ _ _ _ _ (ST_err stk _ _ _ _ _ _ _ _ _ _ H)). cbv zeta.
+    change (ctx (CT_Statement (sk_of bk)) false P_semicolon (ParserGrammar.L 0)) with (cStk bk).
+    assert (HC' : first_parent ((cStk bk, false) :: (cBlk bk, false) :: C) = par) by (rewrite first_parent_St_blk; exact HC).
+    assert (Hnd' : notd ((cStk bk, false) :: (cBlk bk, false) :: C)) by (apply notd_St_blk, Hnd).
+    destruct (iter_caseelse stk par bk a e f _ _ _ _ _ _ _ _ _ t' IHa (IHe stk par KElse _ ltac:(discriminate) Hnd' HC') Hnd H HC Hk Hk1 Hk2 Hb Hbe Hse Hse1 N1
+                ltac:(unfold need_arms, need; lia)) as (mc3 & last3 & Ty3 & H3).
+    cbv zeta in H3. fold ke in H3. fold kee in H3.
+    destruct (loop_tail stk par bk r C (IHr stk par bk C Hsk Hnd HC) f _ _ _ _ _ _ _ _ _ ltac:(unfold need; lia) eq_refl Ty3 H3 Htr) as (mc' & last' & fl & Ty & H4).
+    exists mc', last', fl. split; [exact Ty|].
+    cbn [pexpected]. rewrite arms_lines_eq. cbv beta zeta.
+    replace (k + 1) with (S k) by lia. replace (k + 2) with (S (S k)) by lia. replace (k + 3) with (S (S (S k))) by lia.
+    fold ke. replace (ke + 1) with (S ke) by lia. fold kee. replace (kee + 1) with (S kee) by lia. replace (kee + 2) with (S (S kee)) by lia.
+    replace (k + S (S (S (length (render_arms a ++ tElse :: render e ++ tEnd :: tSemi :: render r))))) with (S (S kee) + length (render r))
+      by (rewrite !app_length; cbn [length]; rewrite app_length; cbn [length]; unfold kee, ke; lia).
+    rewrite !(arms_li_eq a par (1 + plain_sum C)) in *.
+    fix_li r H4.
+    eapply (ST_lists stk); [exact H4| |]; cbn [map]; repeat (rewrite map_app; cbn [map]); cbn [map app ll_toks]; repeat (progress (cbn [app]; rewrite <- ?app_assoc)); reflexivity.
+  - intros b Hb. discriminate.
+  - intros b Hb. discriminate.
+  - intros b IHb b' Hb'. injection Hb' as <-. exact IHb.
+  - exact arms_nil_run.
+  - intros c Qc a' IHa. exact (arms_cons_run c a' Qc IHa).
 Qed.
-
 (* ---------------- a whole program: `begin` ss `end` `.` Eof *)
 Theorem prog_run ss f s0 mc0 last0 lv a :
-  ST s0 0 [] [] [] mc0 last0 [] lv a ->
+  ST [] s0 0 [] [] [] mc0 last0 [] lv a ->
   nth_error T 0 = Some tBegin -> toks_at 1 (render ss ++ [tEnd]) ->
   nth_error T (S (S (length (render ss)))) = Some tDot ->
   nth_error T (S (S (S (length (render ss))))) = Some RTT_Eof ->
@@ -1114,66 +2907,67 @@ Theorem prog_run ss f s0 mc0 last0 lv a :
   8 + need ss <= f ->
   let e := S (length (render ss)) in
   exists mc' last',
-    ST (RUN f C_top s0) n
-       ([0] :: map ll_toks (expected 1 1 ss) ++ [[e; S e]; [S (S e)]]) []
-       (mkLM None 0%N LLT_Unknown :: map meta_of (expected 1 1 ss) ++ [mkLM None 0%N LLT_Unknown; mkLM None 0%N LLT_Eof])
+    ST [] (RUN f C_top s0) n
+       ([0] :: map ll_toks (pexpected None 1 1 1 ss) ++ [[e; S e]; [S (S e)]]) []
+       (mkLM None 0%N LLT_Unknown :: map meta_of (pexpected None 1 1 1 ss) ++ [mkLM None 0%N LLT_Unknown; mkLM None 0%N LLT_Eof])
        mc' last' [] lv a.
 Proof.
   intros H Ht0 Htb HtD HtE Hn Hf e.
   destruct f as [|[|[|[|[|[|[|f]]]]]]]; try lia.
   assert (H0n : 0 < n) by lia.
-  rewrite (run_S _ C_top _ (ST_err _ _ _ _ _ _ _ _ _ _ H)). unfold arm_top. cbv zeta.
+  rewrite (run_S _ C_top _ (ST_err (@nil nat) _ _ _ _ _ _ _ _ _ _ H)). unfold arm_top. cbv zeta.
   (* the top-level loop: one iteration *)
-  rewrite (stmt_list_unfold _ _ _ _ _ (ST_err _ _ _ _ _ _ _ _ _ _ H)). cbv zeta.
+  rewrite (stmt_list_unfold _ _ _ _ _ (ST_err (@nil nat) _ _ _ _ _ _ _ _ _ _ H)). cbv zeta.
   change (ctx CT_TopLevelStatement true P_top_semicolon (ParserGrammar.L 0)) with cTop.
-  rewrite (with_ctx_structures _ cTop s0 (ST_err _ _ _ _ _ _ _ _ _ _ H) eq_refl).
-  pose proof (finish_empty_ST _ _ _ _ _ _ _ _ _ H) as H0.
-  pose proof (push_ctx_ST cTop _ _ _ _ _ _ _ _ _ _ H0) as H1.
-  rewrite (run_S _ C_structures _ (ST_err _ _ _ _ _ _ _ _ _ _ H1)).
-  unfold arm_structures. rewrite (ST_cur_tt _ _ _ _ _ _ _ _ _ _ _ H1 Ht0). cbn [tBegin].
+  rewrite (with_ctx_structures _ cTop s0 (ST_err (@nil nat) _ _ _ _ _ _ _ _ _ _ H) eq_refl).
+  pose proof (finish_empty_ST (@nil nat) _ _ _ _ _ _ _ _ _ H) as H0.
+  pose proof (push_ctx_ST (@nil nat) cTop _ _ _ _ _ _ _ _ _ _ H0) as H1.
+  rewrite (run_S _ C_structures _ (ST_err (@nil nat) _ _ _ _ _ _ _ _ _ _ H1)).
+  unfold arm_structures. rewrite (ST_cur_tt (@nil nat) _ _ _ _ _ _ _ _ _ _ _ H1 Ht0). cbn [tBegin].
   assert (E1 : ending_ctx pass (push_ctx pass cTop (finish_logical_line pass s0)) = None).
-  { unfold ending_ctx. rewrite (ST_ctx _ _ _ _ _ _ _ _ _ _ H1). cbn [ending_go cTop ctx c_pred c_opaque eval_pred].
-    rewrite (ST_cur_tt _ _ _ _ _ _ _ _ _ _ _ H1 Ht0). reflexivity. }
+  { unfold ending_ctx. rewrite (ST_ctx (@nil nat) _ _ _ _ _ _ _ _ _ _ H1). cbn [ending_go cTop ctx c_pred c_opaque eval_pred].
+    rewrite (ST_cur_tt (@nil nat) _ _ _ _ _ _ _ _ _ _ _ H1 Ht0). reflexivity. }
   rewrite E1. cbn [sarm_of]. cbv delta [sa_begin stmt_block] beta.
-  pose proof (next_token_ST _ _ _ _ _ _ _ _ _ _ H1 H0n) as H2. cbn [app] in H2.
+  pose proof (next_token_ST (@nil nat) _ _ _ _ _ _ _ _ _ _ H1 H0n) as H2. cbn [app] in H2.
   change (ctx (CT_StatementBlock BK_Begin) true P_end (ParserGrammar.L 1)) with (cBlk KBegin).
-  rewrite (run_S _ (C_stmt_block (cBlk KBegin) SK_Normal) _ (ST_err _ _ _ _ _ _ _ _ _ _ H2)). unfold arm_stmt_block.
-  rewrite (with_ctx_stmt_list _ (cBlk KBegin) _ _ (ST_err _ _ _ _ _ _ _ _ _ _ H2) eq_refl).
-  pose proof (finish_ST _ _ _ _ _ _ _ _ _ _ H2 ltac:(discriminate)) as H3.
+  rewrite (run_S _ (C_stmt_block (cBlk KBegin) SK_Normal) _ (ST_err (@nil nat) _ _ _ _ _ _ _ _ _ _ H2)). unfold arm_stmt_block.
+  rewrite (with_ctx_stmt_list _ (cBlk KBegin) _ _ (ST_err (@nil nat) _ _ _ _ _ _ _ _ _ _ H2) eq_refl).
+  pose proof (finish_ST (@nil nat) _ _ _ _ _ _ _ _ _ _ H2 ltac:(discriminate)) as H3.
   cbn [first_parent plain_sum cTop ctx c_level ParserGrammar.L lm_type app length] in H3.
   change (clamp_u16 (0 + 0)) with 0%N in H3.
-  pose proof (push_ctx_ST (cBlk KBegin) _ _ _ _ _ _ _ _ _ _ H3) as H4.
-  destruct (stmts_run ss KBegin [(cTop, false)] eq_refl (S f) _ _ _ _ _ _ _ _ ltac:(lia) H4 Htb) as (mcb & lastb & flb & Tyb & H5).
-  change (C_stmt_list (CT_Statement SK_Normal) false P_semicolon) with stmt_list_call.
+  pose proof (push_ctx_ST (@nil nat) (cBlk KBegin) _ _ _ _ _ _ _ _ _ _ H3) as H4.
+  pose proof (fun Hli => stmts_run ss [] None KBegin [(cTop, false)] ltac:(discriminate) eq_refl eq_refl (S f) _ _ _ _ _ _ _ _ 1 ltac:(lia) Hli H4 Htb) as SRn.
+  destruct (SRn eq_refl) as (mcb & lastb & flb & Tyb & H5).
+  change (C_stmt_list (CT_Statement SK_Normal) false P_semicolon) with (slc KBegin).
   cbn [plain_sum cTop ctx c_level ParserGrammar.L] in H5. change (1 + (0 + 0))%Z with 1%Z in H5.
-  pose proof (pop_ctx_ST _ _ _ _ _ _ _ _ _ _ _ H5) as H6.
+  pose proof (pop_ctx_ST (@nil nat) _ _ _ _ _ _ _ _ _ _ _ H5) as H6.
   change (1 + length (render ss)) with e in H6.
-  set (sB := pop_ctx pass (RUN (S f) stmt_list_call (push_ctx pass (cBlk KBegin) (finish_logical_line pass (next_token pass (push_ctx pass cTop (finish_logical_line pass s0))))))) in *.
+  set (sB := pop_ctx pass (RUN (S f) (slc KBegin) (push_ctx pass (cBlk KBegin) (finish_logical_line pass (next_token pass (push_ctx pass cTop (finish_logical_line pass s0))))))) in *.
   assert (He : nth_error T e = Some tEnd).
   { specialize (Htb (length (render ss)) tEnd). rewrite nth_error_app2, Nat.sub_diag in Htb by lia. exact (Htb eq_refl). }
   assert (Hen : e < n) by (unfold e; lia). assert (Hen1 : S e < n) by (unfold e; lia). assert (Hen2 : S (S e) < n) by (unfold e; lia).
-  rewrite (ST_cur_tt _ _ _ _ _ _ _ _ _ _ _ H6 He). cbn [tEnd o_kw_end].
-  pose proof (next_token_ST _ _ _ _ _ _ _ _ _ _ H6 Hen) as H7. cbn [app] in H7.
-  rewrite (ST_cur_tt _ _ _ _ _ _ _ _ _ _ _ H7 HtD). cbn [tDot o_dot].
-  pose proof (next_token_ST _ _ _ _ _ _ _ _ _ _ H7 Hen1) as H8. cbn [app] in H8.
-  pose proof (finish_ST _ _ _ _ _ _ _ _ _ _ H8 ltac:(discriminate)) as H9.
+  rewrite (ST_cur_tt (@nil nat) _ _ _ _ _ _ _ _ _ _ _ H6 He). cbn [tEnd o_kw_end].
+  pose proof (next_token_ST (@nil nat) _ _ _ _ _ _ _ _ _ _ H6 Hen) as H7. cbn [app] in H7.
+  rewrite (ST_cur_tt (@nil nat) _ _ _ _ _ _ _ _ _ _ _ H7 HtD). cbn [tDot o_dot].
+  pose proof (next_token_ST (@nil nat) _ _ _ _ _ _ _ _ _ _ H7 Hen1) as H8. cbn [app] in H8.
+  pose proof (finish_ST (@nil nat) _ _ _ _ _ _ _ _ _ _ H8 ltac:(discriminate)) as H9.
   cbn [first_parent plain_sum cTop ctx c_level ParserGrammar.L] in H9. rewrite Tyb in H9.
   change (clamp_u16 (0 + 0)) with 0%N in H9.
   unfold s_loop.
-  rewrite (run_S _ C_structures _ (ST_err _ _ _ _ _ _ _ _ _ _ H9)).
-  unfold arm_structures. rewrite (ST_cur_tt _ _ _ _ _ _ _ _ _ _ _ H9 HtE).
-  pose proof (pop_ctx_ST _ _ _ _ _ _ _ _ _ _ _ H9) as H10.
-  pose proof (finish_empty_ST _ _ _ _ _ _ _ _ _ H10) as H11.
-  rewrite (take_separators_noop _ _ _ _ _ _ _ _ _ _ _ RTT_Eof H11 HtE) by discriminate.
-  rewrite (ST_cur_tt _ _ _ _ _ _ _ _ _ _ _ H11 HtE). rewrite orb_true_r.
+  rewrite (run_S _ C_structures _ (ST_err (@nil nat) _ _ _ _ _ _ _ _ _ _ H9)).
+  unfold arm_structures. rewrite (ST_cur_tt (@nil nat) _ _ _ _ _ _ _ _ _ _ _ H9 HtE).
+  pose proof (pop_ctx_ST (@nil nat) _ _ _ _ _ _ _ _ _ _ _ H9) as H10.
+  pose proof (finish_empty_ST (@nil nat) _ _ _ _ _ _ _ _ _ H10) as H11.
+  rewrite (take_separators_noop (@nil nat) _ _ _ _ _ _ _ _ _ _ _ RTT_Eof H11 HtE) by discriminate.
+  rewrite (ST_cur_tt (@nil nat) _ _ _ _ _ _ _ _ _ _ _ H11 HtE). rewrite orb_true_r.
   (* the Eof line *)
-  pose proof (finish_empty_ST _ _ _ _ _ _ _ _ _ H11) as H12.
-  pose proof (next_token_ST _ _ _ _ _ _ _ _ _ _ H12 Hen2) as H13. cbn [app] in H13.
-  pose proof (set_line_type_ST LLT_Eof _ _ _ _ _ _ _ _ _ _ H13) as H14.
-  pose proof (finish_ST _ _ _ _ _ _ _ _ _ _ H14 ltac:(discriminate)) as H15.
+  pose proof (finish_empty_ST (@nil nat) _ _ _ _ _ _ _ _ _ H11) as H12.
+  pose proof (next_token_ST (@nil nat) _ _ _ _ _ _ _ _ _ _ H12 Hen2) as H13. cbn [app] in H13.
+  pose proof (set_line_type_ST (@nil nat) LLT_Eof _ _ _ _ _ _ _ _ _ _ H13) as H14.
+  pose proof (finish_ST (@nil nat) _ _ _ _ _ _ _ _ _ _ H14 ltac:(discriminate)) as H15.
   cbn [first_parent plain_sum lm_type] in H15. change (clamp_u16 0) with 0%N in H15.
   assert (Hn' : S (S (S e)) = n) by (unfold e; lia). rewrite Hn' in H15.
-  eexists _, _. eapply ST_lists.
+  eexists _, _. eapply (ST_lists []).
   - exact H15.
   - cbn [app]. repeat (progress (cbn [app]; rewrite <- ?app_assoc)). reflexivity.
   - cbn [app]. repeat (progress (cbn [app]; rewrite <- ?app_assoc)). reflexivity.
@@ -1185,14 +2979,9 @@ End Frag.
 (* instantiation: T := render_prog ss *)
 Lemma render_plain ss : Forall plain (render ss).
 Proof.
-  induction ss as [|r IH|r IH|b IHb r IHr|b IHb r IHr|b IHb c IHc r IHr]; cbn [render].
-  - constructor.
-  - repeat (constructor; [exact I|]). exact IH.
-  - repeat (constructor; [exact I|]). exact IH.
-  - constructor; [exact I|]. apply Forall_app. split; [exact IHb|]. repeat (constructor; [exact I|]). exact IHr.
-  - constructor; [exact I|]. apply Forall_app. split; [exact IHb|]. repeat (constructor; [exact I|]). exact IHr.
-  - constructor; [exact I|]. apply Forall_app. split; [exact IHb|]. constructor; [exact I|].
-    apply Forall_app. split; [exact IHc|]. repeat (constructor; [exact I|]). exact IHr.
+  apply (stmts_mut (fun ss => Forall plain (render ss)) (fun c => Forall plain (render_body c)) (fun a => Forall plain (render_arms a)));
+    cbn [render render_body render_arms]; intros.
+  all: repeat (first [ exact I | assumption | apply Forall_nil | apply Forall_cons | (apply Forall_app; split) ]).
 Qed.
 Lemma render_prog_plain ss : Forall plain (render_prog ss).
 Proof.
@@ -1208,8 +2997,8 @@ Lemma combine_app {A B} (l1 l1' : list A) (l2 l2' : list B) : length l1 = length
   combine (l1 ++ l1') (l2 ++ l2') = combine l1 l2 ++ combine l1' l2'.
 Proof. revert l2. induction l1 as [|a l1 IH]; intros [|b l2] H; cbn in *; try lia; [reflexivity|]. rewrite IH by lia. reflexivity. Qed.
 
-Lemma pass_lines_ST T s k Ls c M mc last cx lv a :
-  ST T s k Ls c M mc last cx lv a ->
+Lemma pass_lines_ST T stk s k Ls c M mc last cx lv a :
+  ST T stk s k Ls c M mc last cx lv a ->
   pass_lines (seq 0 (length T)) s =
   map (fun p => mkLine (lm_type (snd p)) (lm_level (snd p)) (lm_parent (snd p)) (fst p)) (combine Ls M)
   ++ [mkLine (lm_type mc) (lm_level mc) (lm_parent mc) c].
@@ -1231,11 +3020,11 @@ Theorem fragment_parse_pass ss :
   let pass := seq 0 (length T) in
   ps_err pass (parse_pass pass [] T []) = None /\ pidx pass (parse_pass pass [] T []) = length pass
   /\ ps_toks pass (parse_pass pass [] T []) = T
-  /\ exists el, ll_toks el = [] /\ pass_lines pass (parse_pass pass [] T []) = expected_prog ss ++ [el].
+  /\ exists el, ll_toks el = [] /\ pass_lines pass (parse_pass pass [] T []) = pexpected_prog ss ++ [el].
 Proof.
   intros T pass.
   pose proof (render_prog_plain ss) as P. pose proof (render_prog_length ss) as Ln. fold T in P, Ln.
-  assert (H0 : ST T (ps_init pass T []) 0 [] [] [] lm0 0 [] (0%N, 0%N, 0%N) []).
+  assert (H0 : ST T [] (ps_init pass T []) 0 [] [] [] lm0 0 [] (0%N, 0%N, 0%N) []).
   { split; [reflexivity|]. split; [reflexivity|]. split; reflexivity. }
   assert (Ht0 : nth_error T 0 = Some tBegin) by reflexivity.
   assert (Htb : toks_at T 1 (render ss ++ [tEnd])).
@@ -1253,23 +3042,22 @@ Proof.
   unfold parse_pass. set (f := run_fuel pass) in *. clearbody f.
   destruct (prog_run T P ss f _ _ _ _ _ H0 Ht0 Htb HtD HtE Ln Hf) as (mc' & last' & H).
   fold pass in H. set (s := run pass [] f C_top (ps_init pass T [])) in *.
-  split; [exact (ST_err_none T _ _ _ _ _ _ _ _ _ _ H)|]. split; [|split; [exact (ST_toks T _ _ _ _ _ _ _ _ _ _ H)|]].
-  - transitivity (length T); [exact (ST_pidx T _ _ _ _ _ _ _ _ _ _ H)|unfold pass; rewrite seq_length; reflexivity].
+  split; [exact (ST_err_none T [] _ _ _ _ _ _ _ _ _ _ H)|]. split; [|split; [exact (ST_toks T [] _ _ _ _ _ _ _ _ _ _ H)|]].
+  - transitivity (length T); [exact (ST_pidx T [] _ _ _ _ _ _ _ _ _ _ H)|unfold pass; rewrite seq_length; reflexivity].
   - exists (mkLine (lm_type mc') (lm_level mc') (lm_parent mc') []). split; [reflexivity|].
-    etransitivity; [exact (pass_lines_ST T _ _ _ _ _ _ _ _ _ _ H)|]. f_equal.
+    etransitivity; [exact (pass_lines_ST T [] _ _ _ _ _ _ _ _ _ _ H)|]. f_equal.
     set (e := S (length (render ss))) in *.
-    assert (EL : [0] :: map ll_toks (expected 1 1 ss) ++ [[e; S e]; [S (S e)]] = map ll_toks (expected_prog ss)).
-    { unfold expected_prog. cbv zeta. cbn [map ll_toks]. rewrite map_app. cbn [map ll_toks].
+    assert (EL : [0] :: map ll_toks (pexpected None 1 1 1 ss) ++ [[e; S e]; [S (S e)]] = map ll_toks (pexpected_prog ss)).
+    { unfold pexpected_prog. cbv zeta. cbn [map ll_toks]. rewrite map_app. cbn [map ll_toks].
       change (1 + length (render ss)) with e. replace (e + 1) with (S e) by lia. replace (e + 2) with (S (S e)) by lia. reflexivity. }
-    assert (EM : mkLM None 0%N LLT_Unknown :: map meta_of (expected 1 1 ss) ++ [mkLM None 0%N LLT_Unknown; mkLM None 0%N LLT_Eof]
-                 = map meta_of (expected_prog ss)).
-    { unfold expected_prog. cbv zeta. cbn [map meta_of ll_parent ll_level ll_type]. rewrite map_app. reflexivity. }
+    assert (EM : mkLM None 0%N LLT_Unknown :: map meta_of (pexpected None 1 1 1 ss) ++ [mkLM None 0%N LLT_Unknown; mkLM None 0%N LLT_Eof]
+                 = map meta_of (pexpected_prog ss)).
+    { unfold pexpected_prog. cbv zeta. cbn [map meta_of ll_parent ll_level ll_type]. rewrite map_app. reflexivity. }
     rewrite EL, EM. apply rebuild_lines.
 Qed.
 
 (* ================================================================== *)
 (* parse_file on the fragment *)
-Definition nonempty_line (l : lline) : bool := match ll_toks l with [] => false | _ :: _ => true end.
 
 Lemma lline_eqb_false_toks a b : ll_toks a <> ll_toks b -> lline_eqb a b = false.
 Proof.
@@ -1282,52 +3070,215 @@ Proof.
   rewrite lline_eqb_false_toks by (intros E; apply (H a (or_introl eq_refl)); symmetry; exact E).
   apply IH. intros x Hx. apply H. right. exact Hx.
 Qed.
-(* consolidation of lines without parents and without a shared token: the non-empty lines, in order *)
-Lemma consolidate_fresh : forall pl pre mapped,
-  NoDup (concat (map ll_toks (pre ++ pl))) -> Forall (fun l => ll_toks l = [] \/ ll_parent l = None) pl ->
-  fst (fold_left consolidate_step pl (filter nonempty_line pre, mapped)) = filter nonempty_line pre ++ filter nonempty_line pl.
-Proof.
-  induction pl as [|x pl IH]; intros pre mapped Hnd Hp; cbn [fold_left filter]; [rewrite app_nil_r; reflexivity|].
-  pose proof (Forall_inv Hp) as Hx. pose proof (Forall_inv_tail Hp) as Hp'.
-  assert (Hnd' : NoDup (concat (map ll_toks ((pre ++ [x]) ++ pl)))) by (rewrite <- app_assoc; exact Hnd).
-  cbn [consolidate_step]. destruct (ll_toks x) as [|t r] eqn:Et.
-  - assert (Nx : nonempty_line x = false) by (unfold nonempty_line; rewrite Et; reflexivity).
-    specialize (IH (pre ++ [x]) (mapped ++ [None]) Hnd' Hp').
-    rewrite filter_app in IH. cbn [filter] in IH. rewrite Nx, app_nil_r in IH. rewrite Nx. exact IH.
-  - assert (Nx : nonempty_line x = true) by (unfold nonempty_line; rewrite Et; reflexivity).
-    destruct Hx as [Hx|Hx]; [congruence|]. rewrite Hx.
-    assert (Ex : mkLine (ll_type x) (ll_level x) None (t :: r) = x) by (destruct x; cbn in *; subst; reflexivity).
-    rewrite Ex, Nx.
-    rewrite index_of_line_none.
-    + specialize (IH (pre ++ [x]) (mapped ++ [Some (length (filter nonempty_line pre))]) Hnd' Hp').
-      rewrite filter_app in IH. cbn [filter] in IH. rewrite Nx in IH.
-      rewrite IH, <- app_assoc. reflexivity.
-    + intros a Ha E. apply filter_In in Ha. destruct Ha as [Ha _].
-      rewrite map_app, concat_app in Hnd. cbn [map concat] in Hnd.
-      apply (nodup_app_disj _ _ t Hnd).
-      * apply in_concat. exists (ll_toks a). split; [apply in_map, Ha|]. rewrite E, Et. left. reflexivity.
-      * apply in_or_app. left. rewrite Et. left. reflexivity.
-Qed.
-Lemma consolidate_fresh0 pl :
-  NoDup (concat (map ll_toks pl)) -> Forall (fun l => ll_toks l = [] \/ ll_parent l = None) pl ->
-  consolidate_pass_lines [] pl = filter nonempty_line pl.
-Proof. intros H1 H2. unfold consolidate_pass_lines. apply (consolidate_fresh pl [] [] H1 H2). Qed.
 
-Lemma expected_props : forall ss d k, Forall (fun l => nonempty_line l = true /\ ll_parent l = None) (expected d k ss).
+(* consolidation of lines without a shared token whose parents are earlier non-empty lines: the non-empty
+   lines, in order, with the parents renumbered (= `finalize`) *)
+Definition cnt (pl : list lline) (i : nat) : nat := length (filter nonempty_line (firstn i pl)).
+Definition remap (pl : list lline) (l : lline) : lline :=
+  mkLine (ll_type l) (ll_level l) (match ll_parent l with Some (i, t) => Some (cnt pl i, t) | None => None end) (ll_toks l).
+Lemma finalize_eq pl : finalize pl = map (remap pl) (filter nonempty_line pl).
+Proof. reflexivity. Qed.
+Fixpoint mp_go (c : nat) (l : list lline) : list (option nat) :=
+  match l with [] => [] | x :: r => if nonempty_line x then Some c :: mp_go (S c) r else None :: mp_go c r end.
+Lemma mp_go_app : forall a c b, mp_go c (a ++ b) = mp_go c a ++ mp_go (c + length (filter nonempty_line a)) b.
 Proof.
-  induction ss as [|r IH|r IH|b IHb r IHr|b IHb r IHr|b IHb c IHc r IHr]; intros d k; cbn [expected]; cbv zeta.
-  - constructor.
-  - constructor; [split; reflexivity|apply IH].
-  - constructor; [split; reflexivity|apply IH].
-  - constructor; [split; reflexivity|]. apply Forall_app. split; [apply IHb|]. constructor; [split; reflexivity|apply IHr].
-  - constructor; [split; reflexivity|]. apply Forall_app. split; [apply IHb|]. constructor; [split; reflexivity|apply IHr].
-  - constructor; [split; reflexivity|]. apply Forall_app. split; [apply IHb|]. constructor; [split; reflexivity|].
-    apply Forall_app. split; [apply IHc|]. constructor; [split; reflexivity|apply IHr].
+  induction a as [|x a IH]; intros c b; cbn [app mp_go filter length]; [rewrite Nat.add_0_r; reflexivity|].
+  destruct (nonempty_line x); cbn [length app]; rewrite IH; [replace (S c + length (filter nonempty_line a)) with (c + S (length (filter nonempty_line a))) by lia|]; reflexivity.
 Qed.
-Lemma expected_prog_props ss : Forall (fun l => nonempty_line l = true /\ ll_parent l = None) (expected_prog ss).
+Lemma nth_error_mp : forall l c i p, nth_error l i = Some p ->
+  nth_error (mp_go c l) i = Some (if nonempty_line p then Some (c + cnt l i) else None).
 Proof.
-  unfold expected_prog. cbv zeta. constructor; [split; reflexivity|]. apply Forall_app. split; [apply expected_props|].
-  repeat (constructor; [split; reflexivity|]). constructor.
+  induction l as [|a l IH]; intros c [|i] p H; cbn [nth_error] in H; try discriminate.
+  - injection H as ->. cbn [mp_go]. unfold cnt. cbn [firstn filter length]. destruct (nonempty_line p); cbn [nth_error]; [rewrite Nat.add_0_r|]; reflexivity.
+  - cbn [mp_go]. unfold cnt. cbn [firstn filter]. destruct (nonempty_line a) eqn:E; cbn [nth_error length]; rewrite (IH _ _ _ H); unfold cnt;
+      destruct (nonempty_line p); try reflexivity; do 2 f_equal; lia.
+Qed.
+Lemma cnt_app_l pre rest i : i <= length pre -> cnt (pre ++ rest) i = cnt pre i.
+Proof. intros H. unfold cnt. rewrite firstn_app. replace (i - length pre) with 0 by lia. cbn [firstn]. rewrite app_nil_r. reflexivity. Qed.
+
+Definition seg_ok (pre seg : list lline) : Prop :=
+  forall a x b, seg = a ++ x :: b -> nonempty_line x = true -> forall i t, ll_parent x = Some (i, t) ->
+  exists p, nth_error (pre ++ a) i = Some p /\ nonempty_line p = true /\ In t (ll_toks p).
+Definition par_in (pre : list lline) (par : option (nat * nat)) : Prop :=
+  match par with None => True | Some (i, t) => exists p, nth_error pre i = Some p /\ nonempty_line p = true /\ In t (ll_toks p) end.
+Lemma par_in_app pre a par : par_in pre par -> par_in (pre ++ a) par.
+Proof.
+  destruct par as [[i t]|]; [|exact (fun H => H)]. intros (p & H1 & H2 & H3). exists p. split; [|split; assumption].
+  rewrite nth_error_app1; [exact H1|]. apply nth_error_Some. congruence.
+Qed.
+Lemma seg_ok_nil pre : seg_ok pre [].
+Proof. intros a x b H. destruct a; discriminate. Qed.
+Lemma seg_ok_cons pre x s : (nonempty_line x = true -> par_in pre (ll_parent x)) -> seg_ok (pre ++ [x]) s -> seg_ok pre (x :: s).
+Proof.
+  intros Hx Hs a y b E Hy i t Hp. destruct a as [|z a]; cbn [app] in E; injection E as -> ->.
+  - specialize (Hx Hy). rewrite Hp in Hx. rewrite app_nil_r. exact Hx.
+  - destruct (Hs a y b eq_refl Hy i t Hp) as (p & H1 & H2). exists p. split; [|exact H2]. rewrite <- app_assoc in H1. exact H1.
+Qed.
+Lemma seg_ok_app pre s1 s2 : seg_ok pre s1 -> seg_ok (pre ++ s1) s2 -> seg_ok pre (s1 ++ s2).
+Proof.
+  revert pre. induction s1 as [|x s1 IH]; intros pre H1 H2; cbn [app]; [rewrite app_nil_r in H2; exact H2|].
+  apply seg_ok_cons.
+  - intros Hx. destruct (ll_parent x) as [[i t]|] eqn:Ep; [|exact I].
+    destruct (H1 [] x s1 eq_refl Hx i t Ep) as (p & Hp). rewrite app_nil_r in Hp. exists p. exact Hp.
+  - apply IH.
+    + intros a y b E Hy i t Hp. destruct (H1 (x :: a) y b ltac:(rewrite E; reflexivity) Hy i t Hp) as (p & Hq). exists p.
+      rewrite <- app_assoc. exact Hq.
+    + rewrite <- app_assoc. exact H2.
+Qed.
+
+Lemma consolidate_parents : forall rest pre pl, pl = pre ++ rest ->
+  NoDup (concat (map ll_toks pl)) -> seg_ok pre rest ->
+  fst (fold_left consolidate_step rest (map (remap pl) (filter nonempty_line pre), mp_go 0 pre))
+  = map (remap pl) (filter nonempty_line pl).
+Proof.
+  induction rest as [|x rest IH]; intros pre pl Epl Hnd Hs; cbn [fold_left].
+  - rewrite Epl, app_nil_r. reflexivity.
+  - assert (Epl' : pl = (pre ++ [x]) ++ rest) by (rewrite <- app_assoc; exact Epl).
+    assert (Hs' : seg_ok (pre ++ [x]) rest).
+    { intros a y b E Hy i t Hp. destruct (Hs (x :: a) y b ltac:(rewrite E; reflexivity) Hy i t Hp) as (p & Hq). exists p.
+      rewrite <- app_assoc. exact Hq. }
+    specialize (IH (pre ++ [x]) pl Epl' Hnd Hs').
+    rewrite filter_app, mp_go_app in IH. cbn [filter mp_go Nat.add] in IH.
+    cbn [consolidate_step]. destruct (ll_toks x) as [|t0 r0] eqn:Et.
+    + assert (Nx : nonempty_line x = false) by (unfold nonempty_line; rewrite Et; reflexivity).
+      rewrite Nx, app_nil_r in IH. exact IH.
+    + assert (Nx : nonempty_line x = true) by (unfold nonempty_line; rewrite Et; reflexivity).
+      rewrite Nx in IH.
+      assert (Ep : match ll_parent x with
+                   | Some (pl0, pt) => match nth_error (mp_go 0 pre) pl0 with Some (Some li) => Some (li, pt) | _ => None end
+                   | None => None end
+                   = match ll_parent x with Some (i, t) => Some (cnt pl i, t) | None => None end).
+      { destruct (ll_parent x) as [[i t]|] eqn:Ex; [|reflexivity].
+        destruct (Hs [] x rest eq_refl Nx i t Ex) as (p & H1 & H2 & _). rewrite app_nil_r in H1.
+        rewrite (nth_error_mp _ 0 _ _ H1), H2. cbn [Nat.add]. rewrite Epl, cnt_app_l; [reflexivity|].
+        apply Nat.lt_le_incl, nth_error_Some. congruence. }
+      rewrite Ep.
+      assert (Ex : mkLine (ll_type x) (ll_level x) (match ll_parent x with Some (i, t) => Some (cnt pl i, t) | None => None end) (t0 :: r0) = remap pl x)
+        by (unfold remap; rewrite Et; reflexivity).
+      rewrite Ex.
+      rewrite index_of_line_none.
+      * rewrite map_length. rewrite map_app in IH. cbn [map] in IH. exact IH.
+      * intros a Ha E. apply in_map_iff in Ha. destruct Ha as (a0 & <- & Ha). apply filter_In in Ha. destruct Ha as [Ha _].
+        cbn [remap ll_toks] in E.
+        rewrite Epl, map_app, concat_app in Hnd. cbn [map concat] in Hnd.
+        apply (nodup_app_disj _ _ t0 Hnd).
+        -- apply in_concat. exists (ll_toks a0). split; [apply in_map, Ha|]. rewrite E, Et. left. reflexivity.
+        -- apply in_or_app. left. rewrite Et. left. reflexivity.
+Qed.
+Lemma consolidate_parents0 pl : NoDup (concat (map ll_toks pl)) -> seg_ok [] pl -> consolidate_pass_lines [] pl = finalize pl.
+Proof. intros H1 H2. unfold consolidate_pass_lines. rewrite finalize_eq. exact (consolidate_parents pl [] pl eq_refl H1 H2). Qed.
+
+(* the arms of a case statement: the lines before the `end`/`else` line are fine, and so are the child
+   lines of the last arm wherever they are placed later *)
+Definition ext (p q : list lline) : Prop := exists x, q = p ++ x.
+Lemma ext_refl p : ext p p. Proof. exists []. rewrite app_nil_r. reflexivity. Qed.
+Lemma ext_app p x : ext p (p ++ x). Proof. exists x. reflexivity. Qed.
+Lemma ext_trans p q r : ext p q -> ext q r -> ext p r.
+Proof. intros [x ->] [y ->]. exists (x ++ y). rewrite app_assoc. reflexivity. Qed.
+Lemma par_in_ext p q par : ext p q -> par_in p par -> par_in q par.
+Proof. intros [x ->]. apply par_in_app. Qed.
+Definition Rarms (a : arms) : Prop :=
+  forall par d k li pre pend, length pre = li -> par_in pre par ->
+  (forall pre1, ext pre pre1 -> seg_ok pre1 (pend (length pre1))) ->
+  seg_ok pre (arms_pre par d k li a pend)
+  /\ (forall pre1, ext (pre ++ arms_pre par d k li a pend) pre1 -> seg_ok pre1 (arms_pend k li a pend (length pre1))).
+(* the expected pass lines: every parent is an earlier non-empty line holding the parent token *)
+Lemma pexpected_seg_ok : forall ss par d k li pre, length pre = li -> par_in pre par -> seg_ok pre (pexpected par d k li ss).
+Proof.
+  apply (stmts_mut (fun ss => forall par d k li pre, length pre = li -> par_in pre par -> seg_ok pre (pexpected par d k li ss))
+                   (fun c => forall p k li semi pre, length pre = li -> par_in pre p -> seg_ok pre (pexpected_body p k li semi c))
+                   Rarms);
+    cbn [pexpected pexpected_body]; cbv zeta.
+  - intros. apply seg_ok_nil.
+  - intros r IHr par d k li pre Hl Hp. apply seg_ok_cons; [intros _; exact Hp|]. apply IHr; [len_tac|apply par_in_app, Hp].
+  - intros r IHr par d k li pre Hl Hp. apply seg_ok_cons; [intros _; exact Hp|]. apply IHr; [len_tac|apply par_in_app, Hp].
+  - intros b IHb r IHr par d k li pre Hl Hp. apply seg_ok_cons; [intros _; exact Hp|].
+    apply seg_ok_app; [apply IHb; [len_tac|apply par_in_app, Hp]|].
+    apply seg_ok_cons; [intros _; do 2 apply par_in_app; exact Hp|]. apply IHr; [len_tac|do 3 apply par_in_app; exact Hp].
+  - intros b IHb r IHr par d k li pre Hl Hp. apply seg_ok_cons; [intros _; exact Hp|].
+    apply seg_ok_app; [apply IHb; [len_tac|apply par_in_app, Hp]|].
+    apply seg_ok_cons; [intros _; do 2 apply par_in_app; exact Hp|]. apply IHr; [len_tac|do 3 apply par_in_app; exact Hp].
+  - intros b IHb c IHc r IHr par d k li pre Hl Hp. apply seg_ok_cons; [intros _; exact Hp|].
+    apply seg_ok_app; [apply IHb; [len_tac|apply par_in_app, Hp]|].
+    apply seg_ok_cons; [intros _; do 2 apply par_in_app; exact Hp|].
+    apply seg_ok_app; [apply IHc; [len_tac|do 3 apply par_in_app; exact Hp]|].
+    apply seg_ok_cons; [intros _; do 4 apply par_in_app; exact Hp|]. apply IHr; [len_tac|do 5 apply par_in_app; exact Hp].
+  - intros b IHb c IHc r IHr par d k li pre Hl Hp. apply seg_ok_cons; [intros _; exact Hp|].
+    apply seg_ok_app; [apply IHb; [len_tac|apply par_in_app, Hp]|].
+    apply seg_ok_cons; [intros _; do 2 apply par_in_app; exact Hp|].
+    apply seg_ok_app; [apply IHc; [len_tac|do 3 apply par_in_app; exact Hp]|].
+    apply seg_ok_cons; [intros _; do 4 apply par_in_app; exact Hp|]. apply IHr; [len_tac|do 5 apply par_in_app; exact Hp].
+  - intros c IHc r IHr par d k li pre Hl Hp. apply seg_ok_cons; [intros _; exact Hp|].
+    apply seg_ok_app.
+    + apply IHc; [len_tac|]. eexists. split; [rewrite nth_error_app2, Hl, Nat.sub_diag by lia; reflexivity|].
+      split; [reflexivity|]. cbn [ll_toks]. right. right. left. reflexivity.
+    + apply IHr; [len_tac|do 2 apply par_in_app; exact Hp].
+  - intros c1 IHc1 c2 IHc2 r IHr par d k li pre Hl Hp. apply seg_ok_cons; [intros _; exact Hp|].
+    apply seg_ok_app.
+    + apply IHc1; [len_tac|]. eexists. split; [rewrite nth_error_app2, Hl, Nat.sub_diag by lia; reflexivity|].
+      split; [reflexivity|]. cbn [ll_toks]. right. right. left. reflexivity.
+    + apply seg_ok_app.
+      * apply IHc2; [len_tac|]. apply par_in_app. eexists. split; [rewrite nth_error_app2, Hl, Nat.sub_diag by lia; reflexivity|].
+        split; [reflexivity|]. cbn [ll_toks]. right. right. right. left. reflexivity.
+      * apply IHr; [len_tac|do 3 apply par_in_app; exact Hp].
+  - intros c IHc r IHr par d k li pre Hl Hp. apply seg_ok_cons; [intros _; exact Hp|].
+    apply seg_ok_app.
+    + apply IHc; [len_tac|]. eexists. split; [rewrite nth_error_app2, Hl, Nat.sub_diag by lia; reflexivity|].
+      split; [reflexivity|]. cbn [ll_toks]. right. right. left. reflexivity.
+    + apply IHr; [len_tac|do 2 apply par_in_app; exact Hp].
+  - (* case … end *)
+    intros a IHa r IHr par d k li pre Hl Hp. rewrite arms_lines_eq. cbv beta.
+    apply seg_ok_cons; [intros _; exact Hp|].
+    destruct (IHa par d (k + 3) (li + 1) (pre ++ [mkLine LLT_CaseHeader (lvl d) par [k; k + 1; k + 2]]) (fun _ => [])
+                ltac:(len_tac) (par_in_app _ _ _ Hp) (fun _ _ => seg_ok_nil _)) as [A1 A2].
+    apply seg_ok_app; [exact A1|].
+    apply seg_ok_cons; [intros _; do 2 apply par_in_app; exact Hp|].
+    apply seg_ok_app.
+    + match goal with |- seg_ok ?p (arms_pend _ _ _ _ ?i) => replace i with (length p) by (rewrite (arms_li_eq a par d); len_tac) end.
+      apply A2. rewrite <- app_assoc. apply ext_app.
+    + apply IHr; [rewrite (arms_li_eq a par d); len_tac|do 4 apply par_in_app; exact Hp].
+  - (* case … else … end *)
+    intros a IHa e IHe r IHr par d k li pre Hl Hp. rewrite arms_lines_eq. cbv beta zeta.
+    apply seg_ok_cons; [intros _; exact Hp|].
+    destruct (IHa par d (k + 3) (li + 1) (pre ++ [mkLine LLT_CaseHeader (lvl d) par [k; k + 1; k + 2]]) (fun _ => [])
+                ltac:(len_tac) (par_in_app _ _ _ Hp) (fun _ _ => seg_ok_nil _)) as [A1 A2].
+    apply seg_ok_app; [exact A1|].
+    apply seg_ok_cons; [intros _; do 2 apply par_in_app; exact Hp|].
+    apply seg_ok_app.
+    + match goal with |- seg_ok ?p (arms_pend _ _ _ _ ?i) => replace i with (length p) by (rewrite (arms_li_eq a par d); len_tac) end.
+      apply A2. rewrite <- app_assoc. apply ext_app.
+    + apply seg_ok_app; [apply IHe; [rewrite (arms_li_eq a par d); len_tac|do 4 apply par_in_app; exact Hp]|].
+      apply seg_ok_cons; [intros _; do 5 apply par_in_app; exact Hp|].
+      apply IHr; [rewrite (arms_li_eq a par d); len_tac|do 6 apply par_in_app; exact Hp].
+  - intros p k li semi pre Hl Hp. apply seg_ok_cons; [intros _; exact Hp|]. apply seg_ok_cons; [discriminate|apply seg_ok_nil].
+  - intros p k li semi pre Hl Hp. apply seg_ok_cons; [intros _; exact Hp|]. apply seg_ok_cons; [discriminate|apply seg_ok_nil].
+  - intros b IHb p k li semi pre Hl Hp. apply seg_ok_cons; [intros _; exact Hp|].
+    apply seg_ok_app; [apply IHb; [len_tac|apply par_in_app, Hp]|].
+    apply seg_ok_cons; [intros _; do 2 apply par_in_app; exact Hp|]. apply seg_ok_cons; [discriminate|apply seg_ok_nil].
+  - (* no arm *)
+    intros par d k li pre pend Hl Hp Hpend. cbn [arms_pre arms_pend]. split; [apply seg_ok_nil|].
+    intros pre1 He. apply Hpend. rewrite app_nil_r in He. exact He.
+  - (* an arm *)
+    intros c IHc a' IHa par d k li pre pend Hl Hp Hpend. cbn [arms_pre arms_pend]. cbv zeta.
+    set (A := mkLine LLT_CaseArm (lvl (d + 1)) par [k; k + 1]).
+    set (e := k + 2 + length (render_body c)).
+    assert (Hl1 : length (pre ++ [A]) = li + 1) by len_tac.
+    assert (P1 : seg_ok (pre ++ [A]) (pend (li + 1))) by (rewrite <- Hl1; apply Hpend, ext_app).
+    destruct (IHa par d (e + 1) (li + 1 + length (pend (li + 1))) ((pre ++ [A]) ++ pend (li + 1))
+                (fun i => pexpected_body (Some (li, k + 1)) (k + 2) i (Some e) c)
+                ltac:(len_tac) ltac:(do 2 apply par_in_app; exact Hp)) as [B1 B2].
+    { intros pre1 He. apply IHc; [reflexivity|].
+      apply (par_in_ext ((pre ++ [A]) ++ pend (li + 1)) pre1 _ He). apply par_in_app.
+      exists A. split; [rewrite nth_error_app2, Hl, Nat.sub_diag by lia; reflexivity|]. split; [reflexivity|]. right. left. reflexivity. }
+    split.
+    + apply seg_ok_cons; [intros _; exact Hp|]. apply seg_ok_app; [exact P1|exact B1].
+    + intros pre1 He. apply B2. destruct He as [x ->]. exists x. repeat (progress (cbn [app]; rewrite <- ?app_assoc)). reflexivity.
+Qed.
+Lemma pexpected_prog_seg_ok ss : seg_ok [] (pexpected_prog ss).
+Proof.
+  unfold pexpected_prog. cbv zeta. apply seg_ok_cons; [intros _; exact I|].
+  apply seg_ok_app; [apply pexpected_seg_ok; [reflexivity|exact I]|].
+  apply seg_ok_cons; [intros _; exact I|]. apply seg_ok_cons; [intros _; exact I|]. apply seg_ok_nil.
 Qed.
 Lemma filter_all {A} (p : A -> bool) l : Forall (fun x => p x = true) l -> filter p l = l.
 Proof. induction 1 as [|x l Hx _ IH]; cbn; [reflexivity|]. rewrite Hx, IH. reflexivity. Qed.
@@ -1358,10 +3309,12 @@ Proof. intros P. eapply Forall_impl; [|exact P]. intros t Ht. destruct t; try re
 Lemma consolidate_nil_r X : consolidate_pass_lines X [] = X.
 Proof. reflexivity. Qed.
 
-(* THE THEOREM (stage 1): for every program of the fragment — any nesting depth, any number of
-   statements — the closed model of parse_file ends without error and returns EXACTLY the expected lines:
-   every statement on its own line one level deeper than the `begin` line of its block, `end ;` at the
-   level of its `begin`, `end .` and the single Eof line (holding only the Eof token) at level 0, no parents *)
+
+(* THE THEOREM: for every program of the fragment — any nesting depth, any number of statements — the
+   closed model of parse_file ends without error and returns EXACTLY the expected lines: every statement on
+   its own line one level deeper than the `begin` line of its block, `end ;` at the level of its `begin`,
+   the body of an `if`/`while` as child lines (level 1, parent = the header line and its then/else/do token),
+   `end .` and the single Eof line (holding only the Eof token) at level 0 *)
 Theorem fragment_parse_file ss :
   let r := parse_file_model (render_prog ss) [] in
   r_err r = None /\ r_lines r = expected_prog ss /\ r_toks r = render_prog ss.
@@ -1376,34 +3329,33 @@ Proof.
   rewrite He.
   rewrite Htoks, (cement_fold_plain T P pass), (directive_lines_plain T 0 _ 0%N P).
   cbn [r_err r_lines r_toks]. split; [reflexivity|]. split; [|reflexivity].
-  rewrite consolidate_nil_r.
-  rewrite consolidate_fresh0.
-  - rewrite Hpl, filter_app. cbn [filter]. unfold nonempty_line at 2. rewrite Hel, app_nil_r.
-    apply filter_all. eapply Forall_impl; [|apply expected_prog_props]. intros l [H _]. exact H.
-  - exact Hnd.
-  - rewrite Hpl. apply Forall_app. split.
-    + eapply Forall_impl; [|apply expected_prog_props]. intros l [_ H]. right. exact H.
-    + constructor; [left; exact Hel|constructor].
+  rewrite consolidate_nil_r. rewrite Hpl in *. clear Hpl.
+  assert (E1 : consolidate_pass_lines [] (pexpected_prog ss ++ [el]) = consolidate_pass_lines [] (pexpected_prog ss)).
+  { unfold consolidate_pass_lines. rewrite fold_left_app. cbn [fold_left].
+    destruct (fold_left consolidate_step (pexpected_prog ss) ([], [])) as [acc mp]. cbn [consolidate_step]. rewrite Hel. reflexivity. }
+  rewrite E1. apply consolidate_parents0; [|apply pexpected_prog_seg_ok].
+  rewrite map_app, concat_app in Hnd. cbn [map concat] in Hnd. rewrite Hel, app_nil_r in Hnd. exact Hnd.
 Qed.
 
 (* ---------------- the well-formedness clauses, read off the expected lines *)
-Lemma expected_no_eof : forall ss d k, Forall (fun l => ll_type l <> LLT_Eof) (expected d k ss).
+Lemma pexpected_no_eof : forall ss par d k li, Forall (fun l => ll_type l <> LLT_Eof) (pexpected par d k li ss).
 Proof.
-  induction ss as [|r IH|r IH|b IHb r IHr|b IHb r IHr|b IHb c IHc r IHr]; intros d k; cbn [expected]; cbv zeta.
-  - constructor.
-  - constructor; [discriminate|apply IH].
-  - constructor; [discriminate|apply IH].
-  - constructor; [discriminate|]. apply Forall_app. split; [apply IHb|]. constructor; [discriminate|apply IHr].
-  - constructor; [discriminate|]. apply Forall_app. split; [apply IHb|]. constructor; [discriminate|apply IHr].
-  - constructor; [discriminate|]. apply Forall_app. split; [apply IHb|]. constructor; [discriminate|].
-    apply Forall_app. split; [apply IHc|]. constructor; [discriminate|apply IHr].
+  apply (stmts_mut (fun ss => forall par d k li, Forall (fun l => ll_type l <> LLT_Eof) (pexpected par d k li ss))
+                   (fun c => forall p k li semi, Forall (fun l => ll_type l <> LLT_Eof) (pexpected_body p k li semi c))
+                   (fun a => forall par d k li pend, (forall i, Forall (fun l => ll_type l <> LLT_Eof) (pend i)) ->
+                             Forall (fun l => ll_type l <> LLT_Eof) (arms_pre par d k li a pend)
+                             /\ forall i, Forall (fun l => ll_type l <> LLT_Eof) (arms_pend k li a pend i)));
+    cbn [pexpected pexpected_body arms_pre arms_pend]; cbv zeta; intros; rewrite ?arms_lines_eq.
+  all: try match goal with IHa : forall par d k li pend, _ -> _ /\ _ |- Forall _ (_ :: arms_pre ?par ?d ?k ?li ?a ?pend ++ _) =>
+             destruct (IHa par d k li pend (fun _ => Forall_nil _)) as [A1 A2] end.
+  all: try match goal with IHa : forall par d k li pend, _ -> _ /\ _, Hp : forall i, Forall _ (?pend i) |- _ /\ _ =>
+             split; [apply Forall_cons; [discriminate|]; apply Forall_app; split; [apply Hp|]; apply IHa; intros; auto | apply IHa; intros; auto] end.
+  all: try (split; [apply Forall_nil|assumption]).
+  all: repeat (first [ apply Forall_nil | (apply Forall_cons; [discriminate|]) | (apply Forall_app; split) | solve [auto] ]).
 Qed.
-Corollary fragment_no_parents ss :
-  Forall (fun l => ll_parent l = None) (r_lines (parse_file_model (render_prog ss) [])).
-Proof.
-  destruct (fragment_parse_file ss) as (_ & Hl & _). rewrite Hl.
-  eapply Forall_impl; [|apply expected_prog_props]. intros l [_ H]. exact H.
-Qed.
+Lemma remap_type pl l : ll_type (remap pl l) = ll_type l. Proof. reflexivity. Qed.
+Lemma remap_toks pl l : ll_toks (remap pl l) = ll_toks l. Proof. reflexivity. Qed.
+
 Corollary fragment_single_eof_line ss :
   let r := parse_file_model (render_prog ss) [] in
   exists pre, r_lines r = pre ++ [mkLine LLT_Eof 0%N None [S (S (S (length (render ss))))]]
@@ -1412,23 +3364,128 @@ Corollary fragment_single_eof_line ss :
     /\ length (render_prog ss) = S (S (S (S (length (render ss))))).
 Proof.
   intros r. destruct (fragment_parse_file ss) as (_ & Hl & _). fold r in Hl.
-  exists (mkLine LLT_Unknown 0%N None [0] :: expected 1 1 ss
-          ++ [mkLine LLT_Unknown 0%N None [S (length (render ss)); S (S (length (render ss)))]]).
+  set (A := mkLine LLT_Unknown 0%N None [0] :: pexpected None 1 1 1 ss
+          ++ [mkLine LLT_Unknown 0%N None [1 + length (render ss); 1 + length (render ss) + 1]]).
+  set (x := mkLine LLT_Eof 0%N None [1 + length (render ss) + 2]).
+  assert (EP : pexpected_prog ss = A ++ [x]).
+  { unfold pexpected_prog, A, x. cbv zeta. cbn [app]. rewrite <- app_assoc. reflexivity. }
+  exists (map (remap (pexpected_prog ss)) (filter nonempty_line A)).
   split; [|split; [|split]].
-  - rewrite Hl. unfold expected_prog. cbv zeta. cbn [app Nat.add]. rewrite <- app_assoc. cbn [app].
-    replace (length (render ss) + 1) with (S (length (render ss))) by lia.
-    replace (length (render ss) + 2) with (S (S (length (render ss)))) by lia. reflexivity.
-  - constructor; [discriminate|]. apply Forall_app. split; [apply expected_no_eof|]. constructor; [discriminate|constructor].
+  - rewrite Hl. unfold expected_prog. rewrite finalize_eq. rewrite EP at 2. rewrite filter_app, map_app. f_equal.
+    change (filter nonempty_line [x]) with [x]. cbn [map]. unfold remap, x. cbn [ll_type ll_level ll_parent ll_toks]. repeat f_equal. lia.
+  - apply Forall_map. apply Forall_forall. intros l Hin. apply filter_In in Hin. destruct Hin as [Hin _]. rewrite remap_type.
+    revert l Hin. apply Forall_forall. unfold A. constructor; [discriminate|]. apply Forall_app. split; [apply pexpected_no_eof|].
+    constructor; [discriminate|constructor].
   - change (nth_error (render ss ++ [tEnd; tDot; RTT_Eof]) (S (S (length (render ss)))) = Some RTT_Eof).
     rewrite nth_error_app2 by lia. replace (S (S (length (render ss))) - length (render ss)) with 2 by lia. reflexivity.
   - apply render_prog_length.
 Qed.
 
+(* every parent is an earlier line that holds the parent token *)
+Lemma nth_error_firstn_split {A} (l : list A) i p : nth_error l i = Some p -> exists l2, l = firstn i l ++ p :: l2.
+Proof.
+  intros H. destruct (nth_error_split l i H) as (l1 & l2 & E & Hl). exists l2. rewrite E at 2. f_equal.
+  rewrite E, firstn_app, <- Hl, Nat.sub_diag, firstn_all. cbn [firstn]. rewrite app_nil_r. reflexivity.
+Qed.
+Lemma cnt_lt l i p : nth_error l i = Some p -> nonempty_line p = true -> cnt l i < length (filter nonempty_line l).
+Proof.
+  intros H Hp. destruct (nth_error_firstn_split l i p H) as (l2 & E). unfold cnt. rewrite E at 2.
+  rewrite filter_app, app_length. cbn [filter]. rewrite Hp. cbn [length]. lia.
+Qed.
+Lemma nth_filter l i p : nth_error l i = Some p -> nonempty_line p = true -> nth_error (filter nonempty_line l) (cnt l i) = Some p.
+Proof.
+  intros H Hp. destruct (nth_error_firstn_split l i p H) as (l2 & E). unfold cnt. rewrite E at 1.
+  rewrite filter_app. cbn [filter]. rewrite Hp. rewrite nth_error_app2, Nat.sub_diag by lia. reflexivity.
+Qed.
+Lemma parents_ok_finalize_go pl : forall rest pre, pl = pre ++ rest -> seg_ok pre rest ->
+  parents_ok_from (finalize pl) (length (filter nonempty_line pre)) (map (remap pl) (filter nonempty_line rest)) = true.
+Proof.
+  induction rest as [|x rest IH]; intros pre Epl Hs; [reflexivity|].
+  assert (Epl' : pl = (pre ++ [x]) ++ rest) by (rewrite <- app_assoc; exact Epl).
+  assert (Hs' : seg_ok (pre ++ [x]) rest).
+  { intros a y b E Hy i t Hp. destruct (Hs (x :: a) y b ltac:(rewrite E; reflexivity) Hy i t Hp) as (p & Hq). exists p.
+    rewrite <- app_assoc. exact Hq. }
+  specialize (IH (pre ++ [x]) Epl' Hs'). rewrite filter_app, app_length in IH. cbn [filter] in IH.
+  cbn [filter]. destruct (nonempty_line x) eqn:Nx; cbn [length] in IH.
+  - cbn [map parents_ok_from]. apply andb_true_intro. split; [|rewrite Nat.add_1_r in IH; exact IH].
+    unfold remap at 1. cbn [ll_parent]. destruct (ll_parent x) as [[i t]|] eqn:Ex; [|reflexivity].
+    destruct (Hs [] x rest eq_refl Nx i t Ex) as (p & H1 & H2 & H3). rewrite app_nil_r in H1.
+    assert (Hi : i < length pre) by (apply nth_error_Some; congruence).
+    assert (Hpl : nth_error pl i = Some p) by (rewrite Epl, nth_error_app1 by exact Hi; exact H1).
+    apply andb_true_intro. split.
+    + apply Nat.ltb_lt. rewrite Epl, cnt_app_l by lia. exact (cnt_lt _ _ _ H1 H2).
+    + rewrite finalize_eq, (map_nth_error (remap pl) _ _ (nth_filter _ _ _ Hpl H2)). rewrite remap_toks.
+      apply existsb_exists. exists t. split; [exact H3|apply Nat.eqb_refl].
+  - rewrite Nat.add_0_r in IH. exact IH.
+Qed.
+Lemma parents_ok_finalize pl : seg_ok [] pl -> parents_ok (finalize pl) = true.
+Proof. intros H. unfold parents_ok. rewrite finalize_eq at 2. exact (parents_ok_finalize_go pl pl [] eq_refl H). Qed.
+
+(* the parents are well-formed: the parent line comes earlier and holds the parent token *)
+Theorem fragment_parents_ok ss : parents_ok (r_lines (parse_file_model (render_prog ss) [])) = true.
+Proof.
+  destruct (fragment_parse_file ss) as (_ & Hl & _). rewrite Hl. apply parents_ok_finalize, pexpected_prog_seg_ok.
+Qed.
+
+(* without `if`/`while` there are no child lines: no line has a parent *)
+Lemma pexpected_child_free : forall ss d k li, child_free ss = true -> Forall (fun l => ll_parent l = None) (pexpected None d k li ss).
+Proof.
+  induction ss as [|r IH|r IH|b IHb r IHr|b IHb r IHr|b IHb c IHc r IHr|b IHb c IHc r IHr| | | | |]; intros d k li Hc; cbn [pexpected child_free] in *; cbv zeta;
+    try discriminate.
+  - constructor.
+  - constructor; [reflexivity|apply IH, Hc].
+  - constructor; [reflexivity|apply IH, Hc].
+  - apply andb_prop in Hc. destruct Hc as [H1 H2].
+    constructor; [reflexivity|]. apply Forall_app. split; [apply IHb, H1|]. constructor; [reflexivity|apply IHr, H2].
+  - apply andb_prop in Hc. destruct Hc as [H1 H2].
+    constructor; [reflexivity|]. apply Forall_app. split; [apply IHb, H1|]. constructor; [reflexivity|apply IHr, H2].
+  - apply andb_prop in Hc. destruct Hc as [H1 H3]. apply andb_prop in H1. destruct H1 as [H1 H2].
+    constructor; [reflexivity|]. apply Forall_app. split; [apply IHb, H1|]. constructor; [reflexivity|].
+    apply Forall_app. split; [apply IHc, H2|]. constructor; [reflexivity|apply IHr, H3].
+  - apply andb_prop in Hc. destruct Hc as [H1 H3]. apply andb_prop in H1. destruct H1 as [H1 H2].
+    constructor; [reflexivity|]. apply Forall_app. split; [apply IHb, H1|]. constructor; [reflexivity|].
+    apply Forall_app. split; [apply IHc, H2|]. constructor; [reflexivity|apply IHr, H3].
+Qed.
+Corollary fragment_no_parents ss : child_free ss = true ->
+  Forall (fun l => ll_parent l = None) (r_lines (parse_file_model (render_prog ss) [])).
+Proof.
+  intros Hc. destruct (fragment_parse_file ss) as (_ & Hl & _). rewrite Hl. unfold expected_prog. rewrite finalize_eq.
+  apply Forall_map. apply Forall_forall. intros l Hin. apply filter_In in Hin. destruct Hin as [Hin _].
+  assert (Hp : Forall (fun l => ll_parent l = None) (pexpected_prog ss)).
+  { unfold pexpected_prog. cbv zeta. constructor; [reflexivity|]. apply Forall_app. split; [apply pexpected_child_free, Hc|].
+    repeat (constructor; [reflexivity|]). constructor. }
+  unfold remap. cbn [ll_parent]. rewrite (proj1 (Forall_forall _ _) Hp l Hin). reflexivity.
+Qed.
+(* ... and a body of an `if`/`while` is a child line of the header line (non-vacuity of the parents) *)
+Example fragment_child_lines :
+  let ss := SIfElse TSimple (TBlock (SWhile TAssign SNil)) (SSimple SNil) in
+  map (fun l => (ll_level l, ll_parent l, ll_toks l)) (r_lines (parse_file_model (render_prog ss) []))
+  = [(0%N, None, [0]); (1%N, None, [1; 2; 3; 5]); (1%N, Some (1, 3), [4]); (1%N, Some (1, 5), [6]);
+     (2%N, Some (1, 5), [7; 8; 9]); (1%N, Some (4, 9), [10; 11; 12; 13]); (1%N, Some (1, 5), [14; 15]);
+     (1%N, None, [16; 17]); (0%N, None, [18; 19]); (0%N, None, [20])].
+Proof. vm_compute. reflexivity. Qed.
+
+(* a case statement: the child lines of an arm come after the line that follows the arm line *)
+Example fragment_case_lines :
+  let ss := SCaseElse (ACons TSimple (ACons (TBlock (SSimple SNil)) ANil)) (SAssign SNil) (SCase ANil SNil) in
+  map (fun l => (ll_type l, ll_level l, ll_parent l, ll_toks l)) (r_lines (parse_file_model (render_prog ss) []))
+  = [(LLT_Unknown, 0%N, None, [0]); (LLT_CaseHeader, 1%N, None, [1; 2; 3]); (LLT_CaseArm, 2%N, None, [4; 5]);
+     (LLT_CaseArm, 2%N, None, [8; 9]); (LLT_Unknown, 1%N, Some (2, 5), [6; 7]); (LLT_Unknown, 1%N, None, [15]);
+     (LLT_Unknown, 1%N, Some (3, 9), [10]); (LLT_Unknown, 2%N, Some (3, 9), [11; 12]); (LLT_Unknown, 1%N, Some (3, 9), [13; 14]);
+     (LLT_Assignment, 2%N, None, [16; 17; 18; 19]); (LLT_Unknown, 1%N, None, [20; 21]);
+     (LLT_CaseHeader, 1%N, None, [22; 23; 24]); (LLT_Unknown, 1%N, None, [25; 26]);
+     (LLT_Unknown, 0%N, None, [27; 28]); (LLT_Eof, 0%N, None, [29])].
+Proof. vm_compute. reflexivity. Qed.
+
 (* non-vacuity: a program with three nesting levels, all statement forms *)
 Example fragment_example :
-  let ss := SSimple (SRepeat (SAssign (STry SNil (SSimple SNil) SNil)) (STry (SBlock SNil SNil) SNil (SBlock (SAssign SNil) SNil))) in
+  let ss := SSimple (SRepeat (SAssign (STry SNil (SSimple SNil) SNil))
+              (STry (SBlock SNil SNil) (SIf (TBlock (SSimple SNil)) SNil)
+                 (SBlock (SAssign (SWhile TSimple SNil)) (SIfElse TAssign TSimple (STryExcept (SSimple SNil) (SAssign SNil)
+                    (SCaseElse (ACons (TBlock (SCase (ACons TSimple ANil) SNil)) (ACons TAssign ANil)) (SIf TSimple SNil) SNil)))))) in
   r_lines (parse_file_model (render_prog ss) []) = expected_prog ss
+  /\ child_free ss = false /\ child_free (SSimple (SRepeat SNil SNil)) = true
   /\ map (fun l => (ll_level l, ll_toks l)) (firstn 9 (expected_prog ss))
      = [(0%N, [0]); (1%N, [1; 2]); (1%N, [3]); (2%N, [4; 5; 6; 7]); (2%N, [8]); (2%N, [9]); (3%N, [10; 11]); (2%N, [12; 13]);
         (1%N, [14; 15; 16])].
-Proof. split; vm_compute; reflexivity. Qed.
+Proof. repeat split; vm_compute; reflexivity. Qed.
